@@ -1,81 +1,56 @@
 """C17 - assemble_rtf yields one well-formed document with every input in order.
 
-R17.1 writer/reader layout agreement: the encoders' literal preamble gives the line on which the font table closes
-(that line must carry nothing else; every document ends with a line consisting of '}' only); a non-first input must be
-kept from the line after it.  R17.2 behaviour of assemble_rtf observed by interpreting its syntax tree over an
-in-memory file system with model documents (empty list, single input, all layout combinations of two/three inputs,
-missing inputs).  R17.3 a second call after an input was rewritten assembles the new content (functools caches are
-modelled faithfully by the interpreter).
+R17.1 (A) writer/reader layout agreement: from the abstract document shape of each encode path (sa/docshape) the literal
+      preamble is taken; the line offset from the last line containing the reader's marker to the first body line must equal
+      the constant the reader adds to the last marker line, the line closing the font table must carry nothing else and every
+      document alternative must end with a line that is exactly '}'.
+R17.2 (A) assemble_rtf is evaluated ONCE over symbolic inputs (SDT below): `input_files` is an uninterpreted sequence of unknown
+      length N, a loop over it is one generic iteration at position K; the written stream is a sequence of segments "for every
+      position of a range: these pieces"; every condition consulted is enumerated.  Conditions that are linear in (K, N) are
+      decided per position class (first/last) by linear reasoning.  Judged from the summary: the segments tile 0..N-1 in
+      argument order, the piece of position K is a slice of the lines read from input K that starts at 0 for the first input
+      and at `last line containing the marker + c` (scan of that input's own lines) otherwise, ends before the closing line
+      for all but the last input, and is followed by a \\page line exactly for non-last inputs; an empty list touches nothing.
+R17.3 (S) control-flow graph of assemble_rtf: no input is read after the output was opened for writing, an explicit existence
+      check dominates every write and lies outside the loops that write; memoised readers on the call graph (effects) are
+      positive evidence of stale content.
 
-This module also hosts the model interpreter and the file-system model shared by the C17..C20 rules.
+This module also hosts SDT, the symbolic evaluator (an extension of sa/rules/c05.LDT) shared by the C17, C19 and C20 rules.
 """
 from __future__ import annotations
 
 import ast
+import dataclasses
+from dataclasses import dataclass
+from fractions import Fraction
+from typing import Any
 
 from .. import shapes as S
+from ..absint import NOC
+from ..astmatch import guards
+from ..cfg import CFG, own_parts
 from ..docshape import PATHS, doc_shape, make_interp
+from ..dtab import DT, NeedAtom, Run, Sym, Unsupported, _Break, _Continue, _OPS, _Raise, _Return, _cmp
 from ..pm import AnalysisError, dotted, unparse, walk_no_nested
 from ..report import Ctx
+from .c05 import (LDT, CallSym, Carried, CmpSym, ElemSym, Init, LinSym, RangeSym, SliceSym, SubSym, has_sym, lin_of, lin_sub, parts,
+                  path_of)
 
-# ================================================================================================
-# Model interpreter: the syntax tree of a repository function is interpreted over *model values*
-# (ordinary Python data for data, small model objects for the outside world: files, paths, converters,
-# font loaders ...).  Nothing of the repository is imported or executed by Python itself.  Rules use it
-# to observe what a function *does* on representative model inputs (what it reads, writes, raises and
-# returns) instead of matching how its source is spelled; a construct outside the supported subset
-# raises Unsupported (an AnalysisError: analysis gap, never a violation).
-# ================================================================================================
-import builtins as _bi
-import collections as _collections
-import collections.abc as _abc
-import copy as _copy
-import functools as _functools
-import itertools as _itertools
-import math as _math
-import operator as _operator
-import os.path as _ospath
-import re as _re
-import string as _string
-import typing as _typing
-import fractions as _fractions
-import decimal as _decimal
-import numbers as _numbers
-import textwrap as _textwrap
-import bisect as _bisect
-import heapq as _heapq
-import statistics as _statistics
-
-
-class Unsupported(AnalysisError):
-    """construct outside the interpreted subset / unmodelled external"""
-
-
-class NeedChoice(Exception):
-    def __init__(self, key, domain):
-        self.key, self.domain = key, list(domain)
-
-
-class PyExc(Exception):
-    """an exception propagating inside the interpreted program; .val is the exception object (Obj)"""
-
-    def __init__(self, val):
-        Exception.__init__(self, repr(val))
-        self.val = val
-
-
-class _Return(Exception):
-    def __init__(self, v):
-        self.v = v
-
-
-class _Break(Exception):
-    pass
-
-
-class _Continue(Exception):
-    pass
-
+# ================================================================================================================
+# SDT: symbolic evaluation with sequences of unknown length, finite tables, exceptions and monomials
+# ================================================================================================================
+# What is added to LDT (all of it symbolic; nothing is executed, no input value is chosen):
+#   * a loop / comprehension over a symbolic sequence is ONE generic iteration at position K of the sequence's family
+#     (root sequence, generic index K, generic element root[K], length N); what the iteration appends to a list becomes a
+#     `Star` segment "for every position of [lo, N-1+hi]: these items" (so the list is never a one-element list);
+#     slices / subscripts of such aligned lists shift the range or substitute a fixed position for K;
+#   * a scalar that the generic iteration sets to a position-dependent value becomes Pick(last|first position where the
+#     conditions consulted in that iteration held);
+#   * finite tables of the source: `x in TABLE` is one canonical atom per (term, table), TABLE[x] forks on that atom
+#     (KeyError otherwise), SEQ[i] with a symbolic index forks three ways (in range / negative wrap-around / IndexError)
+#     unless the comparisons already consulted on the index decide it;
+#   * raise / try / except / finally with the builtin exception hierarchy, with-statements binding their target,
+#     match statements over literals; products and quotients as monomials (coefficient x symbols^exponent).
 
 EXC_BASES = {
     "BaseException": None, "Exception": "BaseException", "ArithmeticError": "Exception", "ZeroDivisionError": "ArithmeticError",
@@ -86,2273 +61,1916 @@ EXC_BASES = {
     "TimeoutError": "OSError", "RuntimeError": "Exception", "NotImplementedError": "RuntimeError", "RecursionError": "RuntimeError",
     "StopIteration": "Exception", "TypeError": "Exception", "ValueError": "Exception", "UnicodeError": "ValueError",
     "UnicodeDecodeError": "UnicodeError", "UnicodeEncodeError": "UnicodeError", "KeyboardInterrupt": "BaseException",
-    "SystemExit": "BaseException", "GeneratorExit": "BaseException", "Warning": "Exception", "UserWarning": "Warning",
-    "DeprecationWarning": "Warning", "IOError": "OSError", "EnvironmentError": "OSError",
-    "ValidationError": "ValueError",          # pydantic_core.ValidationError
+    "SystemExit": "BaseException", "IOError": "OSError", "EnvironmentError": "OSError", "Warning": "Exception",
+    "ValidationError": "ValueError", "PydanticCustomError": "ValueError",
 }
 
 
-class BuiltinExc:
-    """a builtin exception class"""
-
-    def __init__(self, name):
-        self.name = name
-
-    def mro_names(self):
-        out, n = [], self.name
-        while n is not None:
-            out.append(n)
-            n = EXC_BASES.get(n)
-        return out + ["object"]
-
-    def __repr__(self):
-        return f"<class {self.name}>"
-
-    def __deepcopy__(self, memo):
-        return self
+def exc_mro(pm, name: str) -> list[str]:
+    """names of the exception class and its bases (builtin table + classes of the analysed package)"""
+    out, todo = [], [name.split(".")[-1]]
+    while todo:
+        n = todo.pop(0)
+        if n in out or n is None:
+            continue
+        out.append(n)
+        if n in EXC_BASES:
+            todo.append(EXC_BASES[n])
+        elif n in pm.classes:
+            todo.extend(b.split(".")[-1] for b in pm.classes[n].bases)
+    return out
 
 
-_BEXC = {n: BuiltinExc(n) for n in EXC_BASES}
-_BEXC["IOError"] = _BEXC["EnvironmentError"] = _BEXC["OSError"]
+def etype_of(r) -> str:
+    t = getattr(r, "etype", None)
+    if t:
+        return t
+    w = str(getattr(r, "what", r))
+    return w.split("(")[0].split()[0] if w else "?"
 
 
-class ClassVal:
-    """a class defined in the analysed repository"""
-
-    def __init__(self, it, ci):
-        self.it, self.ci, self.name = it, ci, ci.name
-        self.statics = {}          # class attributes assigned at run time / evaluated lazily
-
-    def mro_names(self):
-        out = []
-        for c in self.it.pm.mro(self.ci.name):
-            if c in self.it.pm.classes:
-                out.append(c)
-            elif c in EXC_BASES:
-                out.extend(x for x in _BEXC[c].mro_names() if x not in out)
-            else:
-                out.append(c)
-        return out + ["object"]
-
-    def __repr__(self):
-        return f"<class {self.name}>"
-
-    def __deepcopy__(self, memo):
-        return self
-
-    def __call__(self, *a, **k):
-        return self.it.call(self, list(a), k)
+@dataclass(frozen=True, eq=False)
+class Fam:
+    """the family of a symbolic sequence: generic position K, generic element root[K], length N"""
+    root: Any
+    k: Sym
+    elem: Sym
+    n: Sym
 
 
-class Obj:
-    """an instance of a repository class, of a builtin exception, or (cls None) a plain namespace"""
-
-    def __init__(self, cls, attrs=None):
-        self.cls = cls
-        self.attrs = dict(attrs or {})
-
-    def __repr__(self):
-        if self.cls is not None and "BaseException" in self.cls.mro_names():
-            return f"{self.cls.name}({', '.join(repr(a) for a in self.attrs.get('args', ()))})"
-        return f"<{self.cls.name if self.cls is not None else 'namespace'} object>"
+@dataclass(frozen=True, eq=False)
+class PosSym(Sym):
+    """the element of a family at a fixed position (0, N-1, ...)"""
+    fam: Any = None
+    pos: Any = None
 
 
-class Unknown:
-    """an arbitrary value coming from outside the analysed code (pure-function results on it are Unknown too)"""
-
-    def __init__(self, label):
-        self.label = label
-
-    def __repr__(self):
-        return f"<?{self.label}>"
-
-    def __deepcopy__(self, memo):
-        return self
+@dataclass(frozen=True, eq=False)
+class PickSym(Sym):
+    """the value a generic iteration assigned, taken at the last / first position where the iteration's conditions held"""
+    fam: Any = None
+    kind: str = "last"
+    conds: tuple = ()
+    term: Any = None
 
 
-class ExtRef:
-    """a name imported from outside the repository for which no model is registered"""
+@dataclass(frozen=True, eq=False)
+class TableSym(Sym):
+    table: Any = None
 
-    def __init__(self, dotted):
-        self.dotted = dotted
+
+@dataclass(frozen=True, eq=False)
+class MonoSym(Sym):
+    coef: Any = 1
+    factors: tuple = ()          # ((path, exponent, term), ...)
+
+
+@dataclass(frozen=True, eq=False)
+class ExcSym(Sym):
+    etype: str = ""
+
+
+class Spl:
+    """a symbolic sequence spliced into a list (list.extend / +=)"""
+
+    def __init__(self, term):
+        self.term = term
 
     def __repr__(self):
-        return f"<ext {self.dotted}>"
-
-    def __deepcopy__(self, memo):
-        return self
+        return f"*{path_of(self.term)}"
 
 
-class ModVal:
-    def __init__(self, mi):
-        self.mi = mi
+class Star:
+    """what ONE generic iteration over positions lo .. N-1+hi of a family contributed to a list"""
 
-    def __repr__(self):
-        return f"<module {self.mi.name}>"
-
-    def __deepcopy__(self, memo):
-        return self
-
-
-class Func:
-    def __init__(self, it, node, module, closure, fi=None, cls=None):
-        self.it, self.node, self.module, self.closure, self.fi, self.cls = it, node, module, closure, fi, cls
-        self.name = getattr(node, "name", "<lambda>")
-        facts = getattr(node, "_mpy_facts", None)
-        if facts is None:
-            facts = (not isinstance(node, ast.Lambda) and any(isinstance(n, (ast.Yield, ast.YieldFrom)) for n in walk_no_nested(node)),
-                     [dotted(d) for d in getattr(node, "decorator_list", [])])
-            node._mpy_facts = facts
-        self.is_gen, self.decos = facts
+    def __init__(self, fam, lo, hi, items, order="fwd", cond=(), loop=None, icond=None):
+        self.fam, self.lo, self.hi, self.items, self.order, self.cond, self.loop = fam, lo, hi, list(items), order, tuple(cond), loop
+        self.icond = list(icond) if icond is not None else [()] * len(self.items)      # per item: the conditions of the loop body its append depends on
 
     def __repr__(self):
-        return f"<function {self.name}>"
-
-    def __call__(self, *a, **k):
-        return self.it.call(self, list(a), k)
-
-    def __deepcopy__(self, memo):
-        return self
+        return f"Star⟨{self.fam.k.path}∈[{self.lo},N{self.hi:+d}] {self.order}{' if…' if self.cond else ''}: {', '.join(show(x) for x in self.items)}⟩"
 
 
-class Bound:
-    def __init__(self, func, recv):
-        self.func, self.recv = func, recv
+class View:
+    """enumerate / zip / reversed / sorted applied to something iterable"""
 
-    def __call__(self, *a, **k):
-        return self.func.it.call(self, list(a), k)
+    def __init__(self, kind, args, start=0):
+        self.kind, self.args, self.start = kind, list(args), start
 
     def __repr__(self):
-        return f"<bound {self.func.name}>"
-
-    def __deepcopy__(self, memo):
-        return self
+        return f"{self.kind}({', '.join(show(a) for a in self.args)})"
 
 
-class GenCM:
-    """result of calling a @contextmanager generator function"""
-
-    def __init__(self, gen):
-        self.gen = gen
-
-
-class SuperProxy:
-    def __init__(self, obj, after):
-        self.obj, self.after = obj, after
+def show(v) -> str:
+    if isinstance(v, (Star, Spl, View)):
+        return repr(v)
+    if isinstance(v, list):
+        return "[" + ", ".join(show(x) for x in v) + "]"
+    if isinstance(v, tuple):
+        return "(" + ", ".join(show(x) for x in v) + ")"
+    return path_of(v)
 
 
-class Frame:
-    __slots__ = ("vars", "parent", "module", "func", "outer_names")
-
-    def __init__(self, module, parent=None, func=None):
-        self.vars, self.parent, self.module, self.func = {}, parent, module, func
-        self.outer_names = set()
+def has_star(v) -> bool:
+    return isinstance(v, list) and any(isinstance(x, Star) for x in v)
 
 
-_NATIVE_MODULES = {"math": _math, "collections.abc": _abc, "collections": _collections, "itertools": _itertools,
-                   "functools": _functools, "operator": _operator, "string": _string, "re": _re, "typing": _typing,
-                   "copy": _copy, "os.path": _ospath, "fractions": _fractions, "decimal": _decimal, "numbers": _numbers,
-                   "textwrap": _textwrap, "bisect": _bisect, "heapq": _heapq, "statistics": _statistics}
-_IMPURE_NATIVE = {"os.path.exists", "os.path.isfile", "os.path.isdir", "os.path.getsize", "os.path.abspath", "os.path.expanduser",
-                  "os.path.realpath", "os.path.getmtime", "os.path.islink", "os.path.lexists", "os.path.samefile",
-                  "functools.lru_cache", "functools.cache", "functools.cached_property", "functools.wraps"}
-_PURE_OSPATH = {"join", "basename", "dirname", "splitext", "split", "normpath", "isabs", "sep", "commonprefix", "splitdrive", "extsep"}
-_SAFE_BUILTINS = ("abs", "all", "any", "ascii", "bin", "bool", "bytes", "bytearray", "chr", "complex", "dict", "divmod", "enumerate",
-                  "filter", "float", "format", "frozenset", "hash", "hex", "int", "iter", "list", "map", "max", "min", "next", "object",
-                  "oct", "ord", "pow", "range", "reversed", "round", "set", "slice", "sorted", "sum", "tuple", "zip", "str")
-_NATIVE_ERRORS = (KeyError, IndexError, ValueError, TypeError, AttributeError, ZeroDivisionError, StopIteration, OverflowError, LookupError,
-                  AssertionError, RecursionError)
-_BINOPS = {ast.Add: _operator.add, ast.Sub: _operator.sub, ast.Mult: _operator.mul, ast.Div: _operator.truediv,
-           ast.FloorDiv: _operator.floordiv, ast.Mod: _operator.mod, ast.Pow: _operator.pow, ast.BitOr: _operator.or_,
-           ast.BitAnd: _operator.and_, ast.BitXor: _operator.xor, ast.LShift: _operator.lshift, ast.RShift: _operator.rshift,
-           ast.MatMult: _operator.matmul}
-_CMPOPS = {ast.Eq: _operator.eq, ast.NotEq: _operator.ne, ast.Lt: _operator.lt, ast.LtE: _operator.le, ast.Gt: _operator.gt,
-           ast.GtE: _operator.ge, ast.Is: _operator.is_, ast.IsNot: _operator.is_not}
-_OPQ = (Unknown, ExtRef)
+def aligned(v):
+    """the single Star of a list that consists of exactly one unconditional one-item segment, else None"""
+    if isinstance(v, list) and len(v) == 1 and isinstance(v[0], Star) and len(v[0].items) == 1 and not v[0].cond and not v[0].icond[0] and not isinstance(v[0].items[0], (Spl, Star)):
+        return v[0]
+    return None
 
 
-class Interp:
-    """interpreter of repository syntax trees over model values.
+def sparts(v, depth: int = 0):
+    """parts() extended to the value kinds of SDT"""
+    if depth > 14:
+        return
+    if isinstance(v, Spl):
+        yield from sparts(v.term, depth + 1)
+        return
+    if isinstance(v, Star):
+        for x in v.items:
+            yield from sparts(x, depth + 1)
+        return
+    if isinstance(v, View):
+        for x in v.args:
+            yield from sparts(x, depth + 1)
+        return
+    yield v
+    if isinstance(v, dict):
+        for x in v.values():
+            yield from sparts(x, depth + 1)
+    elif isinstance(v, (list, tuple)):
+        for x in v:
+            yield from sparts(x, depth + 1)
+    elif isinstance(v, PickSym):
+        yield from sparts(v.term, depth + 1)
+        yield v.fam.elem
+        yield from sparts(v.fam.root, depth + 1)
+    elif isinstance(v, PosSym):
+        yield from sparts(v.fam.root, depth + 1)
+        yield from sparts(v.pos, depth + 1)
+    elif isinstance(v, MonoSym):
+        for _p, _e, t in v.factors:
+            yield from sparts(t, depth + 1)
+    elif isinstance(v, ElemSym):
+        yield from sparts(v.source, depth + 1)
+    elif isinstance(v, SubSym):
+        yield from sparts(v.base, depth + 1)
+        yield from sparts(v.key, depth + 1)
+    elif isinstance(v, SliceSym):
+        yield from sparts(v.base, depth + 1)
+        yield from sparts(v.lo, depth + 1)
+        yield from sparts(v.hi, depth + 1)
+    elif isinstance(v, CallSym):
+        yield from sparts(v.recv, depth + 1)
+        yield from sparts(v.args, depth + 1)
+        yield from sparts(tuple(x for _k, x in v.kw), depth + 1)
+    elif isinstance(v, RangeSym):
+        yield from sparts(v.lo, depth + 1)
+        yield from sparts(v.hi, depth + 1)
+    elif isinstance(v, LinSym):
+        yield from sparts(v.terms, depth + 1)
+    elif isinstance(v, CmpSym):
+        yield from sparts(v.left, depth + 1)
+        yield from sparts(v.right, depth + 1)
+    elif isinstance(v, Sym) and dataclasses.is_dataclass(v):
+        for f in dataclasses.fields(v):
+            if f.name not in ("path", "cls"):
+                x = getattr(v, f.name)
+                if isinstance(x, (Sym, tuple, list)):
+                    yield from sparts(x, depth + 1)
 
-    externals: dotted external name (as imported, e.g. 'os.path.exists', 'tempfile.TemporaryDirectory', 'shutil')
-    -> model value (any Python object; callables are called natively with model values).
-    Hooks for subclasses: make_model (instantiate a pydantic model), before_call (fault injection), isinstance_ext.
-    """
 
-    MAX_STEPS = 400000
+def subst(v, by_path: dict, text: list, depth: int = 0):
+    """copy of a term with the symbols named in by_path replaced (paths are rewritten textually)"""
+    if depth > 14:
+        return v
+    if isinstance(v, Sym):
+        if v.path in by_path:
+            return by_path[v.path]
+        if not dataclasses.is_dataclass(v):
+            return v
+        ch = {}
+        for f in dataclasses.fields(v):
+            if f.name in ("path", "cls", "fam", "op", "meth", "kind", "conds", "etype", "table", "lin", "coef"):
+                continue
+            x = getattr(v, f.name)
+            y = subst(x, by_path, text, depth + 1)
+            if y is not x:
+                ch[f.name] = y
+        p = v.path
+        for a, b in text:
+            p = p.replace(a, b)
+        if not ch and p == v.path:
+            return v
+        if isinstance(v, LinSym):
+            # recompute the linear form from the substituted terms
+            tot: Any = 0
+            lin = dict(v.lin)
+            out: dict = {"": lin.get("", 0)} if lin.get("", 0) else {}
+            new_terms = {}
+            for t in v.terms:
+                t2 = subst(t, by_path, text, depth + 1)
+                c = lin.get(t.path, 0)
+                l2 = lin_of(t2)
+                if l2 is None:
+                    l2 = {path_of(t2): 1}
+                for k2, c2 in l2.items():
+                    out[k2] = out.get(k2, 0) + c * c2
+                for tt in (t2.terms if isinstance(t2, LinSym) else ([t2] if isinstance(t2, Sym) else [])):
+                    new_terms[tt.path] = tt
+            out = {k2: c2 for k2, c2 in out.items() if c2 != 0}
+            return make_lin(out, new_terms)
+        try:
+            return dataclasses.replace(v, path=p, **ch)
+        except Exception:
+            return v
+    if isinstance(v, tuple):
+        t = tuple(subst(x, by_path, text, depth + 1) for x in v)
+        return t if any(a is not b for a, b in zip(t, v)) else v
+    if isinstance(v, list):
+        return [subst(x, by_path, text, depth + 1) for x in v]
+    if isinstance(v, Spl):
+        return Spl(subst(v.term, by_path, text, depth + 1))
+    if isinstance(v, Star):
+        return Star(v.fam, v.lo, v.hi, [subst(x, by_path, text, depth + 1) for x in v.items], v.order, v.cond, v.loop, v.icond)
+    return v
 
-    def __init__(self, pm, externals=None, lenient=True):
-        self.pm = pm
-        self.externals = {"os.environ": Unknown("os.environ"), "os.name": Unknown("os.name"), "sys.platform": Unknown("sys.platform"),
-                          "os.sep": "/", "os.altsep": None, "os.linesep": "\n", "os.curdir": ".", "os.pardir": "..",
-                          "sys.version_info": Unknown("sys.version_info"), "sys.stdout": ExtRef("sys.stdout"), "sys.stderr": ExtRef("sys.stderr"),
-                          "warnings.warn": (lambda *a, **k: None), "logging.getLogger": (lambda *a, **k: Unknown("logger"))}
-        self.externals.update(externals or {})
-        self.overrides = {}               # repository class / function short name -> model standing in for it
-        self.lenient = lenient            # unmodelled external calls give Unknown instead of Unsupported
-        self.valuation = {}
-        self.steps = 0
-        self.depth = 0
-        self._globals = {}
-        self._classes = {}
-        self._nt = {}
-        self._pending = set()
-        self.notes = []
-        self.exc_stack = []
-        self.choice_reads = 0
-        self._memo = {}
-        self._decorated = {}
-        self.in_definition = 0
 
-    # ------------------------------------------------------------------ choices (forking on unknown booleans)
-    def choose(self, key, domain=(True, False)):
-        self.choice_reads += 1
-        if key in self.valuation:
-            return self.valuation[key]
-        raise NeedChoice(key, domain)
+def make_lin(d: dict, terms: dict):
+    """a numeric value from a linear form {path: coefficient, '': constant}"""
+    d = {k: c for k, c in d.items() if c != 0}
+    if set(d) <= {""}:
+        return d.get("", 0)
+    if len(d) == 1:
+        (k, c), = d.items()
+        if c == 1 and k in terms:
+            return terms[k]
+    items = tuple(sorted(d.items()))
+    txt = " + ".join((f"{c}" if k == "" else (k if c == 1 else f"{c}*{k}")) for k, c in items)
+    return LinSym(txt, None, items, tuple(terms[k] for k, _c in items if k in terms))
 
-    def explore(self, thunk, limit=256):
-        """run thunk() under every valuation of the choices it consults -> [(valuation, outcome)] where outcome is
-        ('return', v) or ('raise', exception Obj)"""
+
+_NUMT = (int, float, Fraction)
+
+
+class SDT(LDT):
+    WATCH = ("append", "extend", "insert")
+
+    def __init__(self, pm, watch=(), **kw):
+        super().__init__(pm, watch=set(watch) | set(self.WATCH), **kw)
+        self.fams: dict[str, Fam] = {}
+        self.len_fams: dict[str, Fam] = {}
+        self.tables: dict[str, Any] = {}
+        self._tnames: dict[str, str] = {}
+        self._const_cache: dict[int, Any] = {}
+        self.reset_run()
+
+    # ------------------------------------------------------------------ driver
+    def reset_run(self):
+        self.consulted: list[str] = []
+        self.iter_stack: list = []
+        self.handling: list = []
+        self.marks: dict = {}
+        self.lookups: list = []
+
+    def table_rows(self, stmts, env_factory, fi=None, limit: int = 4000):
+        """evaluate the statements under every valuation of the conditions they consult
+        -> [dict(val=, env=, effects=, outcome=, consulted=, lookups=)]"""
         out, pending, n = [], [dict()], 0
         while pending:
             v = pending.pop()
             n += 1
             if n > limit:
-                raise Unsupported(f"more than {limit} combinations of unknown conditions")
-            self.valuation = v
+                raise Unsupported("decision table exceeds %d evaluations" % limit)
+            self.val, self.stores, self.run_state, self.depth = v, {}, Run(), 0
+            self.reset_run()
+            env = env_factory()
+            if fi is not None:
+                env["__fi__"] = fi
+            outcome: Any = "fall"
             try:
-                out.append((v, self.outcome(thunk)))
-            except NeedChoice as e:
+                self.block(stmts, env)
+            except NeedAtom as e:
+                self.discovered.setdefault(e.key, list(e.domain))
                 for x in e.domain:
                     pending.append({**v, e.key: x})
-        self.valuation = {}
+                continue
+            except _Return as r:
+                outcome = ("return", r.v)
+            except _Continue:
+                outcome = "continue"
+            except _Break:
+                outcome = "break"
+            except _Raise as r:
+                outcome = ("raise", etype_of(r), r.what, getattr(r, "node", None))
+            except RecursionError:
+                raise Unsupported("recursion limit in symbolic evaluation")
+            out.append(dict(val=v, env=env, effects=list(self.run_state.effects), outcome=outcome, consulted=list(self.consulted),
+                            lookups=list(self.lookups), stores=dict(self.stores)))
         return out
 
-    def outcome(self, thunk):
-        self.steps = 0
-        self.depth = 0
-        try:
-            return ("return", thunk())
-        except PyExc as e:
-            return ("raise", e.val)
+    def atom(self, key, domain):
+        if key not in self.consulted:
+            self.consulted.append(key)
+        return super().atom(key, domain)
 
-    # ------------------------------------------------------------------ exceptions
-    def exc_class(self, name):
-        return _BEXC[name]
-
-    def make_exc(self, name, *args):
-        """an exception raised by the interpreter or a model (not by a `raise` statement of the analysed code)"""
-        return Obj(_BEXC.get(name) or BuiltinExc(name), {"args": tuple(args), "__origin__": "interp"})
-
-    def throw(self, name, *args):
-        raise PyExc(self.make_exc(name, *args))
-
-    def is_exc_obj(self, v):
-        return isinstance(v, Obj) and v.cls is not None and "BaseException" in v.cls.mro_names()
-
-    def exc_names(self, v):
-        return v.cls.mro_names() if isinstance(v, Obj) and v.cls is not None else []
-
-    def native(self, f, *a, **k):
-        """call a native Python callable with model values; native errors become interpreted exceptions"""
-        try:
-            return f(*a, **k)
-        except (PyExc, Unsupported, NeedChoice, _Return):
-            raise
-        except _NATIVE_ERRORS as e:
-            if any(isinstance(x, _OPQ) for x in list(a) + list(k.values())):
-                return Unknown(f"{getattr(f, '__name__', 'call')}(…)")
-            if any(isinstance(x, (Obj, ClassVal, Func, Bound)) for x in list(a) + list(k.values())) and isinstance(e, (TypeError, AttributeError)):
-                raise Unsupported(f"native {getattr(f, '__name__', f)} applied to a model object: {e}")
-            raise PyExc(self.make_exc(type(e).__name__, *e.args))
-
-    # ------------------------------------------------------------------ names
-    def class_val(self, ci):
-        cv = self._classes.get(ci.name)
-        if cv is None:
-            cv = self._classes[ci.name] = ClassVal(self, ci)
-        return cv
-
-    _DECO_SKIP = {"staticmethod", "classmethod", "property", "cached_property", "computed_field", "field_validator", "model_validator",
-                  "validator", "root_validator", "field_serializer", "model_serializer", "lru_cache", "cache", "contextmanager",
-                  "asynccontextmanager", "wraps", "overload", "abstractmethod", "override", "final", "deprecated", "no_type_check",
-                  "setter", "getter", "deleter", "dataclass", "total_ordering"}
-
-    def func_val(self, fi, closure=None):
-        f = Func(self, fi.node, fi.module, closure, fi=fi, cls=fi.cls)
-        if not fi.node.decorator_list:
-            return f
-        if closure is None and id(fi.node) in self._decorated:
-            return self._decorated[id(fi.node)]
-        d = self.decorated(f, fi.node, closure if closure is not None else Frame(fi.module))
-        if closure is None:
-            self._decorated[id(fi.node)] = d
-        return d
-
-    def decorated(self, f, node, fr):
-        """apply the decorators that are defined in the repository (or locally): they are part of what the function does;
-        decorators from outside are the identity here unless they are modelled elsewhere (memoisation, contextmanager, ...)"""
-        for d in reversed(node.decorator_list):
-            if dotted(d).split(".")[-1] in self._DECO_SKIP:
-                continue
-            root = d.func if isinstance(d, ast.Call) else d
-            while isinstance(root, ast.Attribute):
-                root = root.value
-            if not isinstance(root, ast.Name):
-                continue
-            local, x = False, fr
-            while x is not None and not local:
-                local = root.id in x.vars
-                x = x.parent
-            r = self.pm.resolve(f.module if isinstance(f, Func) else fr.module, root.id)
-            if not local and (r is None or r[0] not in ("func", "class", "value", "module")):
-                continue
-            self.in_definition += 1          # decoration happens when the module is imported, not during the observed call
-            try:
-                dv = self.ev(d, fr)
-                if isinstance(dv, _OPQ):
-                    continue
-                f = self.call(dv, [f], {})
-            finally:
-                self.in_definition -= 1
+    # ------------------------------------------------------------------ families
+    def family(self, root) -> Fam:
+        p = path_of(root)
+        f = self.fams.get(p)
+        if f is None:
+            f = Fam(root, Sym(f"κ⟨{p}⟩"), ElemSym(f"{p}[κ]", None, root), Sym(f"len({p})"))
+            self.fams[p] = f
+            self.len_fams[f.n.path] = f
         return f
 
-    def ext(self, dotted_name):
-        """value of an external (non-repository) dotted name: a registered model, an attribute of one, a pure
-        standard-library function, or an ExtRef placeholder"""
-        if dotted_name in self.externals:
-            return self.externals[dotted_name]
-        parts = dotted_name.split(".")
-        for i in range(len(parts) - 1, 0, -1):          # attribute of a registered model
-            head = ".".join(parts[:i])
-            if head in self.externals and not isinstance(self.externals[head], ExtRef):
-                v = self.externals[head]
-                for a in parts[i:]:
-                    v = self.getattr(v, a)
-                return v
-        if dotted_name == "typing.TYPE_CHECKING":
-            return False
-        if dotted_name in _NATIVE_MODULES:
-            return ExtRef(dotted_name)                   # leaves are resolved one by one (impure ones are never native)
-        if dotted_name not in _IMPURE_NATIVE and (not dotted_name.startswith("os.path.") or parts[-1] in _PURE_OSPATH):
-            for i in range(len(parts) - 1, 0, -1):
-                head = ".".join(parts[:i])
-                if head in _NATIVE_MODULES:
-                    v = _NATIVE_MODULES[head]
-                    try:
-                        for a in parts[i:]:
-                            v = getattr(v, a)
-                    except AttributeError:
-                        break
-                    if isinstance(v, type(_math)):
-                        break
-                    return v
-        return ExtRef(dotted_name)
+    def at(self, fam: Fam, item, pos):
+        """the item of a generic iteration, taken at a fixed position"""
+        ptxt = path_of(pos)
+        pe = PosSym(f"{path_of(fam.root)}[{ptxt}]", None, fam, pos)
+        return subst(item, {fam.elem.path: pe, fam.k.path: pos}, [(fam.elem.path, pe.path), (fam.k.path, ptxt)])
 
-    def global_name(self, module, name):
-        key = (module, name)
-        if key in self._globals:
-            return self._globals[key]
-        r = self.pm.resolve(module, name)
-        if r is None:
-            if name in _BEXC:
-                v = _BEXC[name]
-            else:
-                v = self.builtin(name)
-                if v is None and name not in ("None",):
-                    v = Unknown(name)
-            self._globals[key] = v
-            return v
-        kind, x = r
-        if kind in ("class", "func") and (x.name if kind == "class" else x.short) in self.overrides:
-            return self.overrides[x.name if kind == "class" else x.short]
-        if kind == "class":
-            v = self.class_val(x)
-        elif kind == "func":
-            v = self.func_val(x)
-        elif kind == "module":
-            v = ModVal(x)
-        elif kind == "ext":
-            v = self.ext(x)
-        else:
-            mi, expr = x
-            k2 = (mi.name, name)
-            if k2 in self._globals:
-                return self._globals[k2]
-            if k2 in self._pending:
-                raise Unsupported(f"cyclic module-level definition of {name}")
-            self._pending.add(k2)
-            before = self.choice_reads
-            self.in_definition += 1          # module-level code runs at import time, not during the observed call
-            try:
-                v = self.ev(expr, Frame(mi.name))
-            finally:
-                self.in_definition -= 1
-                self._pending.discard(k2)
-            if self.choice_reads != before:
-                return v                      # depends on an unknown condition: valid for this valuation only
-            self._globals[k2] = v
-        self._globals[key] = v
-        return v
+    def add(self, a, b):
+        return self.binop(ast.Add(), a, b, None)
 
-    def builtin(self, name):
-        if "builtins." + name in self.externals:
-            return self.externals["builtins." + name]
-        if name in _SAFE_BUILTINS:
-            return getattr(_bi, name)
-        m = getattr(self, "bi_" + name, None)
-        if m is not None:
-            return m
-        if name in ("True", "False", "None"):
-            return {"True": True, "False": False, "None": None}[name]
-        if name in ("NotImplemented", "Ellipsis"):
-            return getattr(_bi, name)
-        return None
+    def sub(self, a, b):
+        return self.binop(ast.Sub(), a, b, None)
 
-    def lookup(self, name, fr):
-        f = fr
-        while f is not None:
-            if name in f.vars:
-                return f.vars[name]
-            f = f.parent
-        return self.global_name(fr.module, name)
-
-    # ------------------------------------------------------------------ builtins needing the interpreter
-    def bi_print(self, *a, sep=" ", end="\n", file=None, flush=False):
-        if file is None or isinstance(file, ExtRef) and file.dotted in ("sys.stdout", "sys.stderr"):
-            return None
-        if isinstance(file, _OPQ):
-            raise Unsupported(f"print to an unknown stream {file!r}")
-        text = (" " if sep is None else sep).join(self.fmt(x, "s") if not isinstance(x, str) else x for x in a) + ("\n" if end is None else end)
-        self.call(self.getattr(file, "write"), [text], {})
-        return None
-
-    def bi_len(self, v):
-        if isinstance(v, ClassVal) and self.is_enum(v):
-            return len(self.enum_members(v))
-        if isinstance(v, Obj):
-            m = self.find_method(v, "__len__")
-            if m is None:
-                self.throw("TypeError", "object has no len()")
-            return self.call(m, [], {})
-        if isinstance(v, _OPQ):
-            return Unknown(f"len({v!r})")
-        return self.native(len, v)
-
-    def bi_isinstance(self, v, t):
-        return self.isinst(v, t)
-
-    def bi_issubclass(self, c, t):
-        ts = t if isinstance(t, tuple) else (t,)
-        if isinstance(c, (ClassVal, BuiltinExc)):
-            return any(isinstance(x, (ClassVal, BuiltinExc)) and x.name in c.mro_names() for x in ts)
-        if isinstance(c, type) and all(isinstance(x, type) for x in ts):
-            return issubclass(c, ts)
-        raise Unsupported("issubclass on model values")
-
-    def bi_getattr(self, o, name, *default):
-        try:
-            return self.getattr(o, name)
-        except PyExc as e:
-            if default and "AttributeError" in self.exc_names(e.val):
-                return default[0]
-            raise
-
-    def bi_hasattr(self, o, name):
-        try:
-            self.getattr(o, name)
-            return True
-        except PyExc as e:
-            if "AttributeError" in self.exc_names(e.val):
-                return False
-            raise
-
-    def bi_setattr(self, o, name, v):
-        self.setattr(o, name, v)
-
-    def bi_type(self, v):
-        if isinstance(v, Obj):
-            return v.cls
-        if isinstance(v, _OPQ):
-            return Unknown(f"type({v!r})")
-        for cv, t in self._nt.items():
-            if type(v) is t:
-                return self._classes[cv]
-        return type(v)
-
-    def bi_callable(self, v):
-        return isinstance(v, (Func, Bound, ClassVal, BuiltinExc)) or callable(v)
-
-    def bi_repr(self, v):
-        return self.fmt(v, "r")
-
-    def bi_id(self, v):
-        return id(v)
-
-    def bi_vars(self, v):
-        if isinstance(v, Obj):
-            return v.attrs
-        raise Unsupported("vars()")
-
-    def bi_super(self, *a):
-        raise Unsupported("super() outside a method")
-
-    def bi_open(self, *a, **k):
-        raise Unsupported("open() is not modelled here")
-
-    def bi_staticmethod(self, f):
-        return f
-
-    def bi_classmethod(self, f):
-        return f
-
-    def bi_property(self, f):
-        return f
-
-    # ------------------------------------------------------------------ values
-    def truth(self, v):
-        if isinstance(v, Obj):
-            for nm in ("__bool__", "__len__"):
-                m = self.find_method(v, nm)
-                if m is not None:
-                    return bool(self.call(m, [], {}))
-            return True
-        if isinstance(v, _OPQ):
-            return self.choose(f"bool({v!r})")
-        if isinstance(v, (ClassVal, BuiltinExc, Func, Bound, ModVal)):
-            return True
-        return bool(self.native(bool, v))
-
-    def fmt(self, v, conv=None, spec=""):
-        if isinstance(v, Obj):
-            if self.is_exc_obj(v):
-                if conv == "r":
-                    return repr(v)
-                a = v.attrs.get("args", ())
-                s = self.fmt(a[0]) if len(a) == 1 else (str(tuple(a)) if a else "")
-            else:
-                m = self.find_method(v, "__str__") if conv != "r" else self.find_method(v, "__repr__")
-                if m is None and "_name_" in v.attrs and isinstance(v.cls, ClassVal) and self.is_enum(v.cls):
-                    plain = self.enum_plain(v)
-                    s = str(plain) if plain is not v and conv != "r" and "StrEnum" in v.cls.mro_names() else f"{v.cls.name}.{v.attrs['_name_']}"
+    def phases(self, v, order="fwd"):
+        """how iteration over v proceeds: [('one', item, index) | ('star', fam, lo, hi, order, item, index, cond)] or None"""
+        v = self.concrete(v)
+        if isinstance(v, dict):
+            v = list(v)
+        if isinstance(v, range):
+            v = list(v)
+        if isinstance(v, list) and len(v) == 1 and isinstance(v[0], Spl):
+            return self.phases(v[0].term, order)
+        if isinstance(v, (list, tuple)):
+            out, off = [], 0
+            for x in v:
+                if isinstance(x, Star):
+                    if len(x.items) != 1 or isinstance(x.items[0], Star):
+                        return None
+                    it = x.items[0]
+                    if isinstance(it, Spl):
+                        return None
+                    idx = self.add(off, self.sub(x.fam.k, x.lo)) if x.lo else self.add(off, x.fam.k)
+                    o = x.order if order == "fwd" else ("rev" if x.order == "fwd" else x.order)
+                    out.append(("star", x.fam, x.lo, x.hi, o, it, idx, x.cond))
+                    off = self.add(off, self.add(x.fam.n, x.hi - x.lo))
+                elif isinstance(x, Spl):
+                    return None
                 else:
-                    s = self.call(m, [], {}) if m is not None else repr(v)
-            return format(s, spec) if spec else s
-        if isinstance(v, (list, tuple, dict, set, frozenset)) and not spec:
-            return repr(v) if conv in (None, "r") else str(v)
-        if isinstance(v, (_OPQ, ClassVal, BuiltinExc, Func, Bound, ModVal)):
-            return repr(v)
-        if conv == "r":
-            v = repr(v)
-        elif conv == "a":
-            v = ascii(v)
-        elif conv == "s":
-            v = str(v)
-        return self.native(format, v, spec)
-
-    def isinst(self, v, t):
-        if isinstance(t, tuple):
-            return any(self.isinst(v, x) for x in t)
-        if isinstance(t, (ClassVal, BuiltinExc)):
-            if isinstance(v, Obj) and v.cls is not None:
-                return t.name in v.cls.mro_names()
-            if isinstance(t, ClassVal) and t.name in self._nt:
-                return type(v) is self._nt[t.name]
-            if isinstance(v, _OPQ):
-                return self.choose(f"isinstance({v!r}, {t.name})")
-            return False
-        if isinstance(t, _OPQ):
-            return self.isinstance_ext(v, t)
-        if isinstance(v, _OPQ):
-            return self.choose(f"isinstance({v!r}, {getattr(t, '__name__', t)})")
-        if isinstance(v, Obj):
-            return t is object
-        try:
-            return isinstance(v, t)
-        except TypeError:
-            return self.isinstance_ext(v, t)
-
-    def isinstance_ext(self, v, t):
-        """isinstance against an unmodelled external type"""
-        if isinstance(v, (bool, int, float, str, bytes, list, tuple, dict, set, frozenset, type(None), Obj)):
-            return False
-        return self.choose(f"isinstance({v!r}, {t!r})")
-
-    # ------------------------------------------------------------------ attributes
-    def find_method(self, obj, name):
-        """bound method `name` of an Obj defined in a repository class, or None"""
-        if not isinstance(obj, Obj) or not isinstance(obj.cls, ClassVal):
-            return None
-        fi = self.pm.find_method(obj.cls.ci.name, name)
-        if fi is None:
-            return None
-        return Bound(self.func_val(fi), obj)
-
-    def is_enum(self, cv):
-        return isinstance(cv, ClassVal) and any(n in ("Enum", "IntEnum", "StrEnum", "Flag", "IntFlag") for n in cv.mro_names())
-
-    def enum_members(self, cv):
-        ms = cv.statics.get("__members__")
-        if ms is None:
-            ms, last = {}, 0
-            names = cv.mro_names()
-            for nm, expr in cv.ci.class_assigns.items():
-                if nm.startswith("_") or (nm in cv.ci.fields and cv.ci.fields[nm].value is None):
-                    continue
-                if isinstance(expr, ast.Call) and dotted(expr.func).split(".")[-1] == "auto":
-                    val = nm.lower() if "StrEnum" in names else (last + 1 if isinstance(last, int) else 1)
-                else:
-                    val = self.ev(expr, Frame(cv.ci.module))
-                last = val
-                ms[nm] = Obj(cv, {"name": nm, "value": val, "_name_": nm, "_value_": val})
-            cv.statics["__members__"] = ms
-        return ms
-
-    def enum_plain(self, v):
-        """the value an enum member with a str/int mix-in compares as"""
-        if isinstance(v, Obj) and isinstance(v.cls, ClassVal) and "_value_" in v.attrs and self.is_enum(v.cls) \
-                and any(n in ("str", "int", "StrEnum", "IntEnum", "IntFlag") for n in v.cls.mro_names()):
-            return v.attrs["_value_"]
-        return v
-
-    def class_attr(self, cv, name, recv=None):
-        """attribute looked up on the class (through the MRO); recv = instance for binding"""
-        if name in cv.statics:
-            return cv.statics[name]
-        if self.is_enum(cv):
-            ms = self.enum_members(cv)
-            if name in ms:
-                return ms[name]
-            if name == "__members__":
-                return ms
-        for c in self.pm.mro(cv.ci.name):
-            ci = self.pm.classes.get(c)
-            if ci is None:
-                continue
-            if c != cv.ci.name:
-                st = self.class_val(ci).statics
-                if name in st:
-                    return st[name]
-            if name in ci.methods:
-                fi = ci.methods[name]
-                f = self.func_val(fi)
-                if "staticmethod" in fi.decorators or not isinstance(f, Func):
-                    return f
-                if fi.is_classmethod:
-                    return Bound(f, cv)
-                if any(d.split(".")[-1] in ("property", "cached_property", "computed_field") for d in fi.decorators):
-                    if recv is not None:
-                        return self.call(Bound(f, recv), [], {})
-                    return f
-                return Bound(f, recv) if recv is not None else f
-            if name in ci.class_assigns:
-                v = self.field_default(ci.class_assigns[name], Frame(ci.module)) if name in ci.fields else self.ev(ci.class_assigns[name], Frame(ci.module))
-                if v is NotImplemented:
-                    continue
-                self.class_val(ci).statics[name] = v
-                return v
-        raise KeyError(name)
-
-    def getattr(self, o, name):
-        if isinstance(o, Obj):
-            if name in o.attrs:
-                return o.attrs[name]
-            if name == "__dict__":
-                return o.attrs
-            if name == "__class__":
-                return o.cls
-            if isinstance(o.cls, ClassVal):
-                try:
-                    return self.class_attr(o.cls, name, recv=o)
-                except KeyError:
-                    pass
-                v = self.model_attr(o, name)
-                if v is not NotImplemented:
-                    return v
-            self.throw("AttributeError", f"'{o.cls.name if o.cls is not None else 'namespace'}' object has no attribute '{name}'")
-        if isinstance(o, ClassVal):
-            if name in ("__name__", "__qualname__"):
-                return o.name
-            try:
-                return self.class_attr(o, name)
-            except KeyError:
-                v = self.model_class_attr(o, name)
-                if v is not NotImplemented:
-                    return v
-                self.throw("AttributeError", f"type object '{o.name}' has no attribute '{name}'")
-        if isinstance(o, BuiltinExc):
-            if name in ("__name__", "__qualname__"):
-                return o.name
-            self.throw("AttributeError", name)
-        if isinstance(o, ModVal):
-            return self.global_name(o.mi.name, name)
-        if isinstance(o, ExtRef):
-            return self.ext(o.dotted + "." + name)
-        if isinstance(o, Unknown):
-            return Unknown(f"{o.label}.{name}")
-        if isinstance(o, SuperProxy):
-            return self.super_attr(o, name)
-        if isinstance(o, (Func, Bound)):
-            if name in ("__name__", "__qualname__"):
-                return (o.func if isinstance(o, Bound) else o).name
-            self.throw("AttributeError", name)
-        try:
-            return getattr(o, name)
-        except AttributeError:
-            self.throw("AttributeError", f"'{type(o).__name__}' object has no attribute '{name}'")
-
-    def model_attr(self, o, name):
-        return NotImplemented
-
-    def model_class_attr(self, cv, name):
-        return NotImplemented
-
-    def super_attr(self, sp, name):
-        obj, after = sp.obj, sp.after
-        cv = obj.cls if isinstance(obj, Obj) else obj
-        mro = self.pm.mro(cv.ci.name)
-        rest = mro[mro.index(after) + 1:] if after in mro else []
-        for c in rest:
-            ci = self.pm.classes.get(c)
-            if ci is not None and name in ci.methods:
-                fi = ci.methods[name]
-                f = self.func_val(fi)
-                if "staticmethod" in fi.decorators:
-                    return f
-                return Bound(f, cv if fi.is_classmethod else obj)
-        return self.super_fallback(obj, name, rest)
-
-    def super_fallback(self, obj, name, rest):
-        if name == "__init__":
-            return lambda *a, **k: self.base_init(obj, a, k)
-        raise Unsupported(f"super().{name} resolves outside the repository")
-
-    def base_init(self, obj, a, k):
-        """object.__init__ / external base __init__"""
-        if a or k:
-            raise Unsupported(f"external base __init__ of {obj.cls.name} with arguments")
-        return None
-
-    def setattr(self, o, name, v):
-        if isinstance(o, Obj):
-            o.attrs[name] = v
-        elif isinstance(o, ClassVal):
-            o.statics[name] = v
-        elif isinstance(o, (_OPQ, ModVal, Func, Bound, BuiltinExc)):
-            raise Unsupported(f"attribute store on {o!r}")
-        else:
-            self.native(setattr, o, name, v)
-
-    # ------------------------------------------------------------------ calls
-    def before_call(self, node, f, args, kwargs):
-        """hook: called before every call made by interpreted code (fault injection)"""
-
-    def call(self, f, args, kwargs, node=None):
-        if isinstance(f, Bound):
-            return self.call_func(f.func, [f.recv] + list(args), kwargs)
-        if isinstance(f, Func):
-            return self.call_func(f, list(args), kwargs)
-        if isinstance(f, ClassVal):
-            return self.instantiate(f, list(args), kwargs)
-        if isinstance(f, BuiltinExc):
-            return Obj(f, {"args": tuple(args)})
-        if isinstance(f, ExtRef):
-            return self.call_ext(f, args, kwargs)
-        if isinstance(f, Unknown):
-            return Unknown(f"{f.label}(…)")
-        if isinstance(f, Obj):
-            m = self.find_method(f, "__call__")
-            if m is None:
-                self.throw("TypeError", "object is not callable")
-            return self.call(m, args, kwargs)
-        if not callable(f):
-            self.throw("TypeError", f"'{type(f).__name__}' object is not callable")
-        if isinstance(f, type) and f in (int, float, str, bool, list, tuple, dict, set, frozenset) and args and isinstance(args[0], Obj):
-            if f is str:
-                return self.fmt(args[0])
-            if f is bool:
-                return self.truth(args[0])
-            raise Unsupported(f"{f.__name__}() of a model object")
-        if f in (str, repr) and args and isinstance(args[0], (_OPQ, ClassVal, BuiltinExc)):
-            return self.fmt(args[0])
-        if f is bool and args and isinstance(args[0], _OPQ):
-            return self.truth(args[0])
-        if f in (sorted, min, max) and any(isinstance(x, _OPQ) for x in args):
-            return Unknown(f"{f.__name__}(…)")
-        return self.native(f, *args, **kwargs)
-
-    STRICT_EXT = ("shutil.", "os.", "tempfile.", "io.", "pathlib.", "subprocess.", "fileinput.", "glob.", "zipfile.", "tarfile.", "mmap.",
-                  "codecs.open", "builtins.")
-
-    def call_ext(self, f, args, kwargs):
-        vals = list(args) + list(kwargs.values())
-        if any(isinstance(x, _Model) for x in vals) or any(isinstance(y, _Model) for x in vals if isinstance(x, (list, tuple)) for y in x):
-            raise Unsupported(f"unmodelled external {f.dotted} is applied to a model object")
-        if f.dotted.startswith(self.STRICT_EXT):
-            raise Unsupported(f"call of unmodelled external {f.dotted} (may touch the file system)")
-        if self.lenient:
-            self.notes.append(f"unmodelled external call {f.dotted}")
-            return Unknown(f"{f.dotted}(…)")
-        raise Unsupported(f"call of unmodelled external {f.dotted}")
-
-    def bind(self, func, args, kwargs):
-        a = func.node.args
-        fr = Frame(func.module, parent=func.closure, func=func)
-        pos = list(a.posonlyargs) + list(a.args)
-        defaults = [None] * (len(pos) - len(a.defaults)) + list(a.defaults)
-        args = list(args)
-        kwargs = dict(kwargs)
-        for i, p in enumerate(pos):
-            if i < len(args):
-                if p.arg in kwargs and p not in a.posonlyargs:
-                    self.throw("TypeError", f"{func.name}() got multiple values for argument '{p.arg}'")
-                fr.vars[p.arg] = args[i]
-            elif p.arg in kwargs and p not in a.posonlyargs:
-                fr.vars[p.arg] = kwargs.pop(p.arg)
-            elif defaults[i] is not None:
-                fr.vars[p.arg] = self.ev(defaults[i], Frame(func.module, parent=func.closure))
-            else:
-                self.throw("TypeError", f"{func.name}() missing required argument '{p.arg}'")
-        extra = args[len(pos):]
-        if a.vararg is not None:
-            fr.vars[a.vararg.arg] = tuple(extra)
-        elif extra:
-            self.throw("TypeError", f"{func.name}() takes {len(pos)} positional arguments but {len(args)} were given")
-        for p, d in zip(a.kwonlyargs, a.kw_defaults):
-            if p.arg in kwargs:
-                fr.vars[p.arg] = kwargs.pop(p.arg)
-            elif d is not None:
-                fr.vars[p.arg] = self.ev(d, Frame(func.module, parent=func.closure))
-            else:
-                self.throw("TypeError", f"{func.name}() missing keyword-only argument '{p.arg}'")
-        if a.kwarg is not None:
-            fr.vars[a.kwarg.arg] = kwargs
-        elif kwargs:
-            self.throw("TypeError", f"{func.name}() got an unexpected keyword argument '{sorted(kwargs)[0]}'")
-        return fr
-
-    def call_func(self, func, args, kwargs):
-        fr = self.bind(func, args, kwargs)
-        if isinstance(func.node, ast.Lambda):
-            return self.ev(func.node.body, fr)
-        if self.depth > 60:
-            raise Unsupported("interpretation depth exceeded in " + func.name)
-        if any(d.split(".")[-1] in ("lru_cache", "cache") for d in func.decos) and not func.is_gen:
-            # functools memoisation is part of the observable behaviour (stale results): model it faithfully
-            try:
-                key = (id(func.node), tuple(args), tuple(sorted(kwargs.items())))
-                hash(key)
-            except TypeError:
-                self.throw("TypeError", "unhashable argument to a memoised function")
-            if key not in self._memo:
-                self._memo[key] = self._run_body(func, fr)
-            return self._memo[key]
-        return self._run_body(func, fr)
-
-    def _run_body(self, func, fr):
-        if func.is_gen:
-            g = self.gen_body(func, fr)
-            if any(d.split(".")[-1] == "contextmanager" for d in func.decos):
-                return GenCM(g)
-            return g
-        self.depth += 1
-        try:
-            for _ in self.block(func.node.body, fr):
-                raise Unsupported("yield in a non-generator context")
-        except _Return as r:
-            return r.v
-        finally:
-            self.depth -= 1
-        return None
-
-    def gen_body(self, func, fr):
-        try:
-            yield from self.block(func.node.body, fr)
-        except _Return:
-            return
-
-    def instantiate(self, cv, args, kwargs):
-        names = cv.mro_names()
-        if "BaseException" in names:
-            o = Obj(cv, {"args": tuple(args)})
-            init = self.pm.find_method(cv.ci.name, "__init__")
-            if init is not None:
-                self.call_func(self.func_val(init), [o] + args, kwargs)
-            return o
-        if "NamedTuple" in names:
-            t = self._nt.get(cv.name)
-            if t is None:
-                flds = list(self.pm.all_fields(cv.ci.name))
-                dfl = [self.ev(cv.ci.class_assigns[f], Frame(cv.ci.module)) for f in flds if f in cv.ci.class_assigns]
-                t = self._nt[cv.name] = _collections.namedtuple(cv.name, flds, defaults=dfl or None)
-            return self.native(t, *args, **kwargs)
-        if "BaseModel" in names:
-            return self.make_model(cv, args, kwargs)
-        if any(d.split(".")[-1] == "dataclass" for d in [dotted(x) for x in cv.ci.node.decorator_list]):
-            o = Obj(cv, {})
-            flds = self.pm.all_fields(cv.ci.name)
-            it = iter(args)
-            for nm, decl in flds.items():
-                if "ClassVar" in unparse(decl.annotation):
-                    continue
-                try:
-                    o.attrs[nm] = next(it)
-                    continue
-                except StopIteration:
-                    pass
-                if nm in kwargs:
-                    o.attrs[nm] = kwargs[nm]
-                elif decl.value is not None:
-                    o.attrs[nm] = self.field_default(decl.value, Frame(cv.ci.module))
-                else:
-                    self.throw("TypeError", f"{cv.name}() missing argument '{nm}'")
-            m = self.find_method(o, "__post_init__")
-            if m is not None:
-                self.call(m, [], {})
-            return o
-        if self.is_enum(cv):
-            if len(args) != 1 or kwargs:
-                self.throw("TypeError", f"{cv.name}() takes exactly one value")
-            for m in self.enum_members(cv).values():
-                if m is args[0] or (not isinstance(args[0], (Obj, ) + _OPQ) and self.compare(ast.Eq(), m.attrs["_value_"], args[0])):
-                    return m
-            if isinstance(args[0], _OPQ):
-                raise Unsupported(f"{cv.name}(<unknown value>)")
-            self.throw("ValueError", f"{args[0]!r} is not a valid {cv.name}")
-        if any(n in names for n in ("Protocol", "TypedDict")):
-            raise Unsupported(f"instantiation of {cv.name}")
-        o = Obj(cv, {})
-        init = self.pm.find_method(cv.ci.name, "__init__")
-        if init is not None:
-            self.call_func(self.func_val(init), [o] + args, kwargs)
-        elif args or kwargs:
-            ext = [n for n in names if n not in self.pm.classes and n != "object"]
-            if ext:
-                raise Unsupported(f"{cv.name}(...) initialised by external base {ext[0]}")
-            self.throw("TypeError", f"{cv.name}() takes no arguments")
-        return o
-
-    def field_default(self, expr, fr):
-        """default of a dataclass / pydantic field declaration"""
-        if isinstance(expr, ast.Call) and dotted(expr.func).split(".")[-1] in ("field", "Field"):
-            for k in expr.keywords:
-                if k.arg == "default":
-                    return self.ev(k.value, fr)
-                if k.arg == "default_factory":
-                    return self.call(self.ev(k.value, fr), [], {})
-            if expr.args and dotted(expr.func).split(".")[-1] == "Field":
-                if isinstance(expr.args[0], ast.Constant) and expr.args[0].value is Ellipsis:
-                    return NotImplemented
-                return self.ev(expr.args[0], fr)
-            return NotImplemented
-        return self.ev(expr, fr)
-
-    def make_model(self, cv, args, kwargs):
-        raise Unsupported(f"construction of pydantic model {cv.name} is not modelled here")
-
-    # ------------------------------------------------------------------ statements (generators: a repository generator
-    # function maps onto a Python generator, so `with` over @contextmanager functions and try/finally behave faithfully)
-    def block(self, stmts, fr):
-        for s in stmts:
-            yield from self.stmt(s, fr)
-
-    def tick(self):
-        self.steps += 1
-        if self.steps > self.MAX_STEPS:
-            raise Unsupported("step budget exceeded (unbounded loop on model inputs?)")
-
-    def stmt(self, s, fr):
-        self.tick()
-        if isinstance(s, ast.Expr):
-            if isinstance(s.value, (ast.Yield, ast.YieldFrom)):
-                yield from self.do_yield(s.value, fr)
-            elif not isinstance(s.value, ast.Constant):
-                self.ev(s.value, fr)
-        elif isinstance(s, ast.Assign):
-            if isinstance(s.value, (ast.Yield, ast.YieldFrom)):
-                v = yield from self.do_yield(s.value, fr)
-            else:
-                v = self.ev(s.value, fr)
-            for t in s.targets:
-                self.assign(t, v, fr)
-        elif isinstance(s, ast.AnnAssign):
-            if s.value is not None:
-                self.assign(s.target, self.ev(s.value, fr), fr)
-        elif isinstance(s, ast.AugAssign):
-            cur = self.ev(_load(s.target), fr)
-            v = self.ev(s.value, fr)
-            if isinstance(s.op, ast.Add) and isinstance(cur, list) and not isinstance(v, _OPQ):
-                self.native(cur.extend, v)          # in-place semantics of list +=
-                self.assign(s.target, cur, fr)
-            else:
-                self.assign(s.target, self.binop(s.op, cur, v), fr)
-        elif isinstance(s, ast.Return):
-            raise _Return(self.ev(s.value, fr) if s.value is not None else None)
-        elif isinstance(s, ast.If):
-            yield from self.block(s.body if self.truth(self.ev(s.test, fr)) else s.orelse, fr)
-        elif isinstance(s, ast.For):
-            it = self.iterate(self.ev(s.iter, fr))
-            broke = False
-            for x in it:
-                self.tick()
-                self.assign(s.target, x, fr)
-                try:
-                    yield from self.block(s.body, fr)
-                except _Continue:
-                    continue
-                except _Break:
-                    broke = True
-                    break
-            if not broke:
-                yield from self.block(s.orelse, fr)
-        elif isinstance(s, ast.While):
-            broke = False
-            while self.truth(self.ev(s.test, fr)):
-                self.tick()
-                try:
-                    yield from self.block(s.body, fr)
-                except _Continue:
-                    continue
-                except _Break:
-                    broke = True
-                    break
-            if not broke:
-                yield from self.block(s.orelse, fr)
-        elif isinstance(s, ast.Raise):
-            if s.exc is None:
-                if not self.exc_stack:
-                    self.throw("RuntimeError", "No active exception to re-raise")
-                raise PyExc(self.exc_stack[-1])
-            e = self.ev(s.exc, fr)
-            if isinstance(e, (ClassVal, BuiltinExc)):
-                e = self.call(e, [], {})
-            if isinstance(e, _OPQ):
-                e = Obj(BuiltinExc(repr(e)), {"args": ()})
-            if not self.is_exc_obj(e):
-                self.throw("TypeError", "exceptions must derive from BaseException")
-            if s.cause is not None:
-                e.attrs["__cause__"] = self.ev(s.cause, fr)
-            raise PyExc(e)
-        elif isinstance(s, ast.Try):
-            yield from self.do_try(s, fr)
-        elif isinstance(s, ast.With):
-            yield from self.do_with(s, 0, fr)
-        elif isinstance(s, ast.Assert):
-            if not self.truth(self.ev(s.test, fr)):
-                self.throw("AssertionError", *( [self.ev(s.msg, fr)] if s.msg is not None else []))
-        elif isinstance(s, (ast.Pass, ast.Global)):
-            pass
-        elif isinstance(s, ast.Nonlocal):
-            fr.outer_names.update(s.names)
-        elif isinstance(s, ast.Break):
-            raise _Break()
-        elif isinstance(s, ast.Continue):
-            raise _Continue()
-        elif isinstance(s, (ast.FunctionDef, ast.AsyncFunctionDef)):
-            fi = self.pm.func_by_node.get(id(s))
-            f = Func(self, s, fr.module, fr, fi=fi, cls=None)
-            fr.vars[s.name] = self.decorated(f, s, fr) if s.decorator_list else f
-        elif isinstance(s, ast.Import):
-            for a in s.names:
-                nm = (a.asname or a.name.split(".")[0])
-                target = a.name if a.asname else a.name.split(".")[0]
-                fr.vars[nm] = ModVal(self.pm.modules[target]) if target in self.pm.modules else self.ext(target)
-        elif isinstance(s, ast.ImportFrom):
-            mi = self.pm.modules.get(fr.module)
-            base = self.pm._resolve_from(mi, s) if mi is not None else (s.module or "")
-            for a in s.names:
-                nm = a.asname or a.name
-                if f"{base}.{a.name}" in self.pm.modules:
-                    fr.vars[nm] = ModVal(self.pm.modules[f"{base}.{a.name}"])
-                elif base in self.pm.modules:
-                    fr.vars[nm] = self.global_name(base, a.name)
-                else:
-                    fr.vars[nm] = self.ext(f"{base}.{a.name}")
-        elif isinstance(s, ast.Delete):
-            for t in s.targets:
-                if isinstance(t, ast.Name):
-                    fr.vars.pop(t.id, None)
-                elif isinstance(t, ast.Subscript):
-                    self.native(_operator.delitem, self.ev(t.value, fr), self.ev_slice(t.slice, fr))
-                elif isinstance(t, ast.Attribute):
-                    o = self.ev(t.value, fr)
-                    if isinstance(o, Obj):
-                        o.attrs.pop(t.attr, None)
+                    out.append(("one", x, off))
+                    off = self.add(off, 1)
+            return out
+        if isinstance(v, View):
+            if v.kind == "enumerate":
+                ph = self.phases(v.args[0], order)
+                if ph is None:
+                    return None
+                res = []
+                for p in ph:
+                    if p[0] == "one":
+                        res.append(("one", (self.add(p[2], v.start), p[1]), p[2]))
                     else:
-                        raise Unsupported("del of attribute")
-        elif isinstance(s, ast.Match):
-            subj = self.ev(s.subject, fr)
-            for case in s.cases:
-                if self.match_pattern(case.pattern, subj, fr) and (case.guard is None or self.truth(self.ev(case.guard, fr))):
-                    yield from self.block(case.body, fr)
-                    break
-        else:
-            raise Unsupported("statement " + type(s).__name__)
-
-    def do_yield(self, y, fr):
-        if isinstance(y, ast.YieldFrom):
-            r = yield from self.iterate(self.ev(y.value, fr))
-            return r
-        v = self.ev(y.value, fr) if y.value is not None else None
-        sent = yield v
-        return sent
-
-    def do_try(self, s, fr):
-        try:
-            try:
-                yield from self.block(s.body, fr)
-            except PyExc as e:
-                names = self.exc_names(e.val)
-                for h in s.handlers:
-                    if h.type is None:
-                        ok = True
+                        res.append(p[:5] + ((self.add(p[6], v.start), p[5]), p[6], p[7]))
+                return res
+            if v.kind == "zip":
+                phs = [self.phases(a, order) for a in v.args]
+                if any(p is None for p in phs) or not phs:
+                    return None
+                if len({len(p) for p in phs}) != 1:
+                    return None
+                res = []
+                for tup in zip(*phs):
+                    if len({t[0] for t in tup}) != 1:
+                        return None
+                    if tup[0][0] == "one":
+                        res.append(("one", tuple(t[1] for t in tup), tup[0][2]))
                     else:
-                        t = self.ev(h.type, fr)
-                        ts = t if isinstance(t, tuple) else (t,)
-                        ok = False
-                        for x in ts:
-                            if isinstance(x, (ClassVal, BuiltinExc)):
-                                ok = ok or x.name in names
-                            elif isinstance(x, _OPQ):
-                                ok = ok or self.choose(f"except {x!r} catches {names[0]}")
-                            else:
-                                raise Unsupported("except clause type " + repr(x))
-                    if ok:
-                        if h.name:
-                            fr.vars[h.name] = e.val
-                        self.exc_stack.append(e.val)
-                        try:
-                            yield from self.block(h.body, fr)
-                        finally:
-                            self.exc_stack.pop()
-                        break
-                else:
-                    raise
-            else:
-                yield from self.block(s.orelse, fr)
-        finally:
+                        if len({(t[2], t[3], t[4]) for t in tup}) != 1:
+                            return None
+                        # positions coincide: the other sequences' generic elements are taken at the first family's position
+                        first = tup[0]
+                        items = [first[5]]
+                        for t in tup[1:]:
+                            items.append(t[5] if t[1] is first[1] else subst(t[5], {t[1].k.path: first[1].k}, [(t[1].k.path, first[1].k.path)]))
+                        res.append(first[:5] + (tuple(items), first[6], tuple(c for t in tup for c in t[7])))
+                return res
+            if v.kind in ("reversed", "sorted", "set"):
+                ph = self.phases(v.args[0], "rev" if v.kind == "reversed" else order)
+                if ph is None:
+                    return None
+                if v.kind == "reversed":
+                    return list(reversed(ph))
+                return [p if p[0] == "one" else p[:4] + (v.kind,) + p[5:] for p in ph]
+            return None
+        if isinstance(v, RangeSym):
+            lo, hi = self.concrete(v.lo), self.concrete(v.hi)
+            d = lin_of(hi)
+            if isinstance(lo, int) and lo >= 0 and d is not None:
+                ns = [k for k in d if k != ""]
+                if len(ns) == 1 and d[ns[0]] == 1 and ns[0] in self.len_fams and isinstance(d.get("", 0), int) and d.get("", 0) <= 0:
+                    fam = self.len_fams[ns[0]]
+                    return [("star", fam, lo, d.get("", 0), order, fam.k, fam.k, ())]
+            fam = self.family(v)
+            return [("star", fam, 0, 0, order, fam.elem, fam.k, ())]
+        if isinstance(v, SliceSym) and isinstance(v.base, Sym):
+            lo, hi = v.lo, v.hi
+            if (lo is None or (isinstance(lo, int) and lo >= 0)) and (hi is None or (isinstance(hi, int) and hi < 0)):
+                fam = self.family(v.base)
+                return [("star", fam, lo or 0, hi or 0, order, fam.elem, self.sub(fam.k, lo or 0), ())]
+        if isinstance(v, CallSym) and v.meth in ("list", "tuple", "iter") and len(v.args) == 1:
+            return self.phases(v.args[0], order)
+        if isinstance(v, Sym):
+            fam = self.family(v)
+            return [("star", fam, 0, 0, order, fam.elem, fam.k, ())]
+        return None
+
+    # ------------------------------------------------------------------ statements
+    def stmt(self, s, env):
+        if isinstance(s, ast.Raise):
+            return self._raise(s, env)
+        if isinstance(s, ast.Try):
+            return self._try(s, env)
+        if isinstance(s, (ast.With, ast.AsyncWith)):
+            for it in s.items:
+                v = self.ev(it.context_expr, env)
+                self.run_state.effects.append(("with-enter", it.context_expr, v, s))
+                if it.optional_vars is not None:
+                    self.assign(it.optional_vars, v, env)
+            try:
+                self.block(s.body, env)
+            finally:
+                self.run_state.effects.append(("with-exit", s))
+            return None
+        if isinstance(s, ast.Match):
+            return self._match_stmt(s, env)
+        if isinstance(s, ast.AugAssign) and isinstance(s.op, ast.Add):
+            cur = self.concrete(self.ev(s.target, env))
+            if isinstance(cur, list):
+                v = self.concrete(self.ev(s.value, env))
+                self._extend(cur, v, s)
+                return None
+        if isinstance(s, ast.Assert):
+            return None
+        if isinstance(s, ast.Delete):
+            for t in s.targets:
+                if isinstance(t, ast.Subscript):
+                    base = self.concrete(self.ev(t.value, env))
+                    k = self.concrete(self.ev(t.slice, env)) if not isinstance(t.slice, ast.Slice) else None
+                    if isinstance(base, Sym):
+                        if k == -1:
+                            self._rebind(env, base, SliceSym(f"{base.path}[:-1]", None, base, None, -1))
+                        elif k == 0:
+                            self._rebind(env, base, SliceSym(f"{base.path}[1:]", None, base, 1, None))
+                        else:
+                            self._rebind(env, base, Sym(f"?mutated:{base.path[:60]}"))
+                    elif isinstance(base, list):
+                        if isinstance(k, int) and -len(base) <= k < len(base) and not has_star(base) and not any(isinstance(x, Spl) for x in base):
+                            del base[k]
+                        else:
+                            base[:] = [Spl(Sym("?mutated:del"))]
+                    elif isinstance(base, dict) and k in base:
+                        del base[k]
+                elif isinstance(t, ast.Name):
+                    env.pop(t.id, None)
+            return None
+        return super().stmt(s, env)
+
+    def _raise(self, s, env):
+        if s.exc is None:
+            if self.handling:
+                raise self.handling[-1]
+            r = _Raise("re-raise")
+            r.etype = "?"
+            raise r
+        e = s.exc
+        name = None
+        if isinstance(e, ast.Call):
+            name = dotted(e.func).split(".")[-1]
+        elif isinstance(e, ast.Name):
+            v = env.get(e.id)
+            name = v.etype if isinstance(v, ExcSym) else e.id
+        else:
+            name = dotted(e).split(".")[-1]
+        r = _Raise(unparse(e)[:100])
+        r.etype = name
+        r.node = s
+        r.path_atoms = list(self.consulted)
+        raise r
+
+    def _handler_for(self, s, r):
+        et = etype_of(r)
+        mro = exc_mro(self.pm, et)
+        for h in s.handlers:
+            if h.type is None:
+                return h
+            names = [dotted(x).split(".")[-1] for x in (h.type.elts if isinstance(h.type, ast.Tuple) else [h.type])]
+            if any(nm in mro for nm in names):
+                return h
+            if et == "?" and any(nm in ("Exception", "BaseException") for nm in names):
+                return h
+        return None
+
+    def _try(self, s, env):
+        def fin():
             if s.finalbody:
-                # a return/raise inside finally replaces the pending outcome, as in Python
-                for _ in self.block(s.finalbody, fr):
-                    raise Unsupported("yield inside finally")
-
-    def do_with(self, s, i, fr):
-        if i == len(s.items):
-            yield from self.block(s.body, fr)
-            return
-        item = s.items[i]
-        cm = self.ev(item.context_expr, fr)
-        val = self.cm_enter(cm)
-        if item.optional_vars is not None:
-            self.assign(item.optional_vars, val, fr)
+                self.block(s.finalbody, env)
         try:
-            yield from self.do_with(s, i + 1, fr)
-        except PyExc as e:
-            if not self.cm_exit(cm, e.val):
-                raise
-        except (_Return, _Break, _Continue):
-            self.cm_exit(cm, None)
-            raise
-        else:
-            self.cm_exit(cm, None)
-
-    def cm_enter(self, cm):
-        if isinstance(cm, GenCM):
             try:
-                return next(cm.gen)
-            except StopIteration:
-                self.throw("RuntimeError", "generator didn't yield")
-        if isinstance(cm, Obj):
-            m = self.find_method(cm, "__enter__")
-            if m is None:
-                self.throw("TypeError", "object does not support the context manager protocol")
-            return self.call(m, [], {})
-        if isinstance(cm, _OPQ):
-            if self.lenient:
-                return Unknown(f"{cm!r}.__enter__()")
-            raise Unsupported(f"with over unmodelled {cm!r}")
-        if hasattr(cm, "__enter__"):
-            return cm.__enter__()
-        self.throw("TypeError", f"'{type(cm).__name__}' object does not support the context manager protocol")
-
-    def cm_exit(self, cm, exc):
-        """returns True if the exception is swallowed"""
-        if isinstance(cm, GenCM):
-            if exc is None:
+                self.block(s.body, env)
+            except _Raise as r:
+                h = self._handler_for(s, r)
+                if h is None:
+                    raise
+                if h.name:
+                    env[h.name] = ExcSym(h.name, None, etype_of(r))
+                self.handling.append(r)
                 try:
-                    next(cm.gen)
-                except StopIteration:
+                    self.block(h.body, env)
+                finally:
+                    self.handling.pop()
+            else:
+                self.block(s.orelse, env)
+        except NeedAtom:
+            raise
+        except (_Raise, _Return, _Break, _Continue):
+            fin()
+            raise
+        fin()
+
+    def _match_stmt(self, s, env):
+        subj = self.concrete(self.ev(s.subject, env))
+
+        def m(p) -> bool:
+            if isinstance(p, ast.MatchValue):
+                return self.compare(ast.Eq(), subj, self.ev(p.value, env), p)
+            if isinstance(p, ast.MatchSingleton):
+                return self.compare(ast.Is(), subj, p.value, p) if p.value is None else (subj is p.value)
+            if isinstance(p, ast.MatchOr):
+                return any(m(q) for q in p.patterns)
+            if isinstance(p, ast.MatchAs):
+                if p.pattern is not None and not m(p.pattern):
                     return False
-                self.throw("RuntimeError", "generator didn't stop")
-            try:
-                cm.gen.throw(PyExc(exc))
-            except StopIteration:
+                if p.name:
+                    env[p.name] = subj
                 return True
-            except PyExc as e2:
-                if e2.val is exc:
-                    return False
-                raise
-            self.throw("RuntimeError", "generator didn't stop after throw()")
-        if isinstance(cm, Obj):
-            m = self.find_method(cm, "__exit__")
-            a = [None, None, None] if exc is None else [exc.cls, exc, None]
-            return bool(self.truth(self.call(m, a, {}))) if m is not None else False
-        if isinstance(cm, _OPQ):
-            return False
-        a = (None, None, None) if exc is None else (exc.cls, exc, None)
-        return bool(cm.__exit__(*a))
-
-    def match_pattern(self, p, v, fr):
-        if isinstance(p, ast.MatchValue):
-            return self.compare(ast.Eq(), v, self.ev(p.value, fr))
-        if isinstance(p, ast.MatchSingleton):
-            return v is p.value
-        if isinstance(p, ast.MatchOr):
-            return any(self.match_pattern(x, v, fr) for x in p.patterns)
-        if isinstance(p, ast.MatchAs):
-            if p.pattern is not None and not self.match_pattern(p.pattern, v, fr):
-                return False
-            if p.name:
-                fr.vars[p.name] = v
-            return True
-        if isinstance(p, ast.MatchSequence) and isinstance(v, (list, tuple)) and not any(isinstance(x, ast.MatchStar) for x in p.patterns):
-            return len(v) == len(p.patterns) and all(self.match_pattern(x, y, fr) for x, y in zip(p.patterns, v))
-        raise Unsupported("match pattern " + type(p).__name__)
-
-    def iterate(self, v):
-        if isinstance(v, ClassVal) and self.is_enum(v):
-            return iter(list(self.enum_members(v).values()))
-        if isinstance(v, Obj):
-            m = self.find_method(v, "__iter__")
-            if m is None:
-                self.throw("TypeError", f"'{v.cls.name}' object is not iterable")
-            return self.iterate(self.call(m, [], {}))
-        if isinstance(v, _OPQ):
-            raise Unsupported(f"iteration over unknown value {v!r}")
-        try:
-            return iter(v)
-        except TypeError:
-            self.throw("TypeError", f"'{type(v).__name__}' object is not iterable")
-
-    def assign(self, t, v, fr):
-        if isinstance(t, ast.Name):
-            f = fr
-            if t.id in fr.outer_names:
-                f = fr.parent
-                while f is not None and t.id not in f.vars:
-                    f = f.parent
-                f = f or fr
-            f.vars[t.id] = v
-        elif isinstance(t, (ast.Tuple, ast.List)):
-            if isinstance(v, _OPQ):
-                for i, e in enumerate(t.elts):
-                    self.assign(e.value if isinstance(e, ast.Starred) else e, Unknown(f"{v!r}[{i}]"), fr)
+            raise Unsupported("match pattern " + type(p).__name__)
+        for case in s.cases:
+            if m(case.pattern) and (case.guard is None or self.truth(self.ev(case.guard, env))):
+                self.block(case.body, env)
                 return
-            vals = list(self.iterate(v))
-            star = [i for i, e in enumerate(t.elts) if isinstance(e, ast.Starred)]
-            if star:
-                i = star[0]
-                after = len(t.elts) - i - 1
-                if len(vals) < len(t.elts) - 1:
-                    self.throw("ValueError", "not enough values to unpack")
-                for e, x in zip(t.elts[:i], vals[:i]):
-                    self.assign(e, x, fr)
-                self.assign(t.elts[i].value, vals[i:len(vals) - after], fr)
-                for e, x in zip(t.elts[i + 1:], vals[len(vals) - after:]):
-                    self.assign(e, x, fr)
-            else:
-                if len(vals) != len(t.elts):
-                    self.throw("ValueError", f"cannot unpack {len(vals)} values into {len(t.elts)} targets")
-                for e, x in zip(t.elts, vals):
-                    self.assign(e, x, fr)
-        elif isinstance(t, ast.Attribute):
-            self.setattr(self.ev(t.value, fr), t.attr, v)
-        elif isinstance(t, ast.Subscript):
-            base = self.ev(t.value, fr)
-            k = self.ev_slice(t.slice, fr)
-            if isinstance(base, Obj):
-                m = self.find_method(base, "__setitem__")
-                if m is None:
-                    self.throw("TypeError", "object does not support item assignment")
-                self.call(m, [k, v], {})
-            elif isinstance(base, _OPQ):
-                raise Unsupported(f"item store on {base!r}")
-            else:
-                self.native(_operator.setitem, base, k, v)
-        elif isinstance(t, ast.Starred):
-            self.assign(t.value, v, fr)
-        else:
-            raise Unsupported("assignment target " + type(t).__name__)
+
+    # ------------------------------------------------------------------ loops
+    def _lists_in(self, env):
+        out = {}
+        for v in env.values():
+            if isinstance(v, list):
+                out[id(v)] = (v, len(v))
+            elif isinstance(v, dict):
+                out[id(v)] = (v, set(v))
+        return out
+
+    def _close_iteration(self, s, fam, lo, hi, order, cond, snap, env, broke, before_names, n_eff0, consulted0):
+        """turn what the generic iteration did into position-quantified values"""
+        conds = tuple((k, self.val.get(k)) for k in self.consulted[consulted0:] if fam.elem.path in k or fam.k.path in k)
+        for _i, (obj, mark) in snap.items():
+            if isinstance(obj, list) and len(obj) > mark:
+                tail = obj[mark:]
+                # an append that is control-dependent on a condition of the loop body makes the list a filtered one
+                ic = [self.marks.pop((id(obj), mark + j), ()) for j in range(len(tail))]
+                del obj[mark:]
+                obj.append(Star(fam, lo, hi, tail, order, cond, s, ic))
+            elif isinstance(obj, dict):
+                new = [k for k in obj if k not in mark]
+                for k in new:
+                    v = obj.pop(k)
+                    obj[("★", fam.k.path, k)] = Star(fam, lo, hi, [v], "dedup" if isinstance(k, str) and (fam.elem.path in k) else order, cond, s)
+        kind = ("first" if broke else "last") if order == "fwd" else (("last" if broke else "first") if order == "rev" else "some")
+        for nm, old in before_names.items():
+            new = env.get(nm)
+            if new is old or isinstance(new, (list, dict)):
+                continue
+            if any(isinstance(p, Sym) and p.path in (fam.k.path, fam.elem.path) for p in sparts(new)) and not isinstance(new, PickSym):
+                env[nm] = self.pick(fam, kind, conds, new)
+        return kind, conds
+
+    def pick(self, fam, kind, conds, term):
+        ctxt = " & ".join(f"{'' if v is True else ('not ' if v is False else str(v) + ':')}{k}" for k, v in conds)
+        return PickSym(f"{kind}⟨{fam.k.path} | {ctxt}⟩{{{path_of(term)}}}", None, fam, kind, conds, term)
+
+    def _for(self, s, env):
+        if any(s is x for x in self.skip_loops):
+            self.run_state.effects.append(("loop", s, dict(env)))
+            return
+        itv = self.ev(s.iter, env)
+        ph = self.phases(itv)
+        if ph is None:
+            ph = [("star", self.family(Sym("?" + unparse(s.iter)[:60])), 0, 0, "fwd", None, None, ())]
+        stored = {t.id for st in s.body for t in ast.walk(st) if isinstance(t, ast.Name) and isinstance(t.ctx, ast.Store)}
+        loaded = {t.id for st in s.body for t in ast.walk(st) if isinstance(t, ast.Name) and isinstance(t.ctx, ast.Load)}
+        tnames = {t.id for t in ast.walk(s.target) if isinstance(t, ast.Name)}
+        try:
+            for p in ph:
+                if p[0] == "one":
+                    self.assign(s.target, p[1], env)
+                    try:
+                        self.block(s.body, env)
+                    except _Continue:
+                        continue
+                    continue
+                _, fam, lo, hi, order, item, idx, cond = p
+                if item is None:
+                    item = fam.elem
+                for nme in sorted((stored & loaded) - tnames):
+                    if nme in env and not isinstance(env[nme], (Init, list, dict)):
+                        env[nme] = Carried(nme, None, env[nme])
+                snap = self._lists_in(env)
+                before = {nm: env.get(nm) for nm in stored - tnames}
+                n_eff0, c0 = len(self.run_state.effects), len(self.consulted)
+                self.run_state.effects.append(("iter", s, fam, lo, hi, order))
+                self.iter_stack.append((fam, lo, hi, order, s))
+                self.assign(s.target, item, env)
+                broke = False
+                try:
+                    try:
+                        self.block(s.body, env)
+                    except _Continue:
+                        pass
+                    except _Break:
+                        broke = True
+                    except _Return as r:
+                        kind, conds = self._close_iteration(s, fam, lo, hi, order, cond, snap, env, True, before, n_eff0, c0)
+                        if any(isinstance(q, Sym) and q.path in (fam.k.path, fam.elem.path) for q in sparts(r.v)):
+                            r.v = self.pick(fam, kind, conds, r.v)
+                        raise
+                finally:
+                    self.iter_stack.pop()
+                    self.run_state.effects.append(("iter-end", s, fam))
+                self._close_iteration(s, fam, lo, hi, order, cond, snap, env, broke, before, n_eff0, c0)
+        except _Break:
+            pass
+        if s.orelse:
+            self.block(s.orelse, env)
+
+    def _comp(self, n, env, kind):
+        def rec(gi, e):
+            if gi == len(n.generators):
+                if kind == "dict":
+                    k = self.concrete(self.ev(n.key, e))
+                    return [("kv", k.path if isinstance(k, Sym) else k, self.ev(n.value, e))]
+                return [self.ev(n.elt, e)]
+            g = n.generators[gi]
+            ph = self.phases(self.ev(g.iter, e))
+            if ph is None:
+                ph = [("star", self.family(Sym("?" + unparse(g.iter)[:60])), 0, 0, "fwd", None, None, ())]
+            out = []
+            for p in ph:
+                e2 = dict(e)
+                if p[0] == "one":
+                    self.assign(g.target, p[1], e2)
+                    if all(self.truth(self.ev(c, e2)) for c in g.ifs):
+                        out.extend(rec(gi + 1, e2))
+                    continue
+                _, fam, lo, hi, order, item, idx, cond = p
+                c0 = len(self.consulted)
+                self.iter_stack.append((fam, lo, hi, order, n))
+                try:
+                    self.assign(g.target, fam.elem if item is None else item, e2)
+                    ok = all(self.truth(self.ev(c, e2)) for c in g.ifs)
+                    inner = rec(gi + 1, e2) if ok else []
+                finally:
+                    self.iter_stack.pop()
+                if inner:
+                    cnd = cond + (tuple((k, self.val.get(k)) for k in self.consulted[c0:] if fam.elem.path in k or fam.k.path in k) if g.ifs else ())
+                    out.append(Star(fam, lo, hi, inner, order, cnd, n))
+            return out
+        res = rec(0, dict(env))
+        if kind == "dict":
+            d = {}
+            for x in res:
+                if isinstance(x, tuple) and x and x[0] == "kv":
+                    d[x[1]] = x[2]
+                elif isinstance(x, Star):
+                    for y in x.items:
+                        if isinstance(y, tuple) and y and y[0] == "kv":
+                            d[("★", x.fam.k.path, y[1])] = Star(x.fam, x.lo, x.hi, [y[2]], x.order, x.cond, x.loop)
+            return d
+        return res
+
+    # ------------------------------------------------------------------ truth / len / any
+    def truth(self, v) -> bool:
+        v = self.concrete(v)
+        if isinstance(v, list) and v and all(isinstance(x, Star) for x in v):
+            for x in v:
+                if not x.items:
+                    continue
+                if x.lo == 0 and x.hi == 0 and isinstance(x.fam.root, Sym):
+                    if self.truth(x.fam.root):
+                        return True
+                elif self.compare(ast.Gt(), self.add(x.fam.n, x.hi - x.lo), 0, None):
+                    return True
+            return False
+        if isinstance(v, (Spl, View)):
+            return True
+        if isinstance(v, SliceSym) and isinstance(v.base, Sym) and (v.lo is None or isinstance(v.lo, int)) and (v.hi is None or isinstance(v.hi, int)) \
+                and (v.lo or 0) >= 0 and (v.hi or 0) <= 0 and ((v.lo or 0) > 0 or (v.hi or 0) < 0):
+            return self.compare(ast.Gt(), self._len(v), 0, None)
+        if isinstance(v, MonoSym):
+            return super().truth(Sym(v.path))
+        return super().truth(v)
+
+    def _len(self, v):
+        v = self.concrete(v)
+        if isinstance(v, list) and has_star(v):
+            tot: Any = 0
+            for x in v:
+                if isinstance(x, Star):
+                    if x.cond or any(isinstance(i, (Spl, Star)) for i in x.items):
+                        return Sym(f"len({show(v)[:80]})")
+                    per = len(x.items)
+                    rng = self.add(x.fam.n, x.hi - x.lo)
+                    for _ in range(per):
+                        tot = self.add(tot, rng)
+                elif isinstance(x, Spl):
+                    tot = self.add(tot, self._len(x.term))
+                else:
+                    tot = self.add(tot, 1)
+            return tot
+        if isinstance(v, SliceSym) and isinstance(v.base, Sym) and (v.lo is None or isinstance(v.lo, int)) and (v.hi is None or isinstance(v.hi, int)):
+            lo, hi = v.lo or 0, v.hi or 0
+            if lo >= 0 and hi <= 0:
+                return self.add(self.family(v.base).n, hi - lo)
+        if isinstance(v, Sym):
+            return self.family(v).n
+        if isinstance(v, (list, tuple, dict, str, range)):
+            return len(v)
+        return Sym(f"len({show(v)[:60]})")
 
     # ------------------------------------------------------------------ expressions
-    def ev(self, n, fr):
-        m = getattr(self, "ev_" + type(n).__name__, None)
-        if m is None:
-            raise Unsupported("expression " + type(n).__name__)
-        return m(n, fr)
+    def _closed_const(self, n, env):
+        """value of an expression that mentions no local name, by constant evaluation of the source's tables"""
+        if id(n) in self._const_cache:
+            return self._const_cache[id(n)]
+        res = NOC
+        fi = env.get("__fi__")
+        names = [x for x in ast.walk(n) if isinstance(x, ast.Name)]
+        if fi is not None and names and not any(x.id in env for x in names) and not any(isinstance(x, (ast.Lambda, ast.Await, ast.Yield)) for x in ast.walk(n)):
+            roots = [self.pm.resolve(fi.module, x.id) for x in names]
+            if all(r is not None and r[0] in ("class", "func", "value") for r in roots):
+                try:
+                    from ..consteval import const_expr
+                    res = const_expr(self.pm, fi.module, n)
+                except Exception:
+                    res = NOC
+        self._const_cache[id(n)] = res
+        return res
 
-    def ev_Constant(self, n, fr):
-        return n.value
+    def ev(self, n, env):
+        if isinstance(n, (ast.Call, ast.Subscript)) and id(n) not in self._pre:
+            c = self._closed_const(n, env)
+            if c is not NOC and isinstance(c, (dict, list, tuple, set, frozenset, str, int, float, bool, type(None))):
+                import copy
+                return copy.deepcopy(c) if isinstance(c, (dict, list)) else (tuple(sorted(c, key=repr)) if isinstance(c, (set, frozenset)) else c)
+        return super().ev(n, env)
 
-    def ev_Name(self, n, fr):
-        return self.lookup(n.id, fr)
+    def ev_Starred(self, n, env):
+        return Spl(self.ev(n.value, env))
 
-    def ev_Attribute(self, n, fr):
-        return self.getattr(self.ev(n.value, fr), n.attr)
+    def ev_List(self, n, env):
+        out = []
+        for e in n.elts:
+            v = self.ev(e, env)
+            if isinstance(v, Spl):
+                t = self.concrete(v.term)
+                if isinstance(t, (list, tuple)):
+                    out.extend(t)
+                    continue
+            out.append(v)
+        return out
 
-    def ev_slice(self, s, fr):
-        if isinstance(s, ast.Slice):
-            return slice(*(self.ev(x, fr) if x is not None else None for x in (s.lower, s.upper, s.step)))
-        return self.ev(s, fr)
+    def ev_Set(self, n, env):
+        return tuple(self.ev_List(n, env))
 
-    def ev_Slice(self, n, fr):
-        return self.ev_slice(n, fr)
+    MUTATORS = ("pop", "remove", "clear", "reverse", "sort", "insert", "append", "extend", "popitem", "update", "setdefault", "add", "discard")
 
-    def ev_Subscript(self, n, fr):
-        base = self.ev(n.value, fr)
-        k = self.ev_slice(n.slice, fr)
-        return self.getitem(base, k)
+    def _rebind(self, env, old, new):
+        for k2, v2 in list(env.items()):
+            if v2 is old:
+                env[k2] = new
 
-    def getitem(self, base, k):
-        if isinstance(base, Obj):
-            m = self.find_method(base, "__getitem__")
-            if m is None:
-                self.throw("TypeError", f"'{base.cls.name if base.cls else 'namespace'}' object is not subscriptable")
-            return self.call(m, [k], {})
-        if isinstance(base, _OPQ):
-            return Unknown(f"{base!r}[{k!r}]")
-        if isinstance(base, ClassVal) and self.is_enum(base):
-            ms = self.enum_members(base)
-            if k not in ms:
-                self.throw("KeyError", k)
-            return ms[k]
-        if isinstance(base, (ClassVal, BuiltinExc)):
-            return base                                   # generic alias C[T]
-        k = self.enum_plain(k)
-        if isinstance(k, _OPQ) or (isinstance(k, slice) and any(isinstance(x, _OPQ) for x in (k.start, k.stop, k.step))):
-            return Unknown(f"…[{k!r}]")
-        return self.native(_operator.getitem, base, k)
+    def _mutate(self, n, env):
+        """in-place mutation of a sequence: a symbolic sequence bound to local names is re-bound to the mutated term
+        (x.pop() -> x[:-1], x.pop(0) -> x[1:]), any other mutation makes it an unknown value (never silently ignored)"""
+        f = n.func
+        m = f.attr
+        base = self.concrete(self.ev(f.value, env))
+        self._pre[id(f.value)] = base
+        if isinstance(base, Sym) and not isinstance(base, Init) or (isinstance(base, Init) and m in ("pop", "remove", "clear", "reverse", "sort", "insert")):
+            if isinstance(base, (CallSym, SliceSym, SubSym, ElemSym, PosSym, Init)) and any(v2 is base for v2 in env.values()):
+                args = [self.concrete(self.ev(a, env)) for a in n.args]
+                self._pre.pop(id(f.value), None)
+                self.run_state.effects.append(("call", m, base, tuple(args), {}, n, None))
+                if m == "pop" and (not args or args == [-1]):
+                    self._rebind(env, base, SliceSym(f"{base.path}[:-1]", None, base, None, -1))
+                    return SubSym(f"{base.path}[-1]", None, base, -1)
+                if m == "pop" and args == [0]:
+                    self._rebind(env, base, SliceSym(f"{base.path}[1:]", None, base, 1, None))
+                    return SubSym(f"{base.path}[0]", None, base, 0)
+                self._rebind(env, base, Sym(f"?mutated:{base.path[:60]}.{m}(…)"))
+                return Sym(f"?{base.path[:40]}.{m}(…)")
+            return NOC
+        if isinstance(base, list) and m in ("pop", "remove", "clear", "reverse", "sort"):
+            args = [self.concrete(self.ev(a, env)) for a in n.args]
+            self._pre.pop(id(f.value), None)
+            self.run_state.effects.append(("call", m, base, tuple(args), {}, n, None))
+            if m == "clear":
+                base.clear()
+                return None
+            if m == "pop" and (not args or args == [-1]) and base and not isinstance(base[-1], (Star, Spl)):
+                return base.pop()
+            if m == "pop" and args == [0] and base and not isinstance(base[0], (Star, Spl)):
+                return base.pop(0)
+            if m in ("reverse", "sort") and not has_star(base) and not any(isinstance(x, Spl) for x in base) and m == "reverse":
+                base.reverse()
+                return None
+            base[:] = [Spl(Sym(f"?mutated:{m}"))]
+            return Sym(f"?{m}(…)")
+        return NOC
 
-    def ev_BoolOp(self, n, fr):
-        v = None
-        for e in n.values:
-            v = self.ev(e, fr)
-            t = self.truth(v)
-            if isinstance(n.op, ast.And) and not t:
-                return v
-            if isinstance(n.op, ast.Or) and t:
-                return v
-        return v
+    def _extend(self, base: list, v, node):
+        v = self.concrete(v)
+        if isinstance(v, (list, tuple)):
+            base.extend(v)
+        elif isinstance(v, Spl):
+            base.append(v)
+        else:
+            base.append(Spl(v))
 
-    def ev_UnaryOp(self, n, fr):
-        v = self.ev(n.operand, fr)
-        if isinstance(n.op, ast.Not):
-            return not self.truth(v)
-        if isinstance(v, _OPQ):
-            return Unknown(f"-{v!r}")
-        return self.native({ast.USub: _operator.neg, ast.UAdd: _operator.pos, ast.Invert: _operator.invert}[type(n.op)], v)
+    def table_name(self, cont) -> str:
+        try:
+            keys = list(cont)
+        except TypeError:
+            keys = [repr(cont)]
+        sig = repr(sorted(map(repr, keys)))
+        nm = self._tnames.get(sig)
+        if nm is None:
+            nm = f"T{len(self._tnames) + 1}{{{', '.join(map(str, keys[:3]))}{'…' if len(keys) > 3 else ''}}}"
+            self._tnames[sig] = nm
+            self.tables[nm] = cont
+        return nm
 
-    def ev_BinOp(self, n, fr):
-        return self.binop(n.op, self.ev(n.left, fr), self.ev(n.right, fr))
-
-    def binop(self, op, l, r):
-        if isinstance(op, ast.BitOr) and any(isinstance(x, (ClassVal, BuiltinExc, _OPQ)) or x is None for x in (l, r)) \
-                and all(isinstance(x, (ClassVal, BuiltinExc, type, tuple, _OPQ)) or x is None for x in (l, r)):
-            flat = []
-            for x in (l, r):
-                flat.extend(x if isinstance(x, tuple) else [type(None) if x is None else x])
-            return tuple(flat)                            # X | Y used as a type union
-        if isinstance(l, _OPQ) or isinstance(r, _OPQ):
-            return Unknown(f"({l!r} {type(op).__name__} {r!r})")
-        if isinstance(l, Obj) or isinstance(r, Obj):
-            nm = {ast.Add: "add", ast.Sub: "sub", ast.Mult: "mul", ast.Div: "truediv", ast.Mod: "mod", ast.FloorDiv: "floordiv"}.get(type(op))
-            if nm and isinstance(l, Obj) and self.find_method(l, f"__{nm}__"):
-                return self.call(self.find_method(l, f"__{nm}__"), [r], {})
-            if nm and isinstance(r, Obj) and self.find_method(r, f"__r{nm}__"):
-                return self.call(self.find_method(r, f"__r{nm}__"), [l], {})
-            if isinstance(op, ast.Mod) and isinstance(l, str):
-                return self.native(_operator.mod, l, self.fmt(r))
-            self.throw("TypeError", "unsupported operand type(s)")
-        return self.native(_BINOPS[type(op)], l, r)
-
-    def ev_Compare(self, n, fr):
-        left = self.ev(n.left, fr)
-        for op, rn in zip(n.ops, n.comparators):
-            right = self.ev(rn, fr)
-            if not self.compare(op, left, right):
-                return False
-            left = right
-        return True
-
-    def compare(self, op, l, r):
-        if isinstance(op, (ast.Is, ast.IsNot)):
-            if (isinstance(l, _OPQ) or isinstance(r, _OPQ)) and l is not r:
-                if any(x is None or isinstance(x, (bool, int, str)) for x in (l, r)):
-                    res = self.choose(f"{l!r} is {r!r}")
-                    return res if isinstance(op, ast.Is) else not res
-            return (l is r) if isinstance(op, ast.Is) else (l is not r)
-        if isinstance(op, (ast.In, ast.NotIn)):
-            res = self.contains(r, l)
-            return res if isinstance(op, ast.In) else not res
-        if l is not r:
-            l, r = self.enum_plain(l), self.enum_plain(r)
-        if isinstance(l, _OPQ) or isinstance(r, _OPQ):
-            if l is r and isinstance(op, (ast.Eq, ast.NotEq)):
-                return isinstance(op, ast.Eq)
-            res = self.choose(f"{l!r} {type(op).__name__} {r!r}")
-            return bool(res)
-        if isinstance(l, Obj) or isinstance(r, Obj):
-            nm = {ast.Eq: "__eq__", ast.NotEq: "__ne__", ast.Lt: "__lt__", ast.LtE: "__le__", ast.Gt: "__gt__", ast.GtE: "__ge__"}[type(op)]
-            if isinstance(l, Obj) and self.find_method(l, nm):
-                return self.truth(self.call(self.find_method(l, nm), [r], {}))
-            if isinstance(op, ast.Eq):
-                return l is r
-            if isinstance(op, ast.NotEq):
-                return l is not r
-            self.throw("TypeError", "ordering of objects not supported")
-        return bool(self.native(_CMPOPS[type(op)], l, r))
-
-    def contains(self, container, x):
-        if isinstance(container, ClassVal) and self.is_enum(container):
-            return any(m is x or (not isinstance(x, Obj) and self.compare(ast.Eq(), m.attrs["_value_"], x)) for m in self.enum_members(container).values())
-        x = self.enum_plain(x)
-        if isinstance(container, Obj):
-            m = self.find_method(container, "__contains__")
-            if m is not None:
-                return self.truth(self.call(m, [x], {}))
-            return any(self.compare(ast.Eq(), y, x) for y in self.iterate(container))
-        if isinstance(container, _OPQ):
-            return self.choose(f"{x!r} in {container!r}")
-        if isinstance(x, _OPQ):
+    def member(self, x, cont) -> bool:
+        """x in cont for a symbolic x and a finite container of the source: one canonical atom per (term, table)"""
+        if isinstance(x, SubSym) and isinstance(x.base, TableSym):
+            tab = x.base.table
+            vals = list(tab.values()) if isinstance(tab, dict) else list(tab)
             try:
-                if len(container) == 0:
+                hits = [v in cont for v in vals]
+                if all(hits):
+                    return True
+                if not any(hits):
                     return False
             except TypeError:
                 pass
-            return self.choose(f"{x!r} in {_short(container)}")
-        if isinstance(x, Obj) and isinstance(container, (list, tuple)):
-            return any(y is x for y in container)
-        return bool(self.native(_operator.contains, container, x))
+        tn = self.table_name(cont)
+        key = f"{path_of(x)} ∈ {tn}"
+        self.cmp[key] = ("member", x, cont)
+        return self.atom(key, [True, False])
 
-    def ev_IfExp(self, n, fr):
-        return self.ev(n.body, fr) if self.truth(self.ev(n.test, fr)) else self.ev(n.orelse, fr)
+    def never_none(self, v) -> bool:
+        if isinstance(v, PickSym):
+            return self.never_none(v.term)
+        if isinstance(v, (LinSym, MonoSym, RangeSym, SliceSym, CmpSym, TableSym)):
+            return True
+        if isinstance(v, Sym) and any(v.path == f.k.path or v.path == f.n.path for f in self.fams.values()):
+            return True
+        return isinstance(v, (list, tuple, dict, str, int, float, Spl, Star, View))
 
-    def ev_List(self, n, fr):
-        return list(self.elts(n.elts, fr))
+    def compare(self, op, l, r, node) -> bool:
+        l, r = self.concrete(l), self.concrete(r)
+        if isinstance(op, (ast.Is, ast.IsNot)) and r is None and self.never_none(l):
+            return isinstance(op, ast.IsNot)
+        if isinstance(op, (ast.In, ast.NotIn)):
+            res = None
+            if not isinstance(l, (Sym, list, dict, tuple, Spl, Star, View)) and isinstance(r, (dict, list, tuple, set, frozenset)) and not has_star(r):
+                try:
+                    res = l in (r if not isinstance(r, dict) else r.keys())
+                except TypeError:
+                    res = None
+                if res is not None and not (isinstance(r, (list, tuple)) and any(isinstance(x, Sym) for x in r) and not res):
+                    return res if isinstance(op, ast.In) else not res
+                res = None
+            if isinstance(l, Sym) and isinstance(r, (dict, list, tuple, set, frozenset)) and not has_sym(r) and not has_star(r):
+                res = self.member(l, r)
+            elif isinstance(l, Sym) and isinstance(r, (list, tuple)) and not has_star(r) and all(isinstance(x, (Sym, str, int, float, bool, type(None))) for x in r):
+                # a literal collection with symbolic members: x in [a, b, s]  ==  x in [a, b] or x == s
+                conc = [x for x in r if not isinstance(x, Sym)]
+                res = any(x.path == l.path for x in r if isinstance(x, Sym))
+                if not res and conc:
+                    res = self.member(l, conc)
+                if not res:
+                    for x in r:
+                        if isinstance(x, Sym) and self.compare(ast.Eq(), l, x, node):
+                            res = True
+                            break
+            elif isinstance(r, Sym) and not isinstance(l, (list, dict)):
+                key = f"{path_of(l)} ∈ {path_of(r)}"
+                self.cmp[key] = ("member", l, r)
+                res = self.atom(key, [True, False])
+            elif isinstance(l, Sym) and isinstance(r, str):
+                key = f"{path_of(l)} ∈ {r!r}"
+                self.cmp[key] = ("substr", l, r)
+                res = self.atom(key, [True, False])
+            if res is not None:
+                return res if isinstance(op, ast.In) else not res
+        if type(op) in (ast.Lt, ast.LtE, ast.Gt, ast.GtE, ast.Eq, ast.NotEq) and (isinstance(l, Sym) or isinstance(r, Sym)):
+            t = self._sign_decide(op, l, r)
+            if t is not None:
+                return t
+        if isinstance(l, MonoSym) or isinstance(r, MonoSym):
+            key = f"{path_of(l)} {_OPS[type(op)]} {path_of(r)}"
+            self.cmp[key] = (type(op), l, r)
+            return self.atom(key, [True, False])
+        return super().compare(op, l, r, node)
 
-    def ev_Tuple(self, n, fr):
-        return tuple(self.elts(n.elts, fr))
+    def nonneg(self, path: str, terms: dict) -> bool:
+        """is the symbol known to be >= 0: a generic position, a length, a picked position"""
+        if any(path in (f.k.path, f.n.path) for f in self.fams.values()):
+            return True
+        t = terms.get(path)
+        if isinstance(t, PickSym):
+            d = lin_of(t.term)
+            return d is not None and all((k == "" and c >= 0) or (k != "" and c >= 0 and self.nonneg(k, {x.path: x for x in (t.term.terms if isinstance(t.term, LinSym) else [t.term]) if isinstance(x, Sym)})) for k, c in d.items())
+        return path.startswith("len(")
 
-    def ev_Set(self, n, fr):
-        return self.native(set, self.elts(n.elts, fr))
+    def _sign_decide(self, op, l, r):
+        """decide a comparison whose linear form has only non-negative symbols with coefficients of one sign"""
+        dl, dr = lin_of(l) if not isinstance(l, (str, list, tuple, dict, type(None))) else None, lin_of(r) if not isinstance(r, (str, list, tuple, dict, type(None))) else None
+        if dl is None or dr is None:
+            return None
+        d = lin_sub(dl, dr)
+        syms = [k for k in d if k != ""]
+        if not syms:
+            return None
+        terms = {}
+        for x in (l, r):
+            for t in (x.terms if isinstance(x, LinSym) else ([x] if isinstance(x, Sym) else [])):
+                terms[t.path] = t
+        if not all(self.nonneg(k, terms) for k in syms):
+            return None
+        c = d.get("", 0)
+        opn = {ast.Lt: "<", ast.LtE: "<=", ast.Gt: ">", ast.GtE: ">=", ast.Eq: "==", ast.NotEq: "!="}[type(op)]
+        if all(d[k] > 0 for k in syms):          # value >= c
+            if c > 0:
+                return {"<": False, "<=": False, ">": True, ">=": True, "==": False, "!=": True}[opn]
+            if c == 0:
+                return {"<": False, ">=": True}.get(opn)
+        if all(d[k] < 0 for k in syms):          # value <= c
+            if c < 0:
+                return {"<": True, "<=": True, ">": False, ">=": False, "==": False, "!=": True}[opn]
+            if c == 0:
+                return {">": False, "<=": True}.get(opn)
+        return None
 
-    def elts(self, es, fr):
-        out = []
-        for e in es:
-            if isinstance(e, ast.Starred):
-                out.extend(self.iterate(self.ev(e.value, fr)))
-            else:
-                out.append(self.ev(e, fr))
-        return out
+    def bounds_of(self, lin: dict):
+        """interval of a single-symbol linear form under the comparisons consulted so far in this run"""
+        syms = [k for k in lin if k != ""]
+        if len(syms) != 1:
+            return None
+        s, a, c = syms[0], lin[syms[0]], lin.get("", 0)
+        lo, hi = None, None
+        for key, val in self.val.items():
+            rec = self.cmp.get(key)
+            if rec is None or not isinstance(rec[0], type) or not isinstance(val, bool):
+                continue
+            opt, l, r = rec
+            dl, dr = lin_of(l), lin_of(r)
+            if dl is None or dr is None:
+                continue
+            d = lin_sub(dl, dr)
+            if [k for k in d if k != ""] != [s]:
+                continue
+            a2, c2 = d[s], d.get("", 0)          # a2*s + c2  op  0
+            opn = {ast.Lt: "<", ast.LtE: "<=", ast.Gt: ">", ast.GtE: ">=", ast.Eq: "==", ast.NotEq: "!="}.get(opt)
+            if opn is None:
+                continue
+            if not val:
+                opn = {"<": ">=", "<=": ">", ">": "<=", ">=": "<", "==": "!=", "!=": "=="}[opn]
+            if a2 < 0:
+                a2, c2 = -a2, -c2
+                opn = {"<": ">", "<=": ">=", ">": "<", ">=": "<=", "==": "==", "!=": "!="}[opn]
+            t = Fraction(-c2) / Fraction(a2)       # s opn t
+            import math
+            if opn in (">", ">="):
+                b = math.floor(t) + 1 if opn == ">" else math.ceil(t)
+                lo = b if lo is None else max(lo, b)
+            elif opn in ("<", "<="):
+                b = math.ceil(t) - 1 if opn == "<" else math.floor(t)
+                hi = b if hi is None else min(hi, b)
+            elif opn == "==" and t.denominator == 1:
+                lo = hi = int(t)
+        # value range of a*s + c
+        if a > 0:
+            return (None if lo is None else a * lo + c, None if hi is None else a * hi + c)
+        return (None if hi is None else a * hi + c, None if lo is None else a * lo + c)
 
-    def ev_Dict(self, n, fr):
-        d = {}
-        for k, v in zip(n.keys, n.values):
-            if k is None:
-                self.native(d.update, self.ev(v, fr))
-            else:
-                self.native(d.__setitem__, self.ev(k, fr), self.ev(v, fr))
-        return d
-
-    def ev_JoinedStr(self, n, fr):
-        out = []
-        for v in n.values:
-            if isinstance(v, ast.Constant):
-                out.append(str(v.value))
-            else:
-                out.append(self.ev_FormattedValue(v, fr))
-        return "".join(out)
-
-    def ev_FormattedValue(self, n, fr):
-        x = self.ev(n.value, fr)
-        conv = {-1: None, 115: "s", 114: "r", 97: "a"}[n.conversion]
-        spec = self.ev(n.format_spec, fr) if n.format_spec is not None else ""
-        return self.fmt(x, conv, spec)
-
-    def ev_Lambda(self, n, fr):
-        return Func(self, n, fr.module, fr)
-
-    def ev_NamedExpr(self, n, fr):
-        v = self.ev(n.value, fr)
-        self.assign(n.target, v, fr)
-        return v
-
-    def ev_Starred(self, n, fr):
-        raise Unsupported("starred expression")
-
-    def comp(self, gens, fr, emit):
-        def rec(i, f):
-            if i == len(gens):
-                yield emit(f)
-                return
-            g = gens[i]
-            for x in self.iterate(self.ev(g.iter, f)):
-                self.tick()
-                self.assign(g.target, x, f)
-                if all(self.truth(self.ev(c, f)) for c in g.ifs):
-                    yield from rec(i + 1, f)
-        return rec(0, Frame(fr.module, parent=fr, func=fr.func))
-
-    def ev_ListComp(self, n, fr):
-        return list(self.comp(n.generators, fr, lambda f: self.ev(n.elt, f)))
-
-    def ev_SetComp(self, n, fr):
-        return self.native(set, list(self.comp(n.generators, fr, lambda f: self.ev(n.elt, f))))
-
-    def ev_GeneratorExp(self, n, fr):
-        return self.comp(n.generators, fr, lambda f: self.ev(n.elt, f))
-
-    def ev_DictComp(self, n, fr):
-        d = {}
-        for k, v in self.comp(n.generators, fr, lambda f: (self.ev(n.key, f), self.ev(n.value, f))):
-            self.native(d.__setitem__, k, v)
-        return d
-
-    def ev_Call(self, n, fr):
-        if isinstance(n.func, ast.Name) and n.func.id == "super" and not n.args:
-            f = fr
-            while f is not None and (f.func is None or f.func.cls is None):
-                f = f.parent
-            if f is None:
-                raise Unsupported("super() outside a method")
-            first = (list(f.func.node.args.posonlyargs) + list(f.func.node.args.args))[0].arg
-            return SuperProxy(f.vars[first], f.func.cls)
-        f = self.ev(n.func, fr)
-        args = self.elts(n.args, fr)
-        kwargs = {}
-        for k in n.keywords:
-            if k.arg is None:
-                d = self.ev(k.value, fr)
-                if not isinstance(d, dict):
-                    raise Unsupported("** of a non-dict")
-                kwargs.update(d)
-            else:
-                kwargs[k.arg] = self.ev(k.value, fr)
-        if not self.in_definition:
-            self.before_call(n, f, args, kwargs)
-        return self.call(f, args, kwargs, node=n)
-
-
-def _load(t):
-    t2 = _copy.copy(t)
-    t2.ctx = ast.Load()
-    return t2
-
-
-def _short(v):
-    s = repr(v)
-    return s if len(s) < 60 else s[:57] + "..."
-
-
-def interp_pm(pm):
-    """program model the interpretation rules run on: the default (normalised) model, the same one every other property uses.
-    VERIF_INTERP_RAW=1 selects the tree exactly as written (no normalisation) as a cross-check: the interpreter follows helper
-    calls, constants and closures by itself and does not need normalisation."""
-    import os
-    if os.environ.get("VERIF_INTERP_RAW") != "1":
-        return pm
-    cached = getattr(pm, "_raw_pm", None)
-    if cached is not None:
-        return cached
-    from ..pm import PM
-    old = {k: os.environ.get(k) for k in ("VERIF_NO_NORMALISE", "VERIF_NO_ALPHA")}
-    os.environ["VERIF_NO_NORMALISE"] = os.environ["VERIF_NO_ALPHA"] = "1"
-    try:
-        raw = PM(pm.root)
-    finally:
-        for k, v in old.items():
-            if v is None:
-                os.environ.pop(k, None)
-            else:
-                os.environ[k] = v
-    pm._raw_pm = raw
-    return raw
-
-
-
-
-METHOD = ("abstract evaluation of the function's syntax tree by a purpose-built interpreter (sa/rules/c17.py): nothing of the analysed "
-          "repository is imported, exec'd or eval'd by Python; the outside world (files, paths, temporary directories, converter, font "
-          "loader, pydantic) is replaced by in-memory models; values from unmodelled externals are opaque unknowns, a condition on an "
-          "unknown forks the run and ALL valuations of the unknowns consulted are enumerated (more than the stated limit -> analysis gap); "
-          "data is concrete model data (sample strings, model file contents); a construct outside the interpreted subset is an analysis "
-          "gap (exit 2), never a violation")
-
-
-def cover(ctx, **kv):
-    """record what the interpretation covered in the evidence file (coverage.interpretation)"""
-    import os
-    d = ctx.extra.setdefault("interpretation", {"engine": "syntax-tree interpreter over model values (sa/rules/c17.py)",
-                                                "program_model": "as written (VERIF_INTERP_RAW=1)" if os.environ.get("VERIF_INTERP_RAW") == "1" else "normalised (default PM)",
-                                                "repository_code_imported_or_executed": False, "file_system": "in-memory model only"})
-    for k, v in kv.items():
-        if isinstance(v, int) and not isinstance(v, bool) and isinstance(d.get(k, 0), int):
-            d[k] = d.get(k, 0) + v
-        else:
-            d[k] = v
-
-
-def run_valuations(make, limit=48):
-    """make() -> (interp, thunk, world): a fresh model world per run; the thunk is run under every valuation of the unknown
-    conditions it consults -> [(valuation, outcome, world)]"""
-    out, pending, n = [], [dict()], 0
-    while pending:
-        v = pending.pop()
-        n += 1
-        if n > limit:
-            raise Unsupported(f"more than {limit} combinations of unknown conditions")
-        it, thunk, world = make()
-        it.valuation = v
+    def ev_Subscript(self, n, env):
+        base = self.concrete(self.ev(n.value, env))
+        if isinstance(base, (dict, list, tuple)):
+            if isinstance(n.slice, ast.Slice):
+                lo = self.concrete(self.ev(n.slice.lower, env)) if n.slice.lower else None
+                hi = self.concrete(self.ev(n.slice.upper, env)) if n.slice.upper else None
+                if isinstance(base, list) and has_star(base):
+                    st = aligned(base)
+                    if st is not None and n.slice.step is None and (lo is None or (isinstance(lo, int) and lo >= 0)) and (hi is None or (isinstance(hi, int) and hi < 0)):
+                        return [Star(st.fam, st.lo + (lo or 0), st.hi + (hi or 0), st.items, st.order, st.cond, st.loop)]
+                    return Sym(f"?{show(base)[:60]}[{unparse(n.slice)}]")
+                if isinstance(base, (list, tuple)) and not isinstance(lo, Sym) and not isinstance(hi, Sym) and n.slice.step is None:
+                    return base[lo:hi]
+                return Sym(f"?{unparse(n)[:60]}")
+            k = self.concrete(self.ev(n.slice, env))
+            if isinstance(base, list) and has_star(base):
+                st = aligned(base)
+                if st is not None and isinstance(k, int) and st.order == "fwd":
+                    pos = (st.lo + k) if k >= 0 else self.add(st.fam.n, st.hi + k)
+                    return self.at(st.fam, st.items[0], pos)
+                if st is not None and isinstance(k, Sym):
+                    d = lin_of(k)
+                    if d is not None and d == {st.fam.k.path: 1} and st.lo == 0:
+                        return st.items[0]
+                return Sym(f"?{show(base)[:60]}[{path_of(k)}]")
+            if isinstance(base, dict):
+                if isinstance(k, Sym):
+                    star = base.get(("★", next((f.k.path for f in self.fams.values() if f.elem.path == k.path), ""), k.path))
+                    if isinstance(star, Star):
+                        return star.items[0]
+                    if any(isinstance(kk, tuple) and kk and kk[0] == "★" for kk in base):
+                        return Sym(f"?{unparse(n)[:60]}")
+                    if k.path in base:
+                        return base[k.path]
+                    tn = self.table_name(base)
+                    ok = self.member(k, base)
+                    self.lookups.append(("dict", tn, k, ok, n))
+                    if not ok:
+                        r = _Raise(f"KeyError {k.path}")
+                        r.etype, r.node, r.implicit = "KeyError", n, True
+                        raise r
+                    return SubSym(f"{tn}[{k.path}]", None, TableSym(tn, None, base), k)
+                if k in base:
+                    return base[k]
+                r = _Raise(f"KeyError {k!r}")
+                r.etype, r.node, r.implicit = "KeyError", n, True
+                raise r
+            if isinstance(base, (list, tuple)):
+                if isinstance(k, Sym):
+                    return self._seq_index(base, k, n)
+                if isinstance(k, int):
+                    try:
+                        return base[k]
+                    except IndexError:
+                        r = _Raise("IndexError")
+                        r.etype, r.node, r.implicit = "IndexError", n, True
+                        raise r
+        if isinstance(base, Sym) and not isinstance(n.slice, ast.Slice) and path_of(base) in self.fams:
+            k = self.concrete(self.ev(n.slice, env))
+            fam = self.fams[path_of(base)]
+            d = lin_of(k) if isinstance(k, Sym) else None
+            if d is not None and d == {fam.k.path: 1}:
+                return fam.elem
+            self._pre[id(n.slice)] = k
+        self._pre[id(n.value)] = base
         try:
-            out.append((v, it.outcome(thunk), world))
-        except NeedChoice as e:
-            pending.extend({**v, e.key: x} for x in e.domain)
-    return out
-# ================================================================================================
-# File-system model used with the interpreter (assemble_rtf, the export writers): an in-memory tree with
-# an event log, model paths, file objects, temporary directories, shutil/os functions, ExitStack.
-# ================================================================================================
-import posixpath as _pp
+            return super().ev_Subscript(n, env)
+        finally:
+            self._pre.pop(id(n.value), None)
+            self._pre.pop(id(n.slice), None)
 
+    def _seq_index(self, base, k, n):
+        ln = len(base)
+        d = lin_of(k)
+        dom = ["in", "neg", "out"]
+        if d is not None:
+            b = self.bounds_of(d)
+            if b is not None:
+                lo, hi = b
+                dom = []
+                if (hi is None or hi >= 0) and (lo is None or lo <= ln - 1):
+                    dom.append("in")
+                if (lo is None or lo <= -1) and (hi is None or hi >= -ln):
+                    dom.append("neg")
+                if hi is None or hi >= ln or lo is None or lo < -ln:
+                    dom.append("out")
+        tn = self.table_name(base)
+        key = f"index {path_of(k)} of {tn}"
+        self.cmp[key] = ("index", k, base)
+        which = dom[0] if len(dom) == 1 else self.atom(key, dom)
+        self.lookups.append(("seq", tn, k, which, n))
+        if which == "out":
+            r = _Raise("IndexError")
+            r.etype, r.node, r.implicit = "IndexError", n, True
+            raise r
+        return SubSym(f"{tn}[{path_of(k)}]{'(wrapped)' if which == 'neg' else ''}", None, TableSym(tn, None, base), k)
 
-class _Model:
-    """model objects fail closed: an attribute the model does not provide is an analysis gap"""
-
-    def __getattr__(self, name):
-        if name.startswith("__") and name.endswith("__"):
-            raise AttributeError(name)
-        raise Unsupported(f"the {type(self).__name__} model has no attribute '{name}'")
-
-
-class FS:
-    def __init__(self, it, files=None, dirs=("/", "/tmp", "/work", "/home/user")):
-        self.it = it
-        self.files = dict(files or {})
-        self.dirs = set(dirs)
-        self.events = []
-        self.ntemp = 0
-        self.temp_created = []
-        self.cwd = "/work"
-        self.Path = type("Path", (MPath,), {"fs": self})
-        for p in list(self.files):
-            self._mkparents(p)
-
-    # ---- helpers
-    def norm(self, p):
-        if isinstance(p, MPath):
-            p = p.s
-        if isinstance(p, (Unknown, ExtRef)):
-            raise Unsupported(f"file-system operation on an unknown path {p!r}")
-        if isinstance(p, bytes):
-            p = p.decode()
-        if not isinstance(p, str):
-            self.it.throw("TypeError", f"expected str, bytes or os.PathLike object, not {type(p).__name__}")
-        if p.startswith("~"):
-            pass
-        return _pp.normpath(_pp.join(self.cwd, p))
-
-    def _mkparents(self, p):
-        d = _pp.dirname(p)
-        while d and d not in self.dirs:
-            self.dirs.add(d)
-            d = _pp.dirname(d)
-
-    def log(self, *e):
-        self.events.append(e)
-
-    def exists(self, p):
-        p = self.norm(p)
-        return p in self.files or p in self.dirs
-
-    def isfile(self, p):
-        return self.norm(p) in self.files
-
-    def isdir(self, p):
-        return self.norm(p) in self.dirs
-
-    def snapshot(self):
-        return dict(self.files), set(self.dirs)
-
-    def tree(self, d):
-        d = self.norm(d)
-        pre = d.rstrip("/") + "/"
-        return [f for f in self.files if f.startswith(pre)], [x for x in self.dirs if x.startswith(pre)]
-
-    # ---- primitive operations
-    def open(self, file, mode="r", *a, **k):
-        if a:
-            k.setdefault("buffering", a[0])
-        return FileObj(self, self.norm(file), mode)
-
-    def write_file(self, p, data, how="write"):
-        p = self.norm(p)
-        if p in self.dirs:
-            self.it.throw("IsADirectoryError", p)
-        if _pp.dirname(p) not in self.dirs:
-            self.it.throw("FileNotFoundError", f"No such file or directory: '{p}'")
-        self.log(how, p)
-        self.files[p] = data
-
-    def remove(self, p, *a, **k):
-        p = self.norm(p)
-        if p not in self.files:
-            self.it.throw("FileNotFoundError" if p not in self.dirs else "IsADirectoryError", p)
-        self.log("delete", p)
-        del self.files[p]
-
-    def mkdir(self, p, mode=0o777, parents=False, exist_ok=False):
-        p = self.norm(p)
-        if p in self.dirs or p in self.files:
-            if exist_ok and p in self.dirs:
-                return
-            self.it.throw("FileExistsError", p)
-        if _pp.dirname(p) not in self.dirs:
-            if not parents:
-                self.it.throw("FileNotFoundError", p)
-            self.mkdir(_pp.dirname(p), parents=True, exist_ok=True)
-        self.log("mkdir", p)
-        self.dirs.add(p)
-
-    def makedirs(self, p, mode=0o777, exist_ok=False):
-        self.mkdir(p, parents=True, exist_ok=exist_ok)
-
-    def rmdir(self, p):
-        p = self.norm(p)
-        if p not in self.dirs:
-            self.it.throw("FileNotFoundError", p)
-        fs, ds = self.tree(p)
-        if fs or ds:
-            self.it.throw("OSError", "Directory not empty")
-        self.log("rmdir", p)
-        self.dirs.discard(p)
-
-    def rmtree(self, p, ignore_errors=False, *a, **k):
-        p = self.norm(p)
-        if p not in self.dirs:
-            if ignore_errors:
-                return
-            self.it.throw("FileNotFoundError", p)
-        fs, ds = self.tree(p)
-        for f in fs:
-            del self.files[f]
-        for d in ds:
-            self.dirs.discard(d)
-        self.dirs.discard(p)
-        self.log("rmtree", p)
-
-    def move(self, src, dst, *a, **k):
-        s, d = self.norm(src), self.norm(dst)
-        if s not in self.files and s not in self.dirs:
-            self.it.throw("FileNotFoundError", f"No such file or directory: '{s}'")
-        if d in self.dirs:
-            d = _pp.join(d, _pp.basename(s))
-            if d in self.files or d in self.dirs:
-                self.it.throw("OSError", f"Destination path '{d}' already exists")
-        if _pp.dirname(d) not in self.dirs:
-            self.it.throw("FileNotFoundError", f"No such file or directory: '{d}'")
-        self.log("move", s, d)
-        if s in self.files:
-            self.files[d] = self.files.pop(s)
-        else:
-            fs, ds = self.tree(s)
-            for f in fs:
-                self.files[d + f[len(s):]] = self.files.pop(f)
-            for x in ds:
-                self.dirs.discard(x)
-                self.dirs.add(d + x[len(s):])
-            self.dirs.discard(s)
-            self.dirs.add(d)
-        return dst if not isinstance(dst, MPath) else d
-
-    def rename(self, src, dst, *a, **k):
-        s, d = self.norm(src), self.norm(dst)
-        if s not in self.files and s not in self.dirs:
-            self.it.throw("FileNotFoundError", s)
-        if _pp.dirname(d) not in self.dirs:
-            self.it.throw("FileNotFoundError", d)
-        self.log("move", s, d)
-        if s in self.files:
-            self.files[d] = self.files.pop(s)
-        else:
-            self.move(s, d)
-
-    def copyfile(self, src, dst, *a, **k):
-        s, d = self.norm(src), self.norm(dst)
-        if s not in self.files:
-            self.it.throw("FileNotFoundError", s)
-        if d in self.dirs:
-            d = _pp.join(d, _pp.basename(s))
-        self.write_file(d, self.files[s], "copy")
-        return dst
-
-    def listdir(self, p="."):
-        p = self.norm(p)
-        if p not in self.dirs:
-            self.it.throw("FileNotFoundError", p)
-        pre = p.rstrip("/") + "/"
-        return sorted({x[len(pre):].split("/")[0] for x in list(self.files) + list(self.dirs) if x.startswith(pre)})
-
-    def getsize(self, p):
-        p = self.norm(p)
-        if p not in self.files:
-            self.it.throw("FileNotFoundError", p)
-        return len(self.files[p])
-
-    def mkdtemp(self, *a, **k):
-        self.ntemp += 1
-        d = f"/tmp/{k.get('prefix') or 'tmp'}{self.ntemp:04d}"
-        self.dirs.add(d)
-        self.temp_created.append(d)
-        self.log("mkdtemp", d)
-        return d
-
-    def fspath(self, p):
-        if isinstance(p, MPath):
-            return p.s
-        if isinstance(p, (str, bytes)):
-            return p
-        self.it.throw("TypeError", "expected str, bytes or os.PathLike object")
-
-    def externals(self):
-        """the external names this model provides"""
-        fs = self
-        ident = lambda p, *a, **k: p
-        ext = {
-            "builtins.open": fs.open, "io.open": fs.open, "codecs.open": fs.open, "pathlib.Path": fs.Path, "pathlib.PurePath": fs.Path, "pathlib.PosixPath": fs.Path,
-            "os.path.exists": fs.exists, "os.path.lexists": fs.exists, "os.path.isfile": fs.isfile, "os.path.isdir": fs.isdir,
-            "os.path.getsize": fs.getsize, "os.path.expanduser": ident, "os.path.abspath": fs.norm, "os.path.realpath": fs.norm,
-            "os.remove": fs.remove, "os.unlink": fs.remove, "os.rename": fs.rename, "os.replace": fs.rename, "os.mkdir": fs.mkdir,
-            "os.makedirs": fs.makedirs, "os.rmdir": fs.rmdir, "os.listdir": fs.listdir, "os.fspath": fs.fspath, "os.getcwd": lambda: fs.cwd,
-            "os.PathLike": fs.Path, "os.sep": "/", "os.linesep": "\n",
-            "shutil.move": fs.move, "shutil.copy": fs.copyfile, "shutil.copy2": fs.copyfile, "shutil.copyfile": fs.copyfile,
-            "shutil.rmtree": fs.rmtree,
-            "tempfile.TemporaryDirectory": lambda *a, **k: TempDir(fs, *a, **k), "tempfile.mkdtemp": fs.mkdtemp,
-            "tempfile.gettempdir": lambda: "/tmp",
-            "tempfile.NamedTemporaryFile": lambda *a, **k: NamedTemp(fs, *a, **k),
-            "tempfile.mkstemp": lambda *a, **k: NamedTemp(fs, *a, delete=False, **k).as_mkstemp(),
-            "contextlib.ExitStack": lambda: ExitStackModel(fs.it), "contextlib.nullcontext": lambda v=None: NullCM(v),
-            "contextlib.suppress": lambda *t: Suppress(fs.it, t), "contextlib.closing": lambda v: NullCM(v),
-        }
-        return ext
-
-
-class FileObj(_Model):
-    def __init__(self, fs, path, mode="r"):
-        self.fs, self.path, self.mode, self.closed = fs, path, str(mode), False
-        self.binary = "b" in self.mode
-        self.name = path
-        if not any(c in self.mode for c in "wax+"):
-            if path in fs.dirs:
-                fs.it.throw("IsADirectoryError", path)
-            if path not in fs.files:
-                fs.it.throw("FileNotFoundError", f"No such file or directory: '{path}'")
-            fs.log("read", path)
-            self.pos = 0
-        else:
-            if "x" in self.mode and path in fs.files:
-                fs.it.throw("FileExistsError", path)
-            if "w" in self.mode or "x" in self.mode:
-                fs.write_file(path, b"" if self.binary else "", "truncate" if path in fs.files else "create")
-            elif path not in fs.files:
-                if "r" in self.mode:
-                    fs.it.throw("FileNotFoundError", path)
-                fs.write_file(path, b"" if self.binary else "", "create")
-            self.pos = len(fs.files[path]) if "a" in self.mode else 0
-
-    def _check(self):
-        if self.closed:
-            self.fs.it.throw("ValueError", "I/O operation on closed file.")
-
-    def _data(self):
-        if self.path not in self.fs.files:
-            self.fs.it.throw("FileNotFoundError", self.path)
-        return self.fs.files[self.path]
-
-    def read(self, n=-1):
-        self._check()
-        d = self._data()
-        out = d[self.pos:] if n is None or n < 0 else d[self.pos:self.pos + n]
-        self.pos += len(out)
-        return out
-
-    def readlines(self, hint=-1):
-        return self.read().splitlines(keepends=True)
-
-    def readline(self, *a):
-        self._check()
-        rest = self._data()[self.pos:]
-        ls = rest.splitlines(keepends=True)
-        out = ls[0] if ls else rest[:0]
-        self.pos += len(out)
-        return out
-
-    def __iter__(self):
-        return iter(self.readlines())
-
-    def write(self, s):
-        self._check()
-        if not any(c in self.mode for c in "wax+"):
-            self.fs.it.throw("OSError", "not writable")
-        if isinstance(s, (Unknown, ExtRef)):
-            raise Unsupported("writing an unknown value to a file")
-        if not isinstance(s, bytes if self.binary else str):
-            self.fs.it.throw("TypeError", f"write() argument must be {'bytes' if self.binary else 'str'}, not {type(s).__name__}")
-        d = self._data()
-        self.fs.log("write", self.path)
-        self.fs.files[self.path] = d[:self.pos] + s + d[self.pos + len(s):]
-        self.pos += len(s)
-        return len(s)
-
-    def writelines(self, lines):
-        for ln in self.fs.it.iterate(lines):
-            self.write(ln)
-
-    def flush(self):
+    def mono_of(self, v):
+        if isinstance(v, bool):
+            return None
+        if isinstance(v, int):
+            return Fraction(v), {}
+        if isinstance(v, float):
+            return Fraction(str(v)), {}
+        if isinstance(v, Fraction):
+            return v, {}
+        if isinstance(v, MonoSym):
+            return Fraction(v.coef), {p: (e, t) for p, e, t in v.factors}
+        if isinstance(v, Sym):
+            return Fraction(1), {v.path: (1, v)}
         return None
 
-    def seek(self, pos, whence=0):
-        self.pos = pos if whence == 0 else (self.pos + pos if whence == 1 else len(self._data()) + pos)
-        return self.pos
-
-    def tell(self):
-        return self.pos
-
-    def truncate(self, size=None):
-        self.fs.files[self.path] = self._data()[:self.pos if size is None else size]
-
-    def close(self):
-        self.closed = True
-
-    def __enter__(self):
-        return self
-
-    def __exit__(self, *a):
-        self.closed = True
-        return False
-
-
-class MPath(_Model):
-    fs = None
-
-    def __init__(self, *parts):
-        ps = []
-        for p in parts:
-            if isinstance(p, MPath):
-                ps.append(p.s)
-            elif isinstance(p, str):
-                ps.append(p)
-            elif isinstance(p, (Unknown, ExtRef)):
-                raise Unsupported(f"path built from an unknown value {p!r}")
-            else:
-                self.fs.it.throw("TypeError", f"expected str, bytes or os.PathLike object, not {type(p).__name__}")
-        self.s = _pp.join(*ps) if ps else "."
-        if len(self.s) > 1:
-            self.s = self.s.rstrip("/") or "/"
-
-    def _new(self, s):
-        return type(self)(s)
-
-    def __str__(self):
-        return self.s
-
-    def __repr__(self):
-        return f"Path({self.s!r})"
-
-    def __fspath__(self):
-        return self.s
-
-    def __format__(self, spec):
-        return format(self.s, spec)
-
-    def __eq__(self, o):
-        return isinstance(o, MPath) and o.s == self.s
-
-    def __hash__(self):
-        return hash(("MPath", self.s))
-
-    def __lt__(self, o):
-        return self.s < o.s
-
-    def __truediv__(self, o):
-        return type(self)(self.s, o)
-
-    def __rtruediv__(self, o):
-        return type(self)(o, self.s)
-
-    def __deepcopy__(self, memo):
-        return self
-
-    @property
-    def parent(self):
-        return self._new(_pp.dirname(self.s) or ".")
-
-    @property
-    def parents(self):
-        out, p = [], self
-        while p.parent.s != p.s:
-            p = p.parent
-            out.append(p)
-        return tuple(out)
-
-    @property
-    def name(self):
-        return _pp.basename(self.s)
-
-    @property
-    def suffix(self):
-        n = self.name
-        i = n.rfind(".")
-        return n[i:] if 0 < i < len(n) - 1 else ""
-
-    @property
-    def suffixes(self):
-        n = self.name.lstrip(".")
-        return ["." + x for x in n.split(".")[1:]]
-
-    @property
-    def stem(self):
-        n = self.name
-        i = n.rfind(".")
-        return n[:i] if 0 < i < len(n) - 1 else n
-
-    @property
-    def parts(self):
-        return tuple((["/"] if self.s.startswith("/") else []) + [x for x in self.s.split("/") if x])
-
-    def with_name(self, name):
-        return self._new(_pp.join(_pp.dirname(self.s), name))
-
-    def with_suffix(self, suffix):
-        return self.with_name(self.stem + suffix)
-
-    def with_stem(self, stem):
-        return self.with_name(stem + self.suffix)
-
-    def joinpath(self, *o):
-        return type(self)(self.s, *o)
-
-    def expanduser(self):
-        return self
-
-    def resolve(self, strict=False):
-        return self._new(self.fs.norm(self.s))
-
-    def absolute(self):
-        return self._new(self.fs.norm(self.s))
-
-    def is_absolute(self):
-        return self.s.startswith("/")
-
-    def as_posix(self):
-        return self.s
-
-    def exists(self):
-        return self.fs.exists(self.s)
-
-    def is_file(self):
-        return self.fs.isfile(self.s)
-
-    def is_dir(self):
-        return self.fs.isdir(self.s)
-
-    def open(self, mode="r", *a, **k):
-        return self.fs.open(self.s, mode)
-
-    def read_text(self, *a, **k):
-        with self.fs.open(self.s, "r") as f:
-            return f.read()
-
-    def read_bytes(self):
-        with self.fs.open(self.s, "rb") as f:
-            return f.read()
-
-    def write_text(self, data, *a, **k):
-        if not isinstance(data, str):
-            if isinstance(data, (Unknown, ExtRef)):
-                raise Unsupported("writing an unknown value to a file")
-            self.fs.it.throw("TypeError", f"data must be str, not {type(data).__name__}")
-        with self.fs.open(self.s, "w") as f:
-            return f.write(data)
-
-    def write_bytes(self, data):
-        with self.fs.open(self.s, "wb") as f:
-            return f.write(data)
-
-    def touch(self, mode=0o666, exist_ok=True):
-        if not self.exists():
-            self.fs.write_file(self.s, "", "create")
-        elif not exist_ok:
-            self.fs.it.throw("FileExistsError", self.s)
-
-    def mkdir(self, mode=0o777, parents=False, exist_ok=False):
-        self.fs.mkdir(self.s, mode, parents, exist_ok)
-
-    def unlink(self, missing_ok=False):
-        if missing_ok and not self.fs.isfile(self.s):
-            return
-        self.fs.remove(self.s)
-
-    def rmdir(self):
-        self.fs.rmdir(self.s)
-
-    def rename(self, target):
-        self.fs.rename(self.s, target)
-        return self._new(self.fs.fspath(target))
-
-    replace = rename
-
-    def iterdir(self):
-        return iter([self / n for n in self.fs.listdir(self.s)])
-
-    def stat(self):
-        raise Unsupported("Path.stat is not modelled")
-
-
-class TempDir(_Model):
-    def __init__(self, fs, *a, **k):
-        self.fs = fs
-        self.name = fs.mkdtemp(prefix=k.get("prefix"))
-        self.managed = True
-
-    def cleanup(self):
-        if self.name in self.fs.dirs:
-            self.fs.rmtree(self.name)
-
-    def __enter__(self):
-        return self.name
-
-    def __exit__(self, *a):
-        self.cleanup()
-        return False
-
-
-class NamedTemp(FileObj):
-    def __init__(self, fs, mode="w+b", *a, delete=True, **k):
-        fs.ntemp += 1
-        self.delete = delete
-        path = f"/tmp/{k.get('prefix') or 'tmp'}{fs.ntemp:04d}{k.get('suffix') or ''}"
-        if k.get("dir") is not None:
-            path = _pp.join(fs.norm(k["dir"]), _pp.basename(path))
-        fs.temp_created.append(path)
-        FileObj.__init__(self, fs, path, mode if isinstance(mode, str) else "w+b")
-
-    def as_mkstemp(self):
-        return (Unknown("fd"), self.path)
-
-    def close(self):
-        self.closed = True
-        if self.delete and self.path in self.fs.files:
-            self.fs.remove(self.path)
-
-    def __exit__(self, *a):
-        self.close()
-        return False
-
-
-class NullCM(_Model):
-    def __init__(self, v=None):
-        self.v = v
-
-    def __enter__(self):
-        return self.v
-
-    def __exit__(self, *a):
-        return False
-
-
-class Suppress(_Model):
-    def __init__(self, it, types):
-        self.it, self.types = it, types
-
-    def __enter__(self):
-        return None
-
-    def __exit__(self, t, v, tb):
-        return v is not None and any(getattr(x, "name", None) in self.it.exc_names(v) for x in self.types)
-
-
-class ExitStackModel(_Model):
-    def __init__(self, it):
-        self.it, self.stack = it, []
-
-    def enter_context(self, cm):
-        v = self.it.cm_enter(cm)
-        self.stack.append(("cm", cm))
-        return v
-
-    def callback(self, f, *a, **k):
-        self.stack.append(("cb", (f, a, k)))
-        return f
-
-    def push(self, ex):
-        self.stack.append(("exit", ex))
-        return ex
-
-    def pop_all(self):
-        n = ExitStackModel(self.it)
-        n.stack, self.stack = self.stack, []
-        return n
-
-    def close(self):
-        self.__exit__(None, None, None)
-
-    def __enter__(self):
-        return self
-
-    def __exit__(self, t, v, tb):
-        exc, swallowed = v, False
-        while self.stack:
-            kind, x = self.stack.pop()
-            try:
-                if kind == "cm":
-                    if self.it.cm_exit(x, exc) and exc is not None:
-                        exc, swallowed = None, True
-                elif kind == "cb":
-                    self.it.call(x[0], list(x[1]), dict(x[2]))
+    def binop(self, op, l, r, node):
+        l, r = self.concrete(l), self.concrete(r)
+        if isinstance(op, ast.Add) and (isinstance(l, list) or isinstance(r, list)):
+            out: list = []
+            for x in (l, r):
+                if isinstance(x, (list, tuple)):
+                    out.extend(x)
                 else:
-                    a = [None, None, None] if exc is None else [exc.cls, exc, None]
-                    if self.it.truth(self.it.call(x, a, {})) and exc is not None:
-                        exc, swallowed = None, True
-            except PyExc as e:
-                exc, swallowed = e.val, False
-        if exc is not None and exc is not v:
-            raise PyExc(exc)
-        return swallowed and v is not None
-# ================================================================================================
+                    out.append(x if isinstance(x, Spl) else Spl(x))
+            return out
+        if isinstance(op, (ast.Mult, ast.Div)) and (isinstance(l, Sym) or isinstance(r, Sym)) and not isinstance(l, (str, list, tuple)) and not isinstance(r, (str, list, tuple)):
+            a, b = self.mono_of(l), self.mono_of(r)
+            if a is not None and b is not None and not (isinstance(op, ast.Div) and b[0] == 0):
+                sign = 1 if isinstance(op, ast.Mult) else -1
+                coef = a[0] * b[0] if sign == 1 else a[0] / b[0]
+                fac = dict(a[1])
+                for p, (e, t) in b[1].items():
+                    e0 = fac.get(p, (0, t))[0] + sign * e
+                    if e0 == 0:
+                        fac.pop(p, None)
+                    else:
+                        fac[p] = (e0, t)
+                if not fac:
+                    return int(coef) if coef.denominator == 1 else float(coef)
+                if coef == 1 and len(fac) == 1 and next(iter(fac.values()))[0] == 1:
+                    return next(iter(fac.values()))[1]
+                items = tuple(sorted((p, e, t) for p, (e, t) in fac.items()))
+                txt = "·".join(([str(coef)] if coef != 1 else []) + [p if e == 1 else f"({p})^{e}" for p, e, _t in items])
+                return MonoSym(txt, None, coef, items)
+        return super().binop(op, l, r, node)
+
+    def ev_Call(self, n, env):
+        f = n.func
+        if not isinstance(f, (ast.Name, ast.Attribute)):
+            fv = self.ev(f, env)
+            if isinstance(fv, tuple) and len(fv) == 3 and fv[0] == "closure":
+                return self.call_closure(fv, [self.ev(a, env) for a in n.args], n, env)
+            args, kw = self._args(n, env)
+            return CallSym(f"{show(fv)[:60]}({', '.join(show(a)[:60] for a in args)})", None, fv if isinstance(fv, Sym) else None, "()", args, tuple(sorted(kw.items(), key=lambda x: x[0])))
+        if isinstance(f, ast.Name) and f.id not in env:
+            nm = f.id
+            if nm in self.watch:
+                args, kw = self._args(n, env)
+                ret = CallSym(f"{nm}({', '.join(show(a)[:80] for a in args)})", None, None, nm, args, tuple(sorted(kw.items(), key=lambda x: x[0])))
+                self.run_state.effects.append(("call", nm, None, args, kw, n, ret))
+                return ret
+            if nm == "len" and len(n.args) == 1:
+                return self._len(self.ev(n.args[0], env))
+            if nm == "range" and len(n.args) == 3:
+                a0, b0, st = (self.concrete(self.ev(a, env)) for a in n.args)
+                if st == 1:
+                    return RangeSym(f"range({path_of(a0)}, {path_of(b0)})", None, a0, b0) if not (isinstance(a0, int) and isinstance(b0, int)) else range(a0, b0)
+                if st == -1 and isinstance(b0, int) and not isinstance(a0, int):
+                    # range(hi, lo-1, -1) runs over lo..hi downwards
+                    hi1 = self.add(a0, 1)
+                    return View("reversed", [RangeSym(f"range({b0 + 1}, {path_of(hi1)})", None, b0 + 1, hi1)])
+                if all(isinstance(x, int) for x in (a0, b0, st)) and st != 0:
+                    return range(a0, b0, st)
+                return Sym(f"?range({path_of(a0)}, {path_of(b0)}, {path_of(st)})")
+            if nm in ("enumerate", "zip", "reversed", "sorted") and n.args:
+                args = [self.ev(a, env) for a in n.args]
+                start = 0
+                if nm == "enumerate":
+                    st = [self.ev(k.value, env) for k in n.keywords if k.arg == "start"] + args[1:2]
+                    start = self.concrete(st[0]) if st else 0
+                    args = args[:1]
+                if nm == "sorted" and any(k.arg == "key" for k in n.keywords):
+                    pass
+                return View(nm, args, start)
+            if nm in ("list", "tuple") and len(n.args) == 1:
+                v = self.concrete(self.ev(n.args[0], env))
+                if isinstance(v, View):
+                    ph = self.phases(v)
+                    if ph is not None and all(p[0] == "star" for p in ph):
+                        return [Star(p[1], p[2], p[3], [p[5]], p[4], p[7]) for p in ph]
+                    return v
+                if isinstance(v, (list, tuple)):
+                    return list(v)
+                if isinstance(v, Sym):
+                    return [Spl(v)]
+            if nm in ("set", "frozenset") and len(n.args) == 1:
+                v = self.concrete(self.ev(n.args[0], env))
+                if isinstance(v, (list, tuple)) and not has_star(v) and not has_sym(v):
+                    return tuple(v)
+                if isinstance(v, Sym) and not isinstance(v, (CallSym,)):
+                    return CallSym(f"{nm}({v.path})", None, None, nm, (v,), ())
+                return View("set", [v])
+            if nm in ("any", "all") and len(n.args) == 1:
+                v = self.concrete(self.ev(n.args[0], env))
+                if isinstance(v, list):
+                    flat = []
+
+                    def fl(xs):
+                        for x in xs:
+                            if isinstance(x, Star):
+                                fl(x.items)
+                            else:
+                                flat.append(x)
+                    fl(v)
+                    ts = [self.truth(x) for x in flat]
+                    return any(ts) if nm == "any" else all(ts)
+            if nm == "isinstance" and len(n.args) == 2:
+                v = self.concrete(self.ev(n.args[0], env))
+                if isinstance(v, list):
+                    names = [x.id if isinstance(x, ast.Name) else x.attr for x in ast.walk(n.args[1]) if isinstance(x, (ast.Name, ast.Attribute))]
+                    return "list" in names or "Sequence" in names
+            if nm == "bool" and len(n.args) == 1:
+                v = self.concrete(self.ev(n.args[0], env))
+                if isinstance(v, Sym):
+                    return CmpSym(f"bool({v.path})", None, ast.NotEq, v, 0) if False else self.truth(v)
+        if isinstance(f, ast.Attribute) and f.attr in self.MUTATORS:
+            r = self._mutate(n, env)
+            if r is not NOC:
+                return r
+        if isinstance(f, ast.Attribute):
+            m = f.attr
+            if m in ("append", "extend", "insert", "get", "values", "items", "keys", "join", "copy"):
+                base = self.concrete(self.ev(f.value, env))
+                if isinstance(base, list) and m in ("append", "extend", "insert"):
+                    args = [self.ev(a, env) for a in n.args]
+                    self.run_state.effects.append(("call", m, base, tuple(args), {}, n, None))
+                    n0 = len(base)
+                    if m == "append" and args:
+                        base.append(args[0])
+                    elif m == "extend" and args:
+                        self._extend(base, args[0], n)
+                    if self.iter_stack and isinstance(self.iter_stack[-1][4], ast.For):
+                        gs = tuple((unparse(t)[:80], pol) for t, pol in guards(n, self.iter_stack[-1][4]))
+                        if gs:
+                            for j in range(n0, len(base)):
+                                self.marks[(id(base), j)] = gs
+                    elif m == "insert" and len(args) == 2:
+                        i = self.concrete(args[0])
+                        if isinstance(i, int) and not has_star(base):
+                            base.insert(i, args[1])
+                        else:
+                            base.append(Sym(f"?insert({path_of(i)})"))
+                    return None
+                if isinstance(base, dict) and m in ("values", "items", "keys") and any(isinstance(k, tuple) and k and k[0] == "★" for k in base):
+                    out = []
+                    for k, v in base.items():
+                        if isinstance(k, tuple) and k and k[0] == "★" and isinstance(v, Star):
+                            keyterm = Sym(k[2]) if isinstance(k[2], str) else k[2]
+                            item = v.items[0] if m == "values" else (keyterm if m == "keys" else (keyterm, v.items[0]))
+                            out.append(Star(v.fam, v.lo, v.hi, [item], "dedup", v.cond, v.loop))
+                        else:
+                            out.append(v if m == "values" else (k if m == "keys" else (k, v)))
+                    return out
+                if isinstance(base, dict) and m == "get" and n.args:
+                    k = self.concrete(self.ev(n.args[0], env))
+                    if isinstance(k, Sym) and not any(isinstance(kk, tuple) and kk and kk[0] == "★" for kk in base) and k.path not in base:
+                        dflt = self.ev(n.args[1], env) if len(n.args) > 1 else None
+                        if self.member(k, base):
+                            tn = self.table_name(base)
+                            return SubSym(f"{tn}[{k.path}]", None, TableSym(tn, None, base), k)
+                        return dflt
+                if isinstance(base, str) and m == "join" and len(n.args) == 1:
+                    a0 = self.concrete(self.ev(n.args[0], env))
+                    if isinstance(a0, (list, tuple)) and all(isinstance(x, str) for x in a0):
+                        return base.join(a0)
+                    return CallSym(f"{base!r}.join({show(a0)[:80]})", None, base, "join", (a0,), ())
+                if isinstance(base, list) and m == "copy":
+                    return list(base)
+                self._pre[id(f.value)] = base
+                try:
+                    return super().ev_Call(n, env)
+                finally:
+                    self._pre.pop(id(f.value), None)
+        return super().ev_Call(n, env)
+
+
+def sdt_env(fi, extra=(), overrides=None):
+    """every parameter bound to its symbolic entry value; locals are created by their assignments"""
+    fn = fi.node
+    a = fn.args
+    params = [x.arg for x in list(a.posonlyargs) + list(a.args) + list(a.kwonlyargs)]
+    if a.vararg:
+        params.append(a.vararg.arg)
+    if a.kwarg:
+        params.append(a.kwarg.arg)
+
+    def make():
+        env = {}
+        for p in params:
+            env[p] = Init(p, fi.cls if p in ("self",) else None)
+        for nm in extra:
+            env[nm] = Init(nm)
+        if overrides:
+            env.update(overrides() if callable(overrides) else overrides)
+        env["__fi__"] = fi
+        return env
+    return make
+
+
+SDT_ABSTRACTION = (
+    "Abstract evaluation of the syntax tree (SDT, extending the decision-table evaluators sa/dtab.DT and sa/rules/c05.LDT): the analysed function is evaluated once "
+    "over symbolic inputs; every parameter is an uninterpreted symbol standing for all values of its type, values are structured terms (call, subscript, slice, "
+    "linear form, monomial, element / fixed position of a sequence, last-position pick); a sequence of unknown length N is traversed by ONE generic iteration at "
+    "position K and what the iteration contributes is recorded as a position-quantified segment; literals and finite tables of the source are folded; whenever "
+    "a condition has an undetermined truth value the evaluation forks, so ALL valuations of the consulted conditions are enumerated (no sampling, no solver; "
+    "infeasible combinations are only pruned by interval reasoning on single-symbol linear comparisons). Nothing of the analysed package is imported or executed; "
+    "no input value, file content, list length or fault is chosen by the checker.")
+
+
+def declare_sdt(ctx: Ctx) -> None:
+    if SDT_ABSTRACTION not in ctx.explanations:
+        ctx.explain(SDT_ABSTRACTION)
+    ctx.assume("a loop over a symbolic sequence is evaluated as one generic iteration (inductive step from a symbolic entry state); the conditions of different "
+               "iterations are represented by the conditions of the generic one; zero iterations are covered only where an emptiness condition is consulted")
+    ctx.assume("calls the evaluator does not resolve inside the package (builtins of the I/O layer, third-party libraries) are uninterpreted function symbols of their arguments; "
+               "exceptions raised inside them are not modelled (only `raise` statements, failed look-ups in finite tables and out-of-range indices of finite sequences)")
+
+
+def cover_rows(ctx: Ctx, name: str, rows) -> None:
+    atoms = sorted({k for r in rows for k in r["val"]})
+    ctx.extra.setdefault("abstract_evaluation", {})[name] = {"valuations_enumerated": len(rows), "conditions_consulted": len(atoms), "conditions": [a[:110] for a in atoms][:30]}
+
+
+# ================================================================================================================
 # C17 rules
-# ================================================================================================
-_SEP_RE = _re.compile(r"\\page(?![a-zA-Z])[^\n]*\n")
-_ARTEFACT_EXC = {"TypeError", "AttributeError", "NameError", "NotImplementedError", "RecursionError"}
+# ================================================================================================================
+READ_CALLS = {"readlines", "read", "read_text", "read_bytes", "splitlines"}
+WRITE_CALLS = {"writelines", "write", "write_text", "write_bytes"}
+EXIST_CALLS = {"exists", "isfile", "is_file"}
+IO_WATCH = READ_CALLS | WRITE_CALLS | EXIST_CALLS | {"open", "lookup"}
 
 
-def is_artefact(exc) -> bool:
-    """an exception that was produced by the interpreter / a model (not by a `raise` statement) and whose type suggests that a
-    model value was used in a way the model does not support: not evidence about the analysed code"""
-    return isinstance(exc, Obj) and exc.attrs.get("__origin__") == "interp" and exc.cls is not None and exc.cls.mro_names()[0] in _ARTEFACT_EXC
+def _open_mode(args, kw) -> str:
+    kwd = dict(kw) if not isinstance(kw, dict) else kw
+    m = kwd.get("mode", args[1] if len(args) > 1 else "r")
+    return m if isinstance(m, str) else "?"
 
 
-def writer_docs(ctx: Ctx):
-    """R17.1, writer side: from the abstract document shape of each encode path take the literal preamble, locate the line
-    on which the font-table group closes and build a model document `preamble + tagged body lines + '}'`.
-    -> [(label, lines, index of the first body line)]"""
+def _is_write_mode(m: str) -> bool:
+    return any(ch in m for ch in "wax+")
+
+
+def _mentions(v, path: str) -> bool:
+    return any(isinstance(p, Sym) and p.path == path for p in sparts(v))
+
+
+def _lin_over(d: dict, kpath: str, npath: str):
+    """(a, b, c) of a*K + b*N + c if the form mentions nothing else"""
+    if any(k not in (kpath, npath, "") for k in d):
+        return None
+    return Fraction(d.get(kpath, 0)), Fraction(d.get(npath, 0)), Fraction(d.get("", 0))
+
+
+CLASSES = ((True, True), (True, False), (False, True), (False, False))      # (first, last)
+
+
+def _decide(abc, op: str, cls) -> bool | None:
+    """truth of a*K + b*N + c `op` 0 on a position class, None if it varies within the class.
+    classes: (first,last): K=0,N=1 | K=0,N=2+t | K=N-1=1+t,N=2+t | K=1+s,N=3+s+t   (s,t >= 0)"""
+    a, b, c = abc
+    first, last = cls
+    if first and last:
+        c0, cs, ct = c + b, Fraction(0), Fraction(0)
+    elif first:
+        c0, cs, ct = c + 2 * b, Fraction(0), b
+    elif last:
+        c0, cs, ct = c + a + 2 * b, Fraction(0), a + b
+    else:
+        c0, cs, ct = c + a + 3 * b, a + b, b
+    lo = c0 if cs >= 0 and ct >= 0 else None        # minimum (None = unbounded below)
+    hi = c0 if cs <= 0 and ct <= 0 else None        # maximum
+    const = cs == 0 and ct == 0
+    if op in (">", ">=", "<", "<="):
+        if op in ("<", "<="):
+            lo, hi = (None if hi is None else -hi), (None if lo is None else -lo)
+            op = ">" if op == "<" else ">="
+        strict = op == ">"
+        if lo is not None and (lo > 0 or (lo == 0 and not strict)):
+            return True
+        if hi is not None and (hi < 0 or (hi == 0 and strict)):
+            return False
+        return None
+    if op in ("==", "!="):
+        eq: bool | None
+        if const:
+            eq = c0 == 0
+        elif (lo is not None and lo > 0) or (hi is not None and hi < 0):
+            eq = False
+        else:
+            eq = None
+        if eq is None:
+            return None
+        return eq if op == "==" else not eq
+    return None
+
+
+_OPN = {ast.Lt: "<", ast.LtE: "<=", ast.Gt: ">", ast.GtE: ">=", ast.Eq: "==", ast.NotEq: "!="}
+
+
+class _Gap(Exception):
+    pass
+
+
+class AssembleSummary:
+    """reads the symbolic summary of assemble_rtf"""
+
+    def __init__(self, ctx: Ctx, fi, dt: SDT, rows, p_in: str, p_out: str):
+        self.ctx, self.fi, self.dt, self.rows, self.p_in, self.p_out = ctx, fi, dt, rows, p_in, p_out
+        self.fam = dt.fams.get(p_in)
+        self.markers: set = set()
+        self.offsets: set = set()
+        self.seen_classes: set = set()
+        self.gaps: list[str] = []
+        self.seps: list = []
+
+    # ---- atoms
+    def seq_atoms(self, row):
+        """[(key, value, (a,b,c)|'truth'|None)] for the conditions about the input sequence as a whole / the generic position"""
+        out = []
+        kp, npth = (self.fam.k.path, self.fam.n.path) if self.fam is not None else ("κ⟨%s⟩" % self.p_in, "len(%s)" % self.p_in)
+        for key, val in row["val"].items():
+            rec = self.dt.cmp.get(key)
+            if rec is None:
+                continue
+            if rec[0] == "truth" and isinstance(rec[1], Sym) and rec[1].path == self.p_in:
+                out.append((key, val, "truth"))
+                continue
+            if isinstance(rec[0], type) and rec[0] in _OPN:
+                dl, dr = lin_of(rec[1]), lin_of(rec[2])
+                if dl is None or dr is None:
+                    continue
+                d = lin_sub(dl, dr)
+                if not any(k in (kp, npth) for k in d):
+                    continue
+                abc = _lin_over(d, kp, npth)
+                out.append((key, val, (abc, _OPN[rec[0]]) if abc is not None else None))
+        return out
+
+    def consistent(self, row, cls, pos=None) -> bool | None:
+        """is the valuation of the row possible for a position of this class (None: not expressible)"""
+        for key, val, form in self.seq_atoms(row):
+            if form == "truth":
+                if val is not True:
+                    return False
+                continue
+            if form is None:
+                return None
+            abc, op = form
+            t = _decide(abc, op, cls)
+            if t is None:
+                return None
+            if t != val:
+                return False
+        return True
+
+    def empty_consistent(self, row) -> bool:
+        for key, val, form in self.seq_atoms(row):
+            if form == "truth":
+                if val is not False:
+                    return False
+            elif form is not None:
+                (a, b, c), op = form
+                if a != 0:
+                    continue              # about the generic position: says nothing about the empty list
+                v = c
+                t = {">": v > 0, ">=": v >= 0, "<": v < 0, "<=": v <= 0, "==": v == 0, "!=": v != 0}[op]
+                if t != val:
+                    return False
+        return True
+
+    # ---- stream
+    def stream(self, row):
+        """the written content as [(segment, inside_loop)] in trace order"""
+        out = []
+        depth = []
+        for e in row["effects"]:
+            if e[0] == "iter":
+                depth.append(e)
+            elif e[0] == "iter-end":
+                if depth:
+                    depth.pop()
+            elif e[0] == "call" and e[1] in WRITE_CALLS:
+                recv, args = e[2], e[3]
+                if not args:
+                    continue
+                content = self.dt.concrete(args[0]) if not isinstance(args[0], (list, Spl)) else args[0]
+                items = self.flatten(content, e[1])
+                if depth:
+                    it = depth[-1]
+                    if out and isinstance(out[-1], Star) and getattr(out[-1], "_iter", None) is it:
+                        out[-1].items.extend(items)
+                        out[-1].icond.extend([()] * len(items))
+                        continue
+                    st = Star(it[2], it[3], it[4], items, it[5], (), it[1])
+                    st._iter = it
+                    items = [st]
+                out.extend(items)
+        return out
+
+    def flatten(self, content, meth):
+        if isinstance(content, CallSym) and content.meth == "join" and isinstance(content.recv, str) and len(content.args) == 1:
+            if content.recv != "":
+                raise _Gap(f"the written text is joined with separator {content.recv!r}")
+            return self.flatten(content.args[0], "writelines")
+        if isinstance(content, (list, tuple)):
+            out = []
+            for x in content:
+                if isinstance(x, Spl):
+                    t = self.dt.concrete(x.term) if isinstance(x.term, Sym) else x.term
+                    if isinstance(t, (list, tuple)):
+                        out.extend(self.flatten(t, meth))
+                    else:
+                        out.append(x)
+                else:
+                    out.append(x)
+            return out
+        if isinstance(content, str):
+            return [content]
+        if meth == "writelines":
+            return [Spl(content)]
+        return [content]
+
+    # ---- verdict helpers
+    def viol(self, offending: str, msg: str, where=None):
+        self.ctx.violation("R17.2", self.fi.short, offending, where or self.fi.where(), msg)
+
+    def lines_of(self, term):
+        """(base, lo, hi) of a piece"""
+        if isinstance(term, SliceSym):
+            if isinstance(term.base, SliceSym):
+                b, lo1, hi1 = self.lines_of(term.base)
+                lo2, hi2 = term.lo, term.hi
+                if lo2 is not None and not (isinstance(lo2, int) and lo2 >= 0):
+                    raise _Gap(f"nested slice {path_of(term)[:80]}")
+                lo = lo1 if not lo2 else (lo2 if lo1 is None else self.dt.add(lo1, lo2))
+                if hi2 is None:
+                    hi = hi1
+                elif isinstance(hi2, int) and hi2 < 0 and (hi1 is None or _is_len_of(hi1, b)):
+                    hi = hi2
+                else:
+                    raise _Gap(f"nested slice {path_of(term)[:80]}")
+                return b, lo, hi
+            return term.base, term.lo, term.hi
+        return term, None, None
+
+    def position_of(self, term):
+        """('gen', fam) | ('pos', fam, lin) | None: which input the term was read from"""
+        found = []
+        for p in sparts(term):
+            if isinstance(p, PosSym) and path_of(p.fam.root) == self.p_in:
+                found.append(("pos", p.fam, p.pos))
+            elif isinstance(p, ElemSym) and self.fam is not None and p.path == self.fam.elem.path:
+                found.append(("gen", self.fam))
+        uniq = []
+        for f in found:
+            if not any(f[0] == g[0] and (f[0] == "gen" or path_of(f[2]) == path_of(g[2])) for g in uniq):
+                uniq.append(f)
+        return uniq
+
+
+def _is_len_of(v, base) -> bool:
+    d = lin_of(v) if not isinstance(v, (str, type(None))) else None
+    return d is not None and d == {f"len({path_of(base)})": 1}
+
+
+def _is_len_minus(v, base, k: int) -> bool:
+    d = lin_of(v) if not isinstance(v, (str, type(None))) else None
+    return d is not None and d == {f"len({path_of(base)})": 1, "": -k}
+
+
+def r17_2(ctx: Ctx):
+    pm = ctx.pm
+    fi = pm.func("assemble_rtf")
+    a = fi.node.args
+    params = [x.arg for x in list(a.posonlyargs) + list(a.args)]
+    if len(params) < 2:
+        ctx.gap("R17.2", "assemble_rtf no longer takes (inputs, output)")
+        return None
+    p_in, p_out = params[0], params[1]
+    dt = SDT(pm, watch=IO_WATCH)
+    try:
+        rows = dt.table_rows(fi.node.body, sdt_env(fi), fi)
+    except Unsupported as e:
+        ctx.gap("R17.2", f"assemble_rtf could not be evaluated symbolically: {e}")
+        return None
+    cover_rows(ctx, "assemble_rtf", rows)
+    sm = AssembleSummary(ctx, fi, dt, rows, p_in, p_out)
+    ctx.instance("R17.2", fi.where(), f"assemble_rtf evaluated over a symbolic input list: {len(rows)} valuation(s) of {len({k for r in rows for k in r['val']})} condition(s); "
+                                      f"sequence families: {sorted(dt.fams)[:4]}")
+    n_checked = 0
+    for row in rows:
+        try:
+            n_checked += _judge_row(ctx, sm, row)
+        except _Gap as g:
+            if str(g) not in sm.gaps:
+                sm.gaps.append(str(g))
+    for g in sm.gaps[:4]:
+        ctx.gap("R17.2", g)
+    want = {(True, True), (True, False), (False, True), (False, False)}
+    missing = want - sm.seen_classes
+    ctx.instance("R17.2", fi.where(), f"position classes (first,last) for which the emitted piece was judged: {sorted(sm.seen_classes)}; markers {sorted(sm.markers)}; offsets {sorted(sm.offsets)}")
+    if missing and not ctx.findings and not sm.gaps:
+        ctx.gap("R17.2", f"no valuation of assemble_rtf describes the positions {sorted(missing)} (first,last): the assembling loop was not re-identified")
+    ctx.floor("R17.2", 4)
+    return sm
+
+
+def _judge_row(ctx: Ctx, sm: AssembleSummary, row) -> int:
+    fi, dt = sm.fi, sm.dt
+    eff = row["effects"]
+    opens_w = [e for e in eff if e[0] == "call" and ((e[1] == "open" and _is_write_mode(_open_mode(e[3], e[4]))) or e[1] in ("write_text", "write_bytes"))]
+    opens_r = [e for e in eff if e[0] == "call" and ((e[1] == "open" and not _is_write_mode(_open_mode(e[3], e[4]))) or e[1] in ("read_text", "read_bytes"))]
+    desc = ", ".join(f"{k[:50]}={v}" for k, v in row["val"].items())
+    # ---- the empty list touches nothing
+    if sm.empty_consistent(row):
+        depth = 0
+        for e in eff:
+            if e[0] == "iter":
+                depth += 1
+            elif e[0] == "iter-end":
+                depth -= 1
+            elif depth == 0 and e in opens_w:
+                sm.viol("empty list opens the output", "for an empty input list assemble_rtf still opens/writes the output (no emptiness condition guards "
+                        f"`{unparse(e[5])[:60]}`): an empty list must write nothing", fi.where(e[5]))
+        ctx.instance("R17.2", fi.where(), f"valuation possible for the empty list [{desc}]: outcome {row['outcome'] if not isinstance(row['outcome'], tuple) else row['outcome'][:2]}, "
+                                          f"{sum(1 for e in eff if e in opens_w)} write-open(s) outside loops checked")
+    # ---- a missing input raises FileNotFoundError and nothing is written
+    for key, val in row["val"].items():
+        rec = dt.cmp.get(key)
+        if rec and rec[0] == "truth" and isinstance(rec[1], CallSym) and rec[1].meth in EXIST_CALLS and val is False and _mentions(rec[1], sm.p_in):
+            out = row["outcome"]
+            raised = out[1] if isinstance(out, tuple) and out[0] == "raise" else None
+            ok = raised is not None and ("FileNotFoundError" in exc_mro(ctx.pm, raised))
+            ctx.instance("R17.2", fi.where(), f"generic input does not exist [{key[:60]} = False]: outcome {raised or out}, write-opens before: {len(opens_w)}")
+            if not ok:
+                sm.viol("missing input: " + (raised or "no exception"), f"when an input does not exist assemble_rtf {'raises ' + raised if raised else 'does not raise'} instead of FileNotFoundError")
+            if opens_w:
+                sm.viol("output written although an input is missing", "the output is opened for writing on a path on which an input was found missing", fi.where(opens_w[0][5]))
+            return 1
+    if isinstance(row["outcome"], tuple) and row["outcome"][0] == "raise":
+        return 0
+    st = sm.stream(row)
+    if not st:
+        return 0
+    if sm.fam is None:
+        raise _Gap("the input list is never traversed as a sequence")
+    # ---- segments: position ranges must tile 0..N-1 in argument order
+    segs = []
+    for x in st:
+        if isinstance(x, Star):
+            segs.append(["star", x, list(x.items)])
+        else:
+            pos = sm.position_of(x.term if isinstance(x, Spl) else x) if not isinstance(x, str) else []
+            if isinstance(x, str) or not pos:
+                if segs and segs[-1][0] == "pos":
+                    segs[-1][2].append(x)
+                elif isinstance(x, str) and not segs:
+                    sm.viol("content before the first input " + repr(x)[:30], f"the assembled file starts with {x!r}, not with the first input")
+                elif isinstance(x, str):
+                    segs.append(["lit", None, [x]])
+                else:
+                    raise _Gap(f"a written piece could not be attributed to an input: {show(x)[:100]}")
+            else:
+                if len(pos) > 1:
+                    sm.viol("piece mixes inputs " + show(x)[:60], f"a written piece depends on several inputs: {show(x)[:120]}")
+                    continue
+                if pos[0][0] == "gen":
+                    raise _Gap(f"a piece of the generic input is written outside the traversal: {show(x)[:100]}")
+                if segs and segs[-1][0] == "pos" and path_of(segs[-1][1]) == path_of(pos[0][2]):
+                    segs[-1][2].append(x)
+                else:
+                    segs.append(["pos", pos[0][2], [x]])
+    npth = sm.fam.n.path
+    cur: Any = 0
+    for kind, what, items in segs:
+        if kind == "lit":
+            continue
+        if kind == "star":
+            if path_of(what.fam.root) != sm.p_in:
+                root = what.fam.root
+                if what.order == "dedup" or (isinstance(root, Sym) and _mentions(root, sm.p_in)):
+                    sm.viol("parts not one per argument", f"the parts are taken from `{path_of(root)[:80]}` ({what.order}), not from one entry per argument in argument order: "
+                            "a path listed twice / reordered inputs are not reproduced")
+                    return 1
+                raise _Gap(f"the traversed sequence `{path_of(root)[:80]}` could not be related to the input list")
+            if what.order != "fwd":
+                sm.viol("input order " + what.order, f"the inputs are traversed in {what.order} order, not in argument order")
+                return 1
+            if what.cond:
+                raise _Gap("the pieces are written for a filtered selection of the inputs")
+            start, nxt = what.lo, dt.add(sm.fam.n, what.hi)
+        else:
+            start, nxt = what, dt.add(what, 1)
+        ds, dc = lin_of(start), lin_of(cur)
+        if ds is None or dc is None or lin_sub(ds, dc):
+            sm.viol(f"positions {path_of(cur)}..{path_of(start)} skipped or repeated", f"the written segments do not cover the inputs consecutively: after position {path_of(cur)} "
+                    f"the next written input is {path_of(start)}")
+            return 1
+        cur = nxt
+    dc = lin_of(cur)
+    if dc is None or lin_sub(dc, {npth: 1}):
+        sm.viol(f"inputs from position {path_of(cur)} missing", f"the written segments end before the last input (next position {path_of(cur)}, N = {npth})")
+        return 1
+    # ---- pieces per position class
+    n = 0
+    for kind, what, items in segs:
+        if kind == "lit":
+            sm.viol("stray literal " + repr(items[0])[:30], f"literal content {items[0]!r} is written outside any input's piece")
+            continue
+        if kind == "star":
+            lo, hi = what.lo, what.hi
+            if lo not in (0, 1) or hi not in (0, -1):
+                raise _Gap(f"traversal range [{lo}, N{hi:+d}] not expressible by first/last")
+            feas = [c for c in CLASSES if (c[0] is False or lo == 0) and (c[1] is False or hi == 0)]
+            if lo == 0 and hi == -1:
+                feas = [c for c in feas if c != (True, True)]
+            elem_kind = ("gen", sm.fam)
+        else:
+            d = lin_of(what)
+            if d == {} or d == {"": 0}:
+                feas = [(True, True), (True, False)]
+            elif d == {npth: 1, "": -1}:
+                feas = [(True, True), (False, True)]
+            else:
+                raise _Gap(f"fixed position {path_of(what)} is neither the first nor the last input")
+            elem_kind = ("pos", what)
+        for cls in feas:
+            ok = sm.consistent(row, cls)
+            if ok is None:
+                raise _Gap("a condition on the position / the number of inputs is not decidable by first/last: " +
+                           "; ".join(k for k, _v, f in sm.seq_atoms(row) if f is None or (f != "truth" and _decide(f[0], f[1], cls) is None))[:160])
+            if not ok:
+                continue
+            sm.seen_classes.add(cls)
+            n += 1
+            _judge_piece(ctx, sm, row, cls, elem_kind, items, desc)
+    _judge_separators(sm, desc)
+    return n
+
+
+def _judge_separators(sm: AssembleSummary, desc: str) -> None:
+    """exactly one \\page line between consecutive inputs: written after every non-last piece, or before every later piece"""
+    seps, sm.seps = sm.seps, []
+    if not seps:
+        return
+    style_before = any(b for _c, b, _a, _d in seps)
+    style_after = any(a for _c, _b, a, _d in seps)
+    if style_before and style_after:
+        if any(b and a for _c, b, a, _d in seps) or True:
+            # both styles in one valuation: between some pair of inputs two separators (or none) are written
+            both = [(c, b, a) for c, b, a, _d in seps]
+            # a separator after piece p and one before piece p+1
+            if any(a and not c[1] for c, _b, a in both) and any(b and not c[0] for c, b, _a in both):
+                sm.viol("several separators", f"a \\page line is written after an input and another one before the next input [{desc[:120]}]")
+                return
+    for (first, last), before, after, d in seps:
+        if len(before) > 1 or len(after) > 1:
+            sm.viol("several separators", f"{(before + after)!r} are written around one input [{d[:120]}]")
+        if style_before and not style_after:
+            if first and before:
+                sm.viol("separator before the first input", f"{before[0]!r} is written before the first input [{d[:120]}]")
+            if not first and not before:
+                sm.viol("no page line before a later input", f"a later input is not preceded by a \\page line [{d[:120]}]: it does not start on a new page")
+        else:
+            if last and after:
+                sm.viol("separator after the last input", f"{after[0]!r} is written after the last input [{d[:120]}]")
+            if not last and not after:
+                sm.viol("no page line after a non-last input", f"a non-last input is not followed by a \\page line [{d[:120]}]: the next input does not start on a new page")
+            if before and first:
+                sm.viol("separator before the first input", f"{before[0]!r} is written before the first input [{d[:120]}]")
+
+
+def _judge_piece(ctx: Ctx, sm: AssembleSummary, row, cls, elem_kind, items, desc) -> None:
+    fi, dt = sm.fi, sm.dt
+    first, last = cls
+    label = f"{'first' if first else 'later'}/{'last' if last else 'non-last'} input"
+    spl = [x for x in items if isinstance(x, Spl) or (isinstance(x, Sym))]
+    lits = [x for x in items if isinstance(x, str)]
+    if len(spl) != 1:
+        if not spl:
+            sm.viol(f"{label}: no content", f"for a {label} nothing of the input's lines is written")
+            return
+        raise _Gap(f"{label}: {len(spl)} pieces per input")
+    piece = spl[0].term if isinstance(spl[0], Spl) else spl[0]
+    base, lo, hi = sm.lines_of(piece)
+    if isinstance(base, PickSym) or not isinstance(base, Sym):
+        raise _Gap(f"{label}: the written piece is not a slice of a line list: {show(piece)[:100]}")
+    pos = sm.position_of(base)
+    if not pos:
+        raise _Gap(f"{label}: the written lines `{path_of(base)[:80]}` do not derive from an input")
+    reads = [p for p in sparts(base) if isinstance(p, CallSym) and (p.meth in READ_CALLS or p.meth == "open")]
+    if not reads:
+        raise _Gap(f"{label}: `{path_of(base)[:80]}` is not recognisably read from the input")
+    # ---- start of the slice
+    marker_true = None
+    d_lo = None if lo is None else lin_of(lo)
+    if d_lo is None and lo is not None:
+        raise _Gap(f"{label}: start index {path_of(lo)[:80]} is not a linear form")
+    d_lo = d_lo or {}
+    picks = [t for t in (lo.terms if isinstance(lo, LinSym) else ([lo] if isinstance(lo, Sym) else [])) if isinstance(t, PickSym)]
+    other = [k for k in d_lo if k != "" and not any(k == p.path for p in picks)]
+    if first:
+        if d_lo not in ({}, {"": 0}):
+            sm.viol("first input does not start at line 0", f"the first input is written from line `{path_of(lo)[:100]}`, not from its first line: its preamble is cut [{desc[:120]}]")
+    else:
+        if other:
+            raise _Gap(f"{label}: start index {path_of(lo)[:100]} depends on {other[:2]}")
+        if not picks:
+            # no scan result: either no marker line exists on this path, or the preamble is kept
+            marker_atoms = [(k, v) for k, v in row["val"].items() if (dt.cmp.get(k) or ("",))[0] == "member" and isinstance(dt.cmp[k][1], str)
+                            and isinstance(dt.cmp[k][2], Sym) and dt.cmp[k][2].path == path_of(base) + "[κ]"]
+            if any(v is True for _k, v in marker_atoms):
+                sm.viol("later input starts at a fixed line", f"a later input is written from line `{path_of(lo) if lo is not None else 0}` although a marker line was found: "
+                        f"the preamble of later inputs is not skipped [{desc[:120]}]")
+            elif not marker_atoms:
+                sm.viol("later input keeps its preamble", f"a later input is written from line `{path_of(lo) if lo is not None else 0}` without scanning for the end of its font table "
+                        f"[{desc[:120]}]: every input but the first must start after its own preamble")
+        else:
+            pk = picks[0]
+            if len(picks) > 1 or d_lo.get(pk.path) != 1:
+                raise _Gap(f"{label}: start index {path_of(lo)[:100]} is not `scan result + constant`")
+            root = pk.fam.root
+            if path_of(root) != path_of(base):
+                rp, bp = sm.position_of(root), sm.position_of(base)
+                if not rp or [(x[0], path_of(x[2]) if x[0] == "pos" else "") for x in rp] == [(x[0], path_of(x[2]) if x[0] == "pos" else "") for x in bp]:
+                    raise _Gap(f"{label}: the scanned sequence `{path_of(root)[:80]}` could not be related to the written lines `{path_of(base)[:60]}`")
+                sm.viol("start index from other lines", f"the start index of a later input is computed by scanning `{path_of(root)[:80]}`, not that input's own lines "
+                        f"`{path_of(base)[:80]}`: the preamble length of one input is applied to another")
+            dterm = lin_of(pk.term)
+            if dterm is None or {k: v for k, v in dterm.items() if k != ""} != {pk.fam.k.path: 1}:
+                raise _Gap(f"{label}: the scan keeps `{path_of(pk.term)[:60]}`, not the line index")
+            off = d_lo.get("", 0) + dterm.get("", 0)
+            ms = [(dt.cmp[k][1], v) for k, v in pk.conds if k in dt.cmp and dt.cmp[k][0] == "member" and isinstance(dt.cmp[k][1], str)]
+            extra = [(k, v) for k, v in pk.conds if not (k in dt.cmp and dt.cmp[k][0] == "member" and isinstance(dt.cmp[k][1], str))]
+            if len(ms) != 1 or ms[0][1] is not True:
+                raise _Gap(f"{label}: the scan condition {[k for k, _ in pk.conds][:2]} is not `<marker> in line`")
+            if extra:
+                raise _Gap(f"{label}: the scan has further conditions {[k[:50] for k, _ in extra][:2]}")
+            if pk.kind != "last":
+                sm.viol(f"scan takes the {pk.kind} marker line", f"the scan for the end of the font table keeps the {pk.kind} line containing {ms[0][0]!r}, not the last one: "
+                        "for a later input part of the font table leaks into the assembled file")
+            sm.markers.add(ms[0][0])
+            sm.offsets.add(off)
+    # ---- end of the slice
+    whole = hi is None or _is_len_of(hi, base)
+    minus1 = (isinstance(hi, int) and hi == -1) or (hi is not None and not isinstance(hi, int) and _is_len_minus(hi, base, 1))
+    if not whole and not minus1:
+        raise _Gap(f"{label}: end index {path_of(hi)[:80]} is neither the length nor length-1")
+    brace = [(k, v) for k, v in row["val"].items() if "}" in k and any(isinstance(p, SubSym) and (path_of(p.base) == path_of(base) or path_of(p.base).startswith(path_of(base) + "[")) for t in (dt.cmp.get(k) or ("", None, None))[1:3] for p in sparts(t))]
+    if last:
+        if minus1:
+            sm.viol("last input loses its closing line", f"the last line of the last input is dropped [{desc[:120]}]: the assembled document is not closed")
+    else:
+        empty_base = any((dt.cmp.get(k) or ("",))[0] == "truth" and path_of(dt.cmp[k][1]) == path_of(base) and v is False for k, v in row["val"].items())
+        if whole and not any(v is False for _k, v in brace) and not empty_base:
+            sm.viol("closing line of a non-last input kept", f"a non-last input is written up to its end [{desc[:120]}]: its closing brace ends the document before the following inputs")
+    # ---- separators written with this piece (judged per valuation by _judge_separators)
+    k0 = items.index(spl[0])
+    before, after = items[:k0], items[k0 + 1:]
+    for s0 in before + after:
+        if not isinstance(s0, str):
+            raise _Gap(f"{label}: separator {show(s0)[:60]} is not a literal")
+        if not (s0.startswith("\\page") and s0.endswith("\n") and s0[5:].strip() == ""):
+            sm.viol(f"separator {s0!r}", f"the line written between two inputs is {s0!r}, not a \\page line")
+    sm.seps.append((cls, before, after, desc))
+    ctx.instance("R17.2", fi.where(), f"{label} [{desc[:140]}]: lines[{path_of(lo) if lo is not None else ''}:{path_of(hi) if hi is not None else ''}] of {path_of(base)[:50]}; separators before {before} after {after}")
+
+
+# ---------------------------------------------------------------------------------------------- R17.1 writer side
+def r17_1(ctx: Ctx, markers: set, offsets: set) -> None:
+    """the literal preamble the encoders write, against the marker / offset the reader uses"""
     pm = ctx.pm
     it = make_interp(pm)
-    docs = []
+    rfi = pm.func("assemble_rtf")
+    if len(markers) != 1 or len(offsets) != 1:
+        ctx.gap("R17.1", f"the reader's marker / offset could not be determined uniquely from the symbolic summary (markers {sorted(markers)}, offsets {sorted(map(str, offsets))})")
+        marker = add = None
+    else:
+        marker, add = next(iter(markers)), next(iter(offsets))
+        ctx.instance("R17.1", rfi.where(), f"reader: a later input starts at (last line containing {marker!r}) + {add}")
     for path in PATHS:
         fi = pm.func(path)
         _, sh = doc_shape(it, pm, path)
-        for na, a in enumerate(S.alternatives(sh)):
+        for a in S.alternatives(sh):
             items = S.items_of(a)
             if a == S.EPS:
                 continue
@@ -2371,8 +1989,7 @@ def writer_docs(ctx: Ctx):
                         pos_close = k
                         break
             if pos_close is None:
-                ctx.gap("R17.1", f"{path}: the font table is not a literal part of the preamble (it ends at {pre[-30:]!r}); "
-                                 "the line layout written by the encoder cannot be determined")
+                ctx.gap("R17.1", f"{path}: the font table is not a literal part of the preamble (it ends at {pre[-30:]!r}); the line layout written by the encoder cannot be determined")
                 continue
             close_line = pre.count("\n", 0, pos_close)
             rest_lit = pre[pos_close + 1:]
@@ -2387,286 +2004,180 @@ def writer_docs(ctx: Ctx):
             ctx.instance("R17.1", fi.where(), f"{path}: font table closes on line {close_line} of the preamble, body starts on line {close_line + 1}; closing line tail {tail_desc}")
             if not clean:
                 ctx.violation("R17.1", path, "font-table closing line carries content", fi.where(),
-                              f"{path}: the line that closes the font table can continue with other content ({tail_desc}); "
-                              "a line-based reader drops or keeps that whole line for every input but the first")
+                              f"{path}: the line that closes the font table can continue with other content ({tail_desc}); a line-based reader drops or keeps that whole line "
+                              "for every input but the first")
             tails = S.tails(a, 3)
             bad = [t for t in tails if not t.endswith("\n}")]
             ctx.instance("R17.1", fi.where(), f"{path}: document tails {sorted(tails)}")
             if bad:
                 ctx.violation("R17.1", path, "last line " + repr(sorted(bad)[0]), fi.where(),
-                              f"{path}: the document does not end with a line consisting of '}}' only ({sorted(bad)[0]!r}); dropping the last line of "
-                              "non-final inputs removes content or leaves the group open")
-            head = pre[:pos_close + 1].split("\n")
-            k = len(docs)
-            lines = [ln + "\n" for ln in head] + [f"\\pard body of document {k} line {j}\\par\n" for j in range(2 + k)] + ["\n", "}"]
-            docs.append((f"{path.split('.')[-1]}#{na}", lines, close_line + 1, fi))
-    return docs
-
-
-def synthetic_docs():
-    """fallback when the writer's layout could not be determined: today's layout (font entries one per line, each with
-    \\fcharset, closing brace on its own line), with different preamble lengths"""
-    out = []
-    for k, (nfont, joined) in enumerate(((10, False), (10, True), (3, False))):
-        fonts = [("{\\fonttbl" if i == 0 else "") + f"{{\\f{i}\\froman\\fcharset1\\fprq2 Font{i};}}\n" for i in range(nfont)]
-        head = ["{\\rtf1\\ansi\n"] + (["\\deff0\\deflang1033" + fonts[0]] + fonts[1:] if joined else ["\\deff0\\deflang1033\n"] + fonts) + ["}\n"]
-        lines = head + [f"\\pard body of document s{k} line {j}\\par\n" for j in range(2 + k)] + ["\n", "}"]
-        out.append((f"synthetic#{k}", lines, len(head), None))
-    return out
-
-
-class AssembleRun:
-    def __init__(self, pm, files, existing_out=None):
-        self.it = Interp(pm)
-        fsfiles = dict(files)
-        if existing_out is not None:
-            fsfiles["/work/out/combined.rtf"] = existing_out
-        self.fs = FS(self.it, fsfiles, dirs=("/", "/tmp", "/work", "/work/out", "/work/in"))
-        self.it.externals.update(self.fs.externals())
-        self.before = self.fs.snapshot()
-
-    def run(self, fi, inputs):
-        f = self.it.func_val(fi)
-        return self.it.explore(lambda: self.it.call(f, [list(inputs), "/work/out/combined.rtf"], {}))
-
-
-def _retag(lines, tag):
-    return [ln.replace("body of document", f"body of document {tag}/") for ln in lines]
-
-
-def _first_diff(got, exp):
-    for i, (a, b) in enumerate(zip(got, exp)):
-        if a != b:
-            return f"line {i}: got {a!r}, expected {b!r}"
-    return f"got {len(got)} lines, expected {len(exp)}" if len(got) != len(exp) else "equal"
-
-
-def r17_2(ctx: Ctx, docs) -> None:
-    """assemble_rtf is interpreted over model files (an in-memory file system): what it reads, writes and raises is observed"""
-    pm = interp_pm(ctx.pm)
-    fi = pm.func("assemble_rtf")
-    OUT = "/work/out/combined.rtf"
-    stats = {"scenarios": 0, "runs": 0, "forks": 0}
-
-    def scenario(label, seq, missing=(), existing_out=None):
-        """-> list of (outcome, fs, inputs) per valuation of unknown conditions"""
-        files, inputs, parts = {}, [], []
-        for n, d in enumerate(seq):
-            p = f"/work/in/part{n}.rtf"
-            lines = _retag(docs[d][1], f"input{n}")
-            inputs.append(p)
-            parts.append(lines)
-            if n not in missing:
-                files[p] = "".join(lines)
-        res = []
-        # each valuation needs a fresh file system: re-run per valuation
-        pending = [dict()]
-        while pending:
-            v = pending.pop()
-            r = AssembleRun(pm, files, existing_out)
-            r.it.valuation = v
-            try:
-                out = r.it.outcome(lambda: r.it.call(r.it.func_val(fi), [list(inputs), OUT], {}))
-            except NeedChoice as e:
-                if len(v) > 6:
-                    raise Unsupported("too many unknown conditions in assemble_rtf")
-                pending.extend({**v, e.key: x} for x in e.domain)
+                              f"{path}: the document does not end with a line consisting of '}}' only ({sorted(bad)[0]!r}); dropping the last line of non-final inputs removes "
+                              "content or leaves the group open")
+            if marker is None:
                 continue
-            res.append((out, r, parts))
-        stats["scenarios"] += 1
-        stats["runs"] += len(res)
-        stats["forks"] += len(res) - 1
-        return res
-
-    def unexpected(out, label):
-        """an exception on valid inputs"""
-        names = out[1].cls.mro_names() if out[0] == "raise" else []
-        if out[0] != "raise":
-            return False
-        if is_artefact(out[1]):
-            ctx.gap("R17.2", f"{label}: interpretation ended with {out[1]!r} (possibly an artefact of the file model)")
-        else:
-            ctx.violation("R17.2", fi.short, f"{label.split(' [')[0]} raises {names[0] if names else '?'}", fi.where(),
-                          f"assemble_rtf raises {out[1]!r} for {label} (all inputs exist and were written by rtflite)")
-        return True
-
-    # ---- empty list: nothing is read or written
-    for out, r, _ in scenario("empty list", []):
-        touched = [e for e in r.fs.events if e[0] != "read"]
-        ctx.instance("R17.2", fi.where(), f"assemble_rtf([]) -> {out[0]}; file-system events {r.fs.events}")
-        if out[0] == "raise":
-            unexpected(out, "an empty input list")
-        elif touched:
-            ctx.violation("R17.2", fi.short, "empty list writes", fi.where(), f"an empty input list must write nothing, but assemble_rtf performs {touched[:3]}")
-    # ---- single input reproduced unchanged
-    for d, (label, lines, start, wfi) in enumerate(docs):
-        for out, r, parts in scenario(f"a single input [{label}]", [d]):
-            if unexpected(out, f"a single input [{label}]"):
+            lines = pre.split("\n")
+            idx = [i for i, ln in enumerate(lines) if marker in ln]
+            if not idx:
+                ctx.violation("R17.1", path, f"marker {marker} absent", fi.where(), f"{path}: the preamble contains no line with {marker!r}; assemble_rtf keeps the whole file of later inputs")
                 continue
-            got = r.fs.files.get(OUT)
-            ok = got == "".join(parts[0])
-            ctx.instance("R17.2", fi.where(), f"single input [{label}] reproduced unchanged: {ok}")
-            if got is None:
-                ctx.violation("R17.2", fi.short, "no output write", fi.where(), "assemble_rtf does not write the output file for a single input")
-            elif not ok:
-                ctx.violation("R17.2", fi.short, "single input changed", fi.where(),
-                              f"a single input is not reproduced unchanged ({_first_diff(got.splitlines(True), parts[0])})")
-    # ---- two and three inputs: preamble of the first, body of the others from their own first body line, page line between
-    combos = [(a, b) for a in range(len(docs)) for b in range(len(docs))]
-    n = len(docs)
-    combos += [tuple((s + k) % n for k in range(3)) for s in range(n)] + [tuple(reversed(range(n)))[:3] + ((0,) if n < 3 else ())]
-    seen = set()
-    for seq in combos:
-        if seq in seen or len(seq) < 2:
-            continue
-        seen.add(seq)
-        label = "inputs [" + ", ".join(docs[d][0] for d in seq) + "]"
-        for out, r, parts in scenario(label, seq):
-            if unexpected(out, label):
+            # the marker must not occur in the literal parts after the preamble either (the reader takes the LAST line containing it)
+            expect = close_line - idx[-1] + 1
+            ctx.instance("R17.1", fi.where(), f"{path}: last {marker!r} line {idx[-1]}, font table closes on line {close_line}: the writer needs +{expect}, the reader adds +{add}")
+            if expect != add:
+                ctx.violation("R17.1", path, f"offset writer {expect} reader {add}", rfi.where(),
+                              f"{path}: the body starts {expect} line(s) after the last {marker!r} line but assemble_rtf skips {add}: "
+                              + ("part of the preamble leaks into" if add < expect else "body lines are cut from") + " later inputs")
+    ctx.floor("R17.1", 6)
+
+
+# ---------------------------------------------------------------------------------------------- R17.3 ordering on the CFG, memoised readers
+def _io_kind(pm, cg, fi, call: ast.Call, depth: int = 0):
+    """'read' | 'write' | 'exists' | None for one call (following calls into the package)"""
+    d = dotted(call.func)
+    last = d.split(".")[-1]
+    if d == "open" or (isinstance(call.func, ast.Attribute) and last == "open" and not d.startswith(("os.", "io.", "codecs."))) or d in ("io.open", "codecs.open"):
+        pos = 1 if d in ("open", "io.open", "codecs.open") else 0
+        m = call.args[pos] if len(call.args) > pos else next((k.value for k in call.keywords if k.arg == "mode"), None)
+        if m is None:
+            return "read"
+        if isinstance(m, ast.Constant) and isinstance(m.value, str):
+            return "write" if _is_write_mode(m.value) else "read"
+        return "write"
+    if isinstance(call.func, ast.Attribute) and last in ("write_text", "write_bytes", "touch", "unlink", "rename", "replace", "symlink_to"):
+        return "write"
+    if d in ("shutil.move", "shutil.copy", "shutil.copy2", "shutil.copyfile", "os.remove", "os.rename", "os.replace", "os.unlink"):
+        return "write"
+    if isinstance(call.func, ast.Attribute) and last in ("read_text", "read_bytes"):
+        return "read"
+    if last in EXIST_CALLS:
+        return "exists"
+    if depth < 3:
+        kinds = set()
+        for cand in cg.resolve_call(fi, call)[:4]:
+            if cand.cls and id(call) in cg.imprecise:
                 continue
-            got = r.fs.files.get(OUT)
-            if got is None:
-                ctx.violation("R17.2", fi.short, "no output write", fi.where(), f"assemble_rtf does not write the output file for {label}")
-                continue
-            verdict = _check_assembled(ctx, fi, docs, seq, parts, got.splitlines(True), label)
-            ctx.instance("R17.2", fi.where(), f"{label}: {verdict}")
-    # ---- a missing input: FileNotFoundError, nothing written
-    for miss in range(3):
-        seq = [k % len(docs) for k in range(3)]
-        for existing in ("OLD CONTENT\n", None):
-            label = f"input {miss + 1} of 3 missing, output {'exists' if existing else 'absent'}"
-            for out, r, parts in scenario(label, seq, missing={miss}, existing_out=existing):
-                names = out[1].cls.mro_names() if out[0] == "raise" else []
-                after = r.fs.files.get(OUT)
-                others = sorted(set(r.fs.files) - set(r.before[0]) - {OUT})
-                ctx.instance("R17.2", fi.where(), f"{label}: {out[0]} {names[:1]}; output afterwards {'unchanged' if after == existing else 'CHANGED'}")
-                if after != existing or others:
-                    what = "created" if existing is None else "modified"
-                    ctx.violation("R17.2", fi.short, f"output {what} although an input is missing", fi.where(),
-                                  f"{label}: the output file is {what} ({[e for e in r.fs.events if e[0] != 'read'][:3]}) although assemble_rtf "
-                                  f"{'raises ' + names[0] if names else 'returns'}; a missing input must raise FileNotFoundError before anything is written")
-                if "FileNotFoundError" not in names:
-                    if out[0] == "raise" and is_artefact(out[1]):
-                        ctx.gap("R17.2", f"{label}: interpretation ended with {out[1]!r}")
-                    else:
-                        ctx.violation("R17.2", fi.short, "missing input: " + (names[0] if names else "no exception"), fi.where(),
-                                      f"{label}: assemble_rtf {'raises ' + names[0] if names else 'returns normally'} instead of FileNotFoundError")
-    ctx.floor("R17.2", 6)
-    # ---- R17.3 (observed): a second call in the same process after an input was regenerated assembles the new content
-    seq = [k % len(docs) for k in range(2)]
-    files, inputs, parts = {}, [], []
-    for n, d in enumerate(seq):
-        p = f"/work/in/part{n}.rtf"
-        inputs.append(p)
-        parts.append(_retag(docs[d][1], f"input{n}"))
-        files[p] = "".join(parts[-1])
-
-    def make():
-        r = AssembleRun(pm, files)
-        f = r.it.func_val(fi)
-
-        def thunk():
-            r.it.call(f, [list(inputs), OUT], {})
-            first = r.fs.files.get(OUT)
-            r.fs.files[inputs[1]] = "".join(_retag(parts[1], "REGENERATED"))
-            r.it.call(f, [list(inputs), OUT], {})
-            return first, r.fs.files.get(OUT)
-        return r.it, thunk, r
-    rv = run_valuations(make)
-    stats["scenarios"] += 1
-    stats["runs"] += len(rv)
-    stats["forks"] += len(rv) - 1
-    cover(ctx, layouts=[d[0] for d in docs], input_sequences=sorted({len(q) for q in seen} | {0, 1, 3}), ordered_pairs_and_triples=len(seen),
-          scenarios=stats["scenarios"], interpreted_runs=stats["runs"], forks_on_unknown_conditions=stats["forks"],
-          fork_enumeration="all valuations of the unknown conditions consulted (at most 2^7 per scenario, else analysis gap)")
-    for v, out, r in rv:
-        if out[0] == "raise":
-            continue                                  # reported by the scenarios above
-        first, second = out[1]
-        fresh = second is not None and "REGENERATED" in second
-        ctx.instance("R17.3", fi.where(), f"second call after input 2 was rewritten assembles the new content: {fresh}")
-        if not fresh and first is not None:
-            ctx.violation("R17.3", fi.short, "stale input content", fi.where(),
-                          "after an input file was rewritten a second assemble_rtf call in the same process still assembles its old content "
-                          "(inputs are not read when the function is called)")
-
-
-def _check_assembled(ctx, fi, docs, seq, parts, got, label) -> str:
-    """compare the assembled lines with: first input without its closing line, then for every later input a page line
-    followed by its lines from its first body line (without the closing line unless it is the last input)"""
-    pos = 0
-    for n, d in enumerate(seq):
-        lines, start = parts[n], docs[d][2]
-        last = n == len(seq) - 1
-        if n > 0:
-            if pos >= len(got) or not _SEP_RE.fullmatch(got[pos]):
-                ctx.violation("R17.2", fi.short, "no page line before a later input", fi.where(),
-                              f"{label}: input {n + 1} is not preceded by a \\page line (found {got[pos] if pos < len(got) else 'end of file'!r}): "
-                              "inputs do not start on a new page / lines are lost or duplicated")
-                return "page line missing"
-            pos += 1
-        want = lines[(start if n > 0 else 0):(None if last else -1)]
-        have = got[pos:pos + len(want)]
-        if have != want:
-            # explain: same input kept from another line?
-            if n > 0:
-                end = len(got) if last else None
-                for s2 in range(0, len(lines)):
-                    alt = lines[s2:(None if last else -1)]
-                    if got[pos:pos + len(alt)] == alt and (not last or pos + len(alt) == len(got)) and \
-                            (last or (pos + len(alt) < len(got) and _SEP_RE.fullmatch(got[pos + len(alt)]))):
-                        w = docs[d][3]
-                        ctx.violation("R17.1", docs[d][0].split("#")[0], f"body starts on line {start}, reader keeps from line {s2}", (w or fi).where(),
-                                      f"{label}: a document written by {docs[d][0]} has its first body line at index {start} (the line after the one closing the font "
-                                      f"table) but assemble_rtf keeps it from line {s2} when it is not the first input: "
-                                      + ("part of the preamble leaks into the assembled file" if s2 < start else "body lines are cut"))
-                        return f"input {n + 1} kept from line {s2}, expected {start}"
-            ctx.violation("R17.2", fi.short, f"part {n + 1} of {len(seq)} differs", fi.where(),
-                          f"{label}: the assembled file differs from the concatenation in input order at part {n + 1} ({_first_diff(have, want)})")
-            return f"part {n + 1} differs"
-        pos += len(want)
-    if pos != len(got):
-        ctx.violation("R17.2", fi.short, "trailing content", fi.where(), f"{label}: {len(got) - pos} extra line(s) after the last input ({got[pos]!r} ...)")
-        return "trailing content"
-    return "equals first input + page-separated bodies of the others, in argument order"
+            for c2 in walk_no_nested(cand.node):
+                if isinstance(c2, ast.Call):
+                    k = _io_kind(pm, cg, cand, c2, depth + 1)
+                    if k in ("read", "write"):
+                        kinds.add(k)
+        if "write" in kinds:
+            return "write"
+        if "read" in kinds:
+            return "read"
+    return None
 
 
 def r17_3(ctx: Ctx) -> None:
-    """bookkeeping: memoised functions on assemble_rtf's call graph (whether memoisation makes a later call assemble stale
-    content is observed by the repeated-call scenario of r17_2, which models functools caches faithfully)"""
     pm = ctx.pm
-    fi = pm.func("assemble_rtf")
     from ..callgraph import CallGraph
+    from ..effects import memo_is_pure
+    fi = pm.func("assemble_rtf")
     cg = CallGraph(pm)
+    g = CFG(fi.node)
+    live = g.reachable(g.entry)
+    dom = g.dominators()
+    kinds: dict[int, set] = {}
+    sites: dict[int, list] = {}
+    for nd in g.nodes:
+        if nd.ast is None or id(nd) not in live:
+            continue
+        for part in own_parts(nd):
+            for c in ast.walk(part):
+                if isinstance(c, ast.Call):
+                    k = _io_kind(pm, cg, fi, c)
+                    if k:
+                        kinds.setdefault(id(nd), set()).add(k)
+                        sites.setdefault(id(nd), []).append((k, c))
+    byid = {id(nd): nd for nd in g.nodes}
+    reads = [byid[i] for i, ks in kinds.items() if "read" in ks]
+    writes = [byid[i] for i, ks in kinds.items() if "write" in ks]
+    ctx.instance("R17.3", fi.where(), f"assemble_rtf CFG: {len(reads)} node(s) reading files, {len(writes)} node(s) opening/writing files")
+    if not writes:
+        ctx.gap("R17.3", "no file-writing operation was re-identified in assemble_rtf")
+    if not reads:
+        ctx.gap("R17.3", "no file-reading operation was re-identified in assemble_rtf")
+    for w in writes:
+        after = g.reachable(w)
+        late = [r for r in reads if id(r) in after and (r is not w or _in_loop(w.ast, fi.node))]
+        ctx.instance("R17.3", fi.where(w.ast), f"write `{unparse([c for k, c in sites[id(w)] if k == 'write'][0])[:60]}`: input reads reachable afterwards: {len(late)}")
+        if late:
+            ctx.violation("R17.3", fi.short, "input read after output open", fi.where(late[0].ast),
+                          f"an input file is read (`{unparse([c for k, c in sites[id(late[0])] if k == 'read'][0])[:60]}`) after the output has been opened for writing "
+                          f"(`{unparse([c for k, c in sites[id(w)] if k == 'write'][0])[:60]}`): a missing or unreadable later input leaves a partial output / an existing output is destroyed")
+    # explicit existence check: the test guarding `raise FileNotFoundError`
+    checks = []
+    for nd in g.nodes:
+        if id(nd) in live and isinstance(nd.ast, ast.Raise) and nd.ast.exc is not None and "FileNotFoundError" in exc_mro(pm, dotted(nd.ast.exc.func if isinstance(nd.ast.exc, ast.Call) else nd.ast.exc)):
+            gs = guards(nd.ast, fi.node)
+            from ..astmatch import resolve
+            tests = [t for t, _pol in gs if any(isinstance(c, ast.Call) and dotted(c.func).split(".")[-1] in EXIST_CALLS for c in ast.walk(resolve(t, fi.node)))]
+            if not tests and gs:
+                tests = [gs[0][0]]
+            for t in g.nodes:
+                if id(t) in live and t.kind == "test" and isinstance(t.ast, ast.If) and any(t.ast.test is x for x in tests):
+                    checks.append((t, nd))
+    if not checks:
+        ctx.instance("R17.3", fi.where(), "no explicit existence check: a missing input surfaces as the FileNotFoundError of the read itself (all reads precede the first write)")
+    for t, rz in checks:
+        loop = next((a for a in _ancestors(t.ast, fi.node) if isinstance(a, (ast.For, ast.While))), None)
+        tdom = t
+        if loop is not None:
+            tdom = next((nd for nd in g.nodes if nd.kind == "loop" and nd.ast is loop), t)
+        for w in writes:
+            dominated = id(tdom) in dom.get(id(w), set())
+            same_loop = loop is not None and any(a is loop for a in _ancestors(w.ast, fi.node))
+            ctx.instance("R17.3", fi.where(t.ast), f"existence check `{unparse(t.ast.test)[:50]}` dominates write at line {w.line}: {dominated}; write inside the checking loop: {same_loop}")
+            if not dominated:
+                ctx.violation("R17.3", fi.short, "write not dominated by existence check", fi.where(w.ast), "the output is opened for writing on a path that has not passed the existence check of the inputs")
+            elif same_loop:
+                ctx.violation("R17.3", fi.short, "write inside the existence-check loop", fi.where(w.ast), "the output is written while later inputs have not been checked for existence yet")
+    # memoised functions that read files: a later call assembles stale content
     reach = cg.reachable(["assemble_rtf"])
-    memo = sorted(short for short in reach if short in pm.funcs and any(d.split(".")[-1] in ("lru_cache", "cache") for d in pm.funcs[short].decorators))
-    ctx.instance("R17.3", fi.where(), f"{len(reach)} function(s) on assemble_rtf's call graph, memoised: {memo or 'none'}")
+    n_memo = 0
+    for short in sorted(reach):
+        f2 = pm.funcs.get(short)
+        if f2 is None:
+            continue
+        memo = [d for d in f2.decorators if d.split(".")[-1] in ("lru_cache", "cache", "cached", "memoize")]
+        if not memo:
+            continue
+        n_memo += 1
+        pure, why = memo_is_pure(pm, f2)
+        ctx.instance("R17.3", f2.where(), f"{short} is memoised ({memo[0]}): result depends only on its arguments: {pure} ({why})")
+        if not pure:
+            ctx.violation("R17.3", short, "memoised " + memo[0], f2.where(), f"{short} (used by assemble_rtf) is memoised ({memo[0]}) but {why}: a later call assembles the content a path had "
+                          "the first time it was read")
+    ctx.instance("R17.3", fi.where(), f"{len(reach)} function(s) on assemble_rtf's call graph, {n_memo} memoised")
+
+
+def _ancestors(n, stop):
+    p = getattr(n, "_parent", None)
+    while p is not None and p is not stop:
+        yield p
+        p = getattr(p, "_parent", None)
+
+
+def _in_loop(n, stop) -> bool:
+    return any(isinstance(a, (ast.For, ast.While)) for a in _ancestors(n, stop))
 
 
 def check(ctx: Ctx) -> None:
     ctx.explain(
-        "R17.1 layout agreement between writers and reader: from the abstract document shape of each encode path the literal "
-        "preamble is taken, the line closing the font table located (it must carry nothing else, and every alternative must end in "
-        "a line that is exactly '}') and a model document built; R17.2 assemble_rtf's syntax tree is interpreted over an in-memory "
-        "file system holding such model documents: an empty list touches nothing, a single input is reproduced unchanged, two and "
-        "three inputs of every layout combination give the first input plus \\page-separated bodies of the others from their own "
-        "first body line in argument order (a different start line is reported as R17.1), and a missing input at any position "
-        "raises FileNotFoundError with the output path untouched. R17.3 a second call in the same model process after an input was "
-        "rewritten assembles the new content (memoised readers are modelled faithfully).")
-    ctx.explain("Method for R17.2/R17.3: " + METHOD + ". Decided for: the empty list, each writer layout alone, every ordered pair of layouts, "
-                "rotations/reversal as triples, a missing input at each of 3 positions with the output present and absent, and a repeated call "
-                "after an input was rewritten (counts in coverage.interpretation).")
-    ctx.assume("inputs were written by this version of rtflite (the property's premise)")
-    ctx.assume("model documents: the preamble lines are the literal preamble the encoders write (R17.1), body lines are opaque tagged atoms that "
-               "contain neither the font-table marker nor a lone '}', the last line is '}'; the file system is an in-memory model (text files, "
-               "directories, open/Path/os/shutil/tempfile operations)")
-    ctx.assume("sequences of 0..3 inputs are representative of longer ones (the per-input treatment depends only on first / middle / last position)")
-    ctx.undecided("that the assembled pages equal the concatenation for concrete inputs; colour tables of later inputs")
-    ctx.undecided("input sequences longer than 3; body lines that themselves contain the font-table marker; I/O errors other than a missing input")
-    docs = writer_docs(ctx)
-    ctx.floor("R17.1", 6)
-    if not docs:
-        docs = synthetic_docs()
-        ctx.explain("(writer layout undetermined: assemble_rtf was exercised on synthetic documents in today's layout)")
-    r17_2(ctx, docs)
+        "R17.1 layout agreement between writers and reader: from the abstract document shape of each encode path the literal preamble is taken; the line offset from the last line "
+        "containing the reader's marker to the first body line must equal the constant the reader adds, the font-table closing line must carry nothing else and every alternative "
+        "must end in a line that is exactly '}'. R17.2 assemble_rtf is evaluated once over a symbolic input list (length N, generic position K): the written stream is read off as "
+        "position-quantified segments and judged for every position class (first/last) x every valuation of the consulted conditions: segments tile 0..N-1 in argument order, "
+        "each piece is a slice of the lines read from its own input starting at 0 (first) or at last-marker-line + c found by scanning those same lines (later), ending before "
+        "the closing line for non-last inputs, followed by a \\page line exactly for non-last inputs; valuations possible for the empty list open nothing; where an existence "
+        "test of the generic input fails FileNotFoundError is raised before any write. R17.3 CFG: no input read is reachable from a write, an explicit existence check dominates "
+        "the writes and is not interleaved with them; memoised file readers on the call graph.")
+    declare_sdt(ctx)
+    ctx.assume("inputs were written by this version of rtflite (the property's premise): R17.1 ties the reader's marker and offset to the writers' literal preamble")
+    ctx.assume("conditions that are linear in the generic position K and the number of inputs N are decided exactly on the four position classes (K=0,N=1), (K=0,N>=2), (K=N-1,N>=2), "
+               "(0<K<N-1); any other condition on the sequence as a whole is an analysis gap")
+    ctx.undecided("that the assembled pages equal the concatenation for concrete inputs (content of body lines; lines that themselves contain the marker); colour tables of later inputs")
+    ctx.undecided("I/O errors other than a missing input; interplay of more than one loop iteration beyond the generic inductive step")
+    sm = r17_2(ctx)
+    r17_1(ctx, sm.markers if sm else set(), sm.offsets if sm else set())
     r17_3(ctx)
